@@ -697,98 +697,119 @@ Example blk_plain_examples :
 Proof. repeat split. Qed.
 
 (* ------------------------------------------------------------------ *)
-(** * Documents as trees: the fragment of the structure theorem
+(* ------------------------------------------------------------------ *)
+(** * Atoms: the values that are one event and one token
 
-   null, booleans, integers of every size and sign (all three scalar integer events), strings,
-   lists and maps nested to any depth, comments of both kinds between the items of a list and
-   between the pairs of a map.  [VPair] and [VCom] are items, not values; [wf] says where they may stand. *)
+   null, booleans (OnBoolean and OnTrue / OnFalse), integers of every size and sign in the three scalar
+   event forms, strings / resource ids / remote references (OnArray and OnStringlikeArray), local
+   references, media (whole), custom binary and custom text (whole). *)
+
+From CE Require Proofs.ConvertProofs Model.Convert Proofs.CteEncProofs.
+From CE Require Import Base.LE.
 
 (* the three string-like values: a string, a resource id @"...", a remote reference $"..." *)
 Inductive skind := KStr | KRid | KRef.
 Definition sty (k : skind) : N := match k with KStr => AT_String | KRid => AT_ResourceID | KRef => AT_ReferenceRemote end.
 Definition spre (k : skind) : list N := match k with KStr => [] | KRid => [64] | KRef => [36] end.
 
-(* [VBool plain b]: OnBoolean(b) when [plain], OnTrue / OnFalse otherwise;
-   [VStr k whole rs]: OnArray when [whole], OnStringlikeArray otherwise *)
-Inductive tree :=
-| VNull | VBool (plain b : bool) | VPos (n : N) | VNeg (n : N) | VInt (z : Z) | VStr (k : skind) (whole : bool) (rs : list N)
-| VCom (multi : bool) (rs : list N)
-| VPair (k v : tree)
-| VList (l : list tree) | VMap (l : list tree).
+(* element widths of the integer arrays *)
+Inductive iw := W8 | W16 | W32 | W64.
+Definition wbits (w : iw) : N := match w with W8 => 8 | W16 => 16 | W32 => 32 | W64 => 64 end.
+Definition wbytes (w : iw) : nat := match w with W8 => 1 | W16 => 2 | W32 => 4 | W64 => 8 end%nat.
+Definition ikind (sg : bool) (w : iw) : CteEnc.nkind :=
+  match sg, w with
+  | false, W8 => CteEnc.NU8 | false, W16 => CteEnc.NU16 | false, W32 => CteEnc.NU32 | false, W64 => CteEnc.NU64
+  | true, W8 => CteEnc.NI8 | true, W16 => CteEnc.NI16 | true, W32 => CteEnc.NI32 | true, W64 => CteEnc.NI64
+  end.
+Definition ity (sg : bool) (w : iw) : N :=
+  match sg, w with
+  | false, W8 => AT_Uint8 | false, W16 => AT_Uint16 | false, W32 => AT_Uint32 | false, W64 => AT_Uint64
+  | true, W8 => AT_Int8 | true, W16 => AT_Int16 | true, W32 => AT_Int32 | true, W64 => AT_Int64
+  end.
+Definition idata (w : iw) (xs : list N) : bytes := concat (map (le_encode (wbytes w)) xs).
+Definition ielem (sg : bool) (w : iw) (x : N) : bytes := CteEnc.go_int_text sg (wbits w) x 10 O.
+Fixpoint join32 (l : list (list N)) : list N :=
+  match l with [] => [] | [a] => a | a :: r => a ++ 32 :: join32 r end.
 
-Section tree_induction.
-  Variable P : tree -> Prop.
-  Hypotheses (Hnull : P VNull) (Hbool : forall pl b, P (VBool pl b)) (Hpos : forall n, P (VPos n)) (Hneg : forall n, P (VNeg n))
-             (Hint : forall z, P (VInt z)) (Hstr : forall k w rs, P (VStr k w rs)) (Hcom : forall m rs, P (VCom m rs))
-             (Hpair : forall k v, P k -> P v -> P (VPair k v))
-             (Hlist : forall l, Forall P l -> P (VList l)) (Hmap : forall l, Forall P l -> P (VMap l)).
-  Fixpoint tree_induction (t : tree) : P t :=
-    match t with
-    | VNull => Hnull | VBool pl b => Hbool pl b | VPos n => Hpos n | VNeg n => Hneg n | VInt z => Hint z
-    | VStr k w rs => Hstr k w rs | VCom m rs => Hcom m rs
-    | VPair k v => Hpair k v (tree_induction k) (tree_induction v)
-    | VList l => Hlist l ((fix go (l : list tree) : Forall P l :=
-                             match l with [] => Forall_nil P | x :: r => Forall_cons x (tree_induction x) (go r) end) l)
-    | VMap l => Hmap l ((fix go (l : list tree) : Forall P l :=
-                           match l with [] => Forall_nil P | x :: r => Forall_cons x (tree_induction x) (go r) end) l)
-    end.
-End tree_induction.
-
-Definition is_value (t : tree) : bool := match t with VCom _ _ | VPair _ _ => false | _ => true end.
-Definition is_com (t : tree) : bool := match t with VCom _ _ => true | _ => false end.
-Definition is_pair (t : tree) : bool := match t with VPair _ _ => true | _ => false end.
-Definition is_lc (t : tree) : bool := match t with VCom false _ => true | _ => false end.
+Inductive atom :=
+| ANull | ABool (plain b : bool) | APos (n : N) | ANeg (n : N) | AInt (z : Z)
+| AStr (k : skind) (whole : bool) (rs : list N)
+| ARef (id : list N)
+| AMedia (mt : bytes) (data : bytes)
+| ACustomB (ct : N) (data : bytes)
+| ACustomT (ct : N) (rs : list N)
+| AIntArr (sg : bool) (w : iw) (xs : list N)       (* a whole integer array given by its elements' bit patterns *)
+| AUidArr (us : list bytes)                        (* a whole UID array given by its 16-byte elements *)
+| AUid (u : bytes)                                 (* a UID value *)
+| ABitArr (bits : list bool).                      (* a whole bit array (unused bits of the last byte zero) *)
 
 Definition scalars (rs : list N) : Prop := Forall scalar rs.
+Definition str_bytes (rs : list N) : bytes := CteLit.utf8_str rs.
+Definition data_bytes (d : bytes) : Prop := Forall (fun b => b < 256) d.
+(* an identifier as the lexer sees it: non-empty, CHAR_IDENTIFIER code points (for the identifiers the
+   validator admits see [ident_valid_ok] below, which is C03's theorem) *)
+Definition ident_ok (id : list N) : Prop := id <> [] /\ forallb ch_ident id = true /\ scalars id.
 
-Fixpoint wf (t : tree) : Prop :=
-  match t with
-  | VStr _ _ rs => scalars rs
-  | VCom multi rs => scalars rs /\ (if multi then blk_plain PNone rs = true else line_ok rs = true)
-  | VPair k v => wf k /\ wf v /\ is_value k = true /\ is_value v = true
-  | VInt z => (- 2 ^ 63 <= z < 2 ^ 63)%Z
-  | VList l => (fix all (l : list tree) : Prop := match l with [] => True | x :: r => (wf x /\ is_pair x = false) /\ all r end) l
-  | VMap l => (fix all (l : list tree) : Prop := match l with [] => True | x :: r => (wf x /\ is_value x = false) /\ all r end) l
+Definition awf (a : atom) : Prop :=
+  match a with
+  | AInt z => (- 2 ^ 63 <= z < 2 ^ 63)%Z
+  | AStr _ _ rs => scalars rs
+  | ARef id => ident_ok id
+  | AMedia mt data => Convert.media_valid mt = true /\ data_bytes data
+  | ACustomB ct data => ct < 2 ^ 64 /\ data_bytes data
+  | ACustomT ct rs => ct < 2 ^ 64 /\ scalars rs
+  | AIntArr sg w xs => Forall (fun x => x < 2 ^ wbits w) xs /\ N.of_nat (length xs) < 2 ^ 64
+  | AUidArr us => Forall (fun u => length u = 16%nat /\ data_bytes u) us /\ N.of_nat (length us) < 2 ^ 64
+  | AUid u => length u = 16%nat /\ data_bytes u
+  | ABitArr bits => N.of_nat (length bits) < 2 ^ 64
   | _ => True
   end.
 
-Lemma wf_list l : wf (VList l) <-> Forall (fun x => wf x /\ is_pair x = false) l.
-Proof. induction l as [|x r IH]; [split; constructor|]. split; intro H.
-  - destruct H as [H1 H2]. constructor; [exact H1|]. apply IH, H2.
-  - inversion H; subst. split; [assumption|]. apply IH. assumption. Qed.
-Lemma wf_map l : wf (VMap l) <-> Forall (fun x => wf x /\ is_value x = false) l.
-Proof. induction l as [|x r IH]; [split; constructor|]. split; intro H.
-  - destruct H as [H1 H2]. constructor; [exact H1|]. apply IH, H2.
-  - inversion H; subst. split; [assumption|]. apply IH. assumption. Qed.
-
-Definition str_bytes (rs : list N) : bytes := CteLit.utf8_str rs.
-
-(* the events handed to the encoder *)
-Fixpoint events_of (t : tree) : list event :=
-  match t with
-  | VNull => [ENull] | VBool pl b => [if pl then EBool b else if b then ETrue else EFalse]
-  | VPos n => [EPosInt n] | VNeg n => [ENegInt n] | VInt z => [EInt z]
-  | VStr k whole rs => [if whole then EArray (sty k) (N.of_nat (length (str_bytes rs))) (str_bytes rs)
-                        else EStringArray (sty k) (str_bytes rs)]
-  | VCom m rs => [EComment m (str_bytes rs)]
-  | VPair k v => events_of k ++ events_of v
-  | VList l => EList :: flat_map events_of l ++ [EEnd]
-  | VMap l => EMap :: flat_map events_of l ++ [EEnd]
+(* the event handed to the encoder, and the event the reader reports *)
+Definition aevent (a : atom) : event :=
+  match a with
+  | ANull => ENull | ABool pl b => if pl then EBool b else if b then ETrue else EFalse
+  | APos n => EPosInt n | ANeg n => ENegInt n | AInt z => EInt z
+  | AStr k whole rs => if whole then EArray (sty k) (N.of_nat (length (str_bytes rs))) (str_bytes rs)
+                       else EStringArray (sty k) (str_bytes rs)
+  | ARef id => ERefLocal (str_bytes id)
+  | AMedia mt data => EMedia mt data
+  | ACustomB ct data => ECustomBin ct data
+  | ACustomT ct rs => ECustomText ct (str_bytes rs)
+  | AIntArr sg w xs => EArray (ity sg w) (N.of_nat (length xs)) (idata w xs)
+  | AUidArr us => EArray AT_UID (N.of_nat (length us)) (concat us)
+  | AUid u => EUid u
+  | ABitArr bits => EArray AT_Bit (N.of_nat (length bits)) (pack_bits (length bits) bits)
   end.
-
-(* the events the reader reports *)
 Definition rd_z (z : Z) : event := rd_int (z <? 0)%Z (Z.abs_N z).
-Fixpoint rd_events (t : tree) : list event :=
-  match t with
-  | VNull => [ENull] | VBool _ b => [EBool b] | VPos n => [rd_int false n] | VNeg n => [rd_int true n] | VInt z => [rd_z z]
-  | VStr k _ rs => [EArray (sty k) (N.of_nat (length (str_bytes rs))) (str_bytes rs)]
-  | VCom m rs => [EComment m (str_bytes rs)]
-  | VPair k v => rd_events k ++ rd_events v
-  | VList l => EList :: flat_map rd_events l ++ [EEnd]
-  | VMap l => EMap :: flat_map rd_events l ++ [EEnd]
+Definition ard (a : atom) : event :=
+  match a with
+  | ANull => ENull | ABool _ b => EBool b | APos n => rd_int false n | ANeg n => rd_int true n | AInt z => rd_z z
+  | AStr k _ rs => EArray (sty k) (N.of_nat (length (str_bytes rs))) (str_bytes rs)
+  | ARef id => ERefLocal (str_bytes id)
+  | AMedia mt data => EMedia mt data
+  | ACustomB ct data => ECustomBin ct data
+  | ACustomT ct rs => ECustomText ct (str_bytes rs)
+  | AIntArr sg w xs => EArray (ity sg w) (N.of_nat (length xs)) (idata w xs)
+  | AUidArr us => EArray AT_UID (N.of_nat (length us)) (concat us)
+  | AUid u => EUid u
+  | ABitArr bits => EArray AT_Bit (N.of_nat (length bits)) (pack_bits (length bits) bits)
   end.
-
-(* ---- the layout the encoder gives such a tree ---- *)
+Definition adev (a : atom) : Denote.dev :=
+  match a with
+  | ANull => Denote.DNull | ABool _ b => Denote.DBool b
+  | APos n => Denote.dnum false n 0 | ANeg n => Denote.dnum true n 0
+  | AInt z => Denote.dnum (z <? 0)%Z (Z.abs_N z) 0
+  | AStr k _ rs => Denote.DArr (sty k) (N.of_nat (length (str_bytes rs))) (str_bytes rs)
+  | ARef id => Denote.DRef (str_bytes id)
+  | AMedia mt data => Denote.DMedia mt data
+  | ACustomB ct data => Denote.DCustom false ct data
+  | ACustomT ct rs => Denote.DCustom true ct (str_bytes rs)
+  | AIntArr sg w xs => Denote.DArr (ity sg w) (Denote.whole_count (ity sg w) (N.of_nat (length xs)) (idata w xs)) (idata w xs)
+  | AUidArr us => Denote.DArr AT_UID (Denote.whole_count AT_UID (N.of_nat (length us)) (concat us)) (concat us)
+  | AUid u => Denote.DUid u
+  | ABitArr bits => Denote.DArr AT_Bit (Denote.whole_count AT_Bit (N.of_nat (length bits)) (pack_bits (length bits) bits)) (pack_bits (length bits) bits)
+  end.
 
 Definition spaces (k : N) : inp := repeat 32 (N.to_nat k).
 Definition nl (k : N) : inp := 10 :: spaces k.
@@ -796,38 +817,34 @@ Definition int_text (neg : bool) (n : N) : inp := (if neg then [45] else []) ++ 
 Definition z_text (z : Z) : inp :=
   if (0 <=? z)%Z then CteEnc.dec (Z.to_N z) else 45 :: CteEnc.dec (Z.to_N (- z) mod 2 ^ 64).
 
-Section Printer.
-  (* how string contents and comment texts are rendered: as bytes, or as the code points of those bytes *)
-  Variables (fs fc : list N -> list N).
-  Fixpoint gp (ind : N) (t : tree) : list N :=
-    match t with
-    | VNull => CteEnc.t_null
-    | VBool _ b => if b then CteEnc.t_true else CteEnc.t_false
-    | VPos n => int_text false n
-    | VNeg n => int_text true n
-    | VInt z => z_text z
-    | VStr k _ rs => spre k ++ 34 :: fs rs ++ [34]
-    | VCom false rs => 47 :: 47 :: fc rs
-    | VCom true rs => 47 :: 42 :: fc rs ++ [42; 47]
-    | VPair k v => gp ind k ++ [32; 61; 32] ++ gp ind v
-    | VList l => 91 :: flat_map (fun x => nl (ind + 4) ++ gp (ind + 4) x) l ++ (match l with [] => [] | _ => nl ind end) ++ [93]
-    | VMap l => 123 :: flat_map (fun x => nl (ind + 4) ++ gp (ind + 4) x) l ++ (match l with [] => [] | _ => nl ind end) ++ [125]
-    end.
-End Printer.
+(* the text of an atom; [fs] renders string contents, [fc] comment texts and identifiers: as bytes, or as
+   the code points of those bytes *)
+Definition atext (fs fc : list N -> list N) (a : atom) : list N :=
+  match a with
+  | ANull => CteEnc.t_null
+  | ABool _ b => if b then CteEnc.t_true else CteEnc.t_false
+  | APos n => int_text false n
+  | ANeg n => int_text true n
+  | AInt z => z_text z
+  | AStr k _ rs => spre k ++ 34 :: fs rs ++ [34]
+  | ARef id => 36 :: fc id
+  | AMedia mt data => 64 :: mt ++ 91 :: CteEnc.hexbytes data ++ [93]
+  | ACustomB ct data => 64 :: CteEnc.dec ct ++ 91 :: CteEnc.hexbytes data ++ [93]
+  | ACustomT ct rs => 64 :: CteEnc.dec ct ++ 34 :: fs rs ++ [34]
+  | AIntArr sg w xs => CteEnc.nk_name (ikind sg w) ++ 91 :: join32 (map (ielem sg w) xs) ++ [93]
+  | AUidArr us => CteEnc.t_uidhdr ++ join32 (map CteEnc.uid_text us) ++ [93]
+  | AUid u => CteEnc.uid_text u
+  | ABitArr bits => CteEnc.t_bithdr ++ CteEncProofs.bits_text bits ++ [93]
+  end.
+Definition abytes : atom -> bytes := atext qbytes str_bytes.
+Definition arunes : atom -> inp := atext qbody (fun rs => rs).
 
-Definition pp : N -> tree -> bytes := gp qbytes str_bytes.          (* the text *)
-Definition rp : N -> tree -> inp := gp qbody (fun rs => rs).         (* its code points *)
-
-Definition pp_doc (t : tree) : bytes := 99 :: 48 :: nl 0 ++ pp 0 t.
-Definition document (body : list event) : list event := EBeginDoc :: EVersion 0 :: body ++ [EEndDoc].
-
-(* ---- the code points of the text ---- *)
+(* ---- ascii pieces ---- *)
 
 Ltac ascii_tac := unfold ascii; repeat (first [apply Forall_nil | apply Forall_cons; [lia|]]).
 
 Lemma ascii_app a b : ascii a -> ascii b -> ascii (a ++ b).
 Proof. intros. apply Forall_app. split; assumption. Qed.
-
 Lemma ascii_spaces k : ascii (spaces k).
 Proof. unfold spaces, ascii. induction (N.to_nat k); cbn [repeat]; constructor; [lia|assumption]. Qed.
 Lemma ascii_nl k : ascii (nl k).
@@ -839,57 +856,78 @@ Proof. unfold int_text. apply ascii_app; [destruct neg; ascii_tac|apply ascii_de
 Lemma ascii_z_text z : ascii (z_text z).
 Proof. unfold z_text. destruct (0 <=? z)%Z; [apply ascii_dec|]. constructor; [lia|apply ascii_dec]. Qed.
 
-Lemma runes_items k l (IH : Forall (fun t => wf t -> forall ind tail, runes (pp ind t ++ tail) = rp ind t ++ runes tail) l) :
-  Forall wf l -> forall tail,
-  runes (flat_map (fun x => nl k ++ pp k x) l ++ tail) = flat_map (fun x => nl k ++ rp k x) l ++ runes tail.
+Lemma ascii_hex2 b : b < 256 -> ascii (CteEnc.hex2 b).
 Proof.
-  induction IH as [|x r Hx Hr IHr]; intros Hwf tail; [reflexivity|].
-  inversion Hwf; subst. cbn [flat_map]. rewrite <- !app_assoc.
-  rewrite runes_ascii_app by apply ascii_nl. rewrite Hx by assumption. rewrite IHr by assumption. reflexivity.
+  intro H. unfold CteEnc.hex2. constructor; [apply digit_char_ascii|constructor; [apply digit_char_ascii|constructor]].
+  - assert (b / 16 < 16) by (apply N.div_lt_upper_bound; lia). lia.
+  - assert (b mod 16 < 16) by (apply N.mod_lt; lia). lia.
+Qed.
+Lemma ascii_hexbytes d : data_bytes d -> ascii (CteEnc.hexbytes d).
+Proof.
+  induction 1 as [|b r Hb Hr IH]; [constructor|]. cbn [CteEnc.hexbytes]. destruct r as [|b2 r'].
+  - apply ascii_hex2, Hb.
+  - apply ascii_app; [apply ascii_hex2, Hb|]. constructor; [lia|exact IH].
+Qed.
+Lemma ascii_runes a : ascii a -> runes a = a.
+Proof. intro H. rewrite <- (app_nil_r a) at 1. rewrite runes_ascii_app by exact H. apply app_nil_r. Qed.
+
+Lemma media_ascii mt : Convert.media_valid mt = true -> ascii mt.
+Proof. unfold Convert.media_valid. intro H. apply andb_true_iff in H as [_ H]. apply ConvertProofs.media_type_valid_ascii, H. Qed.
+
+Lemma ascii_ielem sg w x : ascii (ielem sg w x).
+Proof.
+  unfold ielem, CteEnc.go_int_text. apply ascii_app; [destruct (_ && _); ascii_tac|].
+  unfold CteEnc.pad_left. apply ascii_app; [|apply to_digits_ascii; lia].
+  unfold ascii. apply Forall_forall. intros c Hc. apply repeat_spec in Hc. subst. lia.
+Qed.
+Lemma ascii_join32 l : Forall ascii l -> ascii (join32 l).
+Proof.
+  induction 1 as [|a r Ha Hr IH]; [constructor|]. cbn [join32]. destruct r; [exact Ha|].
+  apply ascii_app; [exact Ha|]. constructor; [lia|exact IH].
+Qed.
+Lemma ascii_nk_name sg w : ascii (CteEnc.nk_name (ikind sg w)).
+Proof. destruct sg, w; cbn; ascii_tac. Qed.
+
+Lemma nth_byte u : data_bytes u -> forall i, nth i u 0 < 256.
+Proof. intros Hd i. destruct (nth_in_or_default i u 0) as [Hi|E]; [apply (proj1 (Forall_forall _ _) Hd), Hi|rewrite E; lia]. Qed.
+Lemma ascii_uid_text u : data_bytes u -> ascii (CteEnc.uid_text u).
+Proof.
+  intro Hd. assert (Hb := nth_byte u Hd). unfold CteEnc.uid_text. cbv zeta beta.
+  repeat (apply ascii_app; [first [apply ascii_hex2, Hb | ascii_tac]|]). apply ascii_hex2, Hb.
 Qed.
 
-Lemma runes_pp t : wf t -> forall ind tail, runes (pp ind t ++ tail) = rp ind t ++ runes tail.
+Lemma ascii_bits_text l : ascii (CteEncProofs.bits_text l).
+Proof. unfold ascii. induction l as [|b l IH]; [constructor|]. cbn [CteEncProofs.bits_text map]. constructor; [destruct b; cbn; lia|exact IH]. Qed.
+
+(* ---- code points of the text ---- *)
+
+Lemma atom_runes a : awf a -> forall tail, runes (abytes a ++ tail) = arunes a ++ runes tail.
 Proof.
-  induction t using tree_induction; intros Hwf ind tail; unfold pp, rp in *; cbn [gp].
+  intros Hwf tail. unfold abytes, arunes. destruct a; cbn [atext awf] in *.
   - apply runes_ascii_app. unfold CteEnc.t_null. ascii_tac.
   - destruct b; apply runes_ascii_app; [unfold CteEnc.t_true|unfold CteEnc.t_false]; ascii_tac.
   - apply runes_ascii_app, ascii_int_text.
   - apply runes_ascii_app, ascii_int_text.
   - apply runes_ascii_app, ascii_z_text.
-  - cbn [wf] in Hwf. destruct k; cbn [spre app]; rewrite !runes_ascii_cons by lia; rewrite <- app_assoc;
+  - destruct k; cbn [spre app]; rewrite !runes_ascii_cons by lia; rewrite <- app_assoc;
       rewrite runes_qbytes_app by exact Hwf; cbn [app]; rewrite runes_ascii_cons by lia; rewrite <- ?app_assoc; reflexivity.
-  - cbn [wf] in Hwf. destruct Hwf as [Hs _]. destruct m; cbn [app].
-    + rewrite !runes_ascii_cons by lia. rewrite <- app_assoc. unfold str_bytes. rewrite runes_utf8_str_app by exact Hs.
-      cbn [app]. rewrite !runes_ascii_cons by lia. rewrite <- app_assoc. reflexivity.
-    + rewrite !runes_ascii_cons by lia. unfold str_bytes. rewrite runes_utf8_str_app by exact Hs. reflexivity.
-  - cbn [wf] in Hwf. destruct Hwf as [Hk [Hv _]]. rewrite <- !app_assoc. rewrite IHt1 by exact Hk.
-    cbn [app]. rewrite !runes_ascii_cons by lia. rewrite IHt2 by exact Hv. reflexivity.
-  - apply wf_list in Hwf. assert (Hw : Forall wf l) by (eapply Forall_impl; [|exact Hwf]; intros a [Ha _]; exact Ha).
-    cbn [app]. rewrite runes_ascii_cons by lia. rewrite <- !app_assoc.
-    rewrite (runes_items _ _ H Hw). destruct l; cbn [app]; [rewrite runes_ascii_cons by lia; reflexivity|].
-    rewrite runes_ascii_app by apply ascii_nl. cbn [app]. rewrite runes_ascii_cons by lia. reflexivity.
-  - apply wf_map in Hwf. assert (Hw : Forall wf l) by (eapply Forall_impl; [|exact Hwf]; intros a [Ha _]; exact Ha).
-    cbn [app]. rewrite runes_ascii_cons by lia. rewrite <- !app_assoc.
-    rewrite (runes_items _ _ H Hw). destruct l; cbn [app]; [rewrite runes_ascii_cons by lia; reflexivity|].
-    rewrite runes_ascii_app by apply ascii_nl. cbn [app]. rewrite runes_ascii_cons by lia. reflexivity.
+  - destruct Hwf as [_ [_ Hs]]. cbn [app]. rewrite runes_ascii_cons by lia. unfold str_bytes.
+    rewrite runes_utf8_str_app by exact Hs. reflexivity.
+  - destruct Hwf as [Hm Hd]. apply runes_ascii_app. constructor; [lia|]. apply ascii_app; [apply media_ascii, Hm|].
+    constructor; [lia|]. apply ascii_app; [apply ascii_hexbytes, Hd|ascii_tac].
+  - destruct Hwf as [_ Hd]. apply runes_ascii_app. constructor; [lia|]. apply ascii_app; [apply ascii_dec|].
+    constructor; [lia|]. apply ascii_app; [apply ascii_hexbytes, Hd|ascii_tac].
+  - destruct Hwf as [_ Hs]. cbn [app]. rewrite runes_ascii_cons by lia. rewrite <- app_assoc.
+    rewrite runes_ascii_app by apply ascii_dec. cbn [app]. rewrite runes_ascii_cons by lia. rewrite <- app_assoc.
+    rewrite runes_qbytes_app by exact Hs. cbn [app]. rewrite runes_ascii_cons by lia. rewrite <- ?app_assoc. cbn [app]. rewrite <- ?app_assoc. reflexivity.
+  - apply runes_ascii_app. apply ascii_app; [apply ascii_nk_name|]. constructor; [lia|]. apply ascii_app; [|ascii_tac].
+    apply ascii_join32. apply Forall_forall. intros t Ht. apply in_map_iff in Ht as [x [E _]]. subst. apply ascii_ielem.
+  - apply runes_ascii_app. apply ascii_app; [unfold CteEnc.t_uidhdr; ascii_tac|]. apply ascii_app; [|ascii_tac].
+    apply ascii_join32. apply Forall_forall. intros t Ht. apply in_map_iff in Ht as [x [E Hx]]. subst. apply ascii_uid_text.
+    apply (proj1 (Forall_forall _ _) (proj1 Hwf)), Hx.
+  - apply runes_ascii_app, ascii_uid_text, (proj2 Hwf).
+  - apply runes_ascii_app. apply ascii_app; [unfold CteEnc.t_bithdr; ascii_tac|]. apply ascii_app; [apply ascii_bits_text|ascii_tac].
 Qed.
-
-(* ------------------------------------------------------------------ *)
-(** * From code points to tokens *)
-
-Definition cwp (ind : N) (p : bool) : list tok := if p && (ind =? 0) then [] else [TWs].
-Definition pfin (pend : bool) (l : list tree) : bool := match l with [] => pend | _ => is_lc (last l VNull) end.
-
-Fixpoint tk (ind : N) (t : tree) : list tok :=
-  match t with
-  | VNull => [TVal ENull] | VBool _ b => [TVal (EBool b)]
-  | VPos n => [TVal (rd_int false n)] | VNeg n => [TVal (rd_int true n)] | VInt z => [TVal (rd_z z)]
-  | VStr k _ rs => [TVal (EArray (sty k) (N.of_nat (length (str_bytes rs))) (str_bytes rs))]
-  | VCom m rs => [TComment m (str_bytes rs)]
-  | VPair k v => tk ind k ++ [TWs; TEq; TWs] ++ tk ind v
-  | VList l => TListB :: flat_map (fun x => TWs :: tk (ind + 4) x) l ++ (match l with [] => [] | _ => cwp ind (pfin false l) end) ++ [TListE]
-  | VMap l => TMapB :: flat_map (fun x => TWs :: tk (ind + 4) x) l ++ (match l with [] => [] | _ => cwp ind (pfin false l) end) ++ [TBraceE]
-  end.
 
 (* [ts] are the next tokens of [s], which leaves [rest]; every token consumes something *)
 Fixpoint lexes (ts : list tok) (s rest : inp) : Prop :=
@@ -1026,31 +1064,1027 @@ Lemma tok_block_comment rs rest : blk_plain PNone rs = true ->
 Proof. intro H. cbn [next_tok]. change (is_ws 47) with false. cbv iota. change (47 =? 47) with true. cbv iota.
   rewrite (block_comment_reads rs PNone [] rest H). reflexivity. Qed.
 
-Definition follow (t : tree) (R : inp) : Prop := wsd R /\ (is_lc t = true -> exists R', R = 10 :: R').
-Definition strip (p : bool) (s : inp) : inp := if p then tl s else s.
-
 Lemma not_ws_range c : (48 <= c <= 57 \/ c = 45) -> is_ws c = false.
 Proof. unfold is_ws. lia. Qed.
+
+(* ---- new leaves: references, hexadecimal payloads, media, custom types ---- *)
+
+Lemma ws_not_ident c : is_ws c = true -> ch_ident c = false.
+Proof. intro H. apply ws_cases in H. destruct H as [E|[E|[E|E]]]; subst c; vm_compute; reflexivity. Qed.
+
+Lemma wsd_stops_ident R : wsd R -> ConvertProofs.stops ch_ident R.
+Proof. destruct R as [|c R]; [exact (fun _ => I)|]. cbn. apply ws_not_ident. Qed.
+
+Lemma tok_ref id R : ident_ok id -> wsd R -> next_tok O (36 :: id ++ R) = Some (TVal (ERefLocal (str_bytes id)), R, O).
+Proof. intros [Hne [Hid _]] Hw. apply ConvertProofs.ref_token; [exact Hne|exact Hid|apply wsd_stops_ident, Hw]. Qed.
+
+(* hexadecimal digits *)
+Lemma hexval_digit_char d : d < 16 -> hexval (CteEnc.digit_char d) = d.
+Proof. intro H. unfold hexval. rewrite digit_val_digit_char by lia. reflexivity. Qed.
+
+Lemma digit_char_hex_facts d : d < 16 ->
+  is_hex (CteEnc.digit_char d) = true /\ is_ws (CteEnc.digit_char d) = false /\ CteEnc.digit_char d <> 93.
+Proof.
+  intro H. destruct (digit_below_hex (CteEnc.digit_char d)) as [A [_ [_ B]]]; [exists d; split; [exact H|reflexivity]|].
+  split; [exact A|]. split; [|exact B]. unfold CteEnc.digit_char, is_ws. destruct (N.ltb_spec d 10); lia.
+Qed.
+
+Definition hexrun (b : N) : inp := CteEnc.hex2 b.
+
+Lemma byte_elem_hexrun b : b < 256 -> byte_elem (hexrun b) = Some [b].
+Proof.
+  intro H. unfold hexrun, CteEnc.hex2, byte_elem.
+  assert (H1 : b / 16 < 16) by (apply N.div_lt_upper_bound; lia).
+  assert (H2 : b mod 16 < 16) by (apply N.mod_lt; lia).
+  destruct (digit_char_hex_facts _ H1) as [A1 _]. destruct (digit_char_hex_facts _ H2) as [A2 _].
+  rewrite A1, A2. cbn [andb]. rewrite !hexval_digit_char by assumption. f_equal. f_equal. lia.
+Qed.
+
+(* the run splitter on the encoder's "hh hh hh" text *)
+Lemma arr_runs_hex b r : data_bytes (b :: r) -> forall rest runs tr,
+  arr_runs (CteEnc.hexbytes (b :: r) ++ 93 :: rest) [] runs false tr =
+  Some (rev runs ++ map hexrun (b :: r), false, false, rest).
+Proof.
+  revert b. induction r as [|b2 r IH]; intros b Hd rest runs tr; inversion Hd as [|? ? Hb Hr]; subst.
+  - cbn [CteEnc.hexbytes map]. unfold CteEnc.hex2.
+    assert (H1 : b / 16 < 16) by (apply N.div_lt_upper_bound; lia).
+    assert (H2 : b mod 16 < 16) by (apply N.mod_lt; lia).
+    destruct (digit_char_hex_facts _ H1) as [_ [W1 N1]]. destruct (digit_char_hex_facts _ H2) as [_ [W2 N2]].
+    apply N.eqb_neq in N1, N2. cbn [app arr_runs]. rewrite N1, W1. cbn [arr_runs]. rewrite N2, W2. cbn [arr_runs].
+    change (93 =? 93) with true. cbv iota. cbn [rev app]. unfold hexrun, CteEnc.hex2. reflexivity.
+  - change (CteEnc.hexbytes (b :: b2 :: r)) with (CteEnc.hex2 b ++ 32 :: CteEnc.hexbytes (b2 :: r)). unfold CteEnc.hex2 at 1.
+    assert (H1 : b / 16 < 16) by (apply N.div_lt_upper_bound; lia).
+    assert (H2 : b mod 16 < 16) by (apply N.mod_lt; lia).
+    destruct (digit_char_hex_facts _ H1) as [_ [W1 N1]]. destruct (digit_char_hex_facts _ H2) as [_ [W2 N2]].
+    apply N.eqb_neq in N1, N2. cbn [app arr_runs]. rewrite N1, W1. cbn [arr_runs]. rewrite N2, W2. cbn [arr_runs].
+    change (32 =? 93) with false. change (is_ws 32) with true. cbv iota.
+    rewrite (IH b2 Hr rest _ true). cbn [rev map]. rewrite <- app_assoc. unfold hexrun, CteEnc.hex2. reflexivity.
+Qed.
+
+Lemma concat_hexruns d : data_bytes d -> concat_opt (map byte_elem (map hexrun d)) = Some d.
+Proof.
+  induction 1 as [|b r Hb Hr IH]; [reflexivity|]. cbn [map concat_opt]. rewrite byte_elem_hexrun by exact Hb. rewrite IH. reflexivity.
+Qed.
+
+Lemma bytes_body_hex d rest : data_bytes d -> bytes_body (CteEnc.hexbytes d ++ 93 :: rest) = Some (d, rest).
+Proof.
+  intro Hd. unfold bytes_body. destruct d as [|b r].
+  - reflexivity.
+  - rewrite (arr_runs_hex b r Hd rest [] false). cbn [orb rev app]. rewrite concat_hexruns by exact Hd. reflexivity.
+Qed.
+
+Lemma next_tok_at idx X : next_tok idx (64 :: X) = at_token idx X.
+Proof. reflexivity. Qed.
+
+Lemma tok_media mt data R : Convert.media_valid mt = true -> data_bytes data ->
+  next_tok O (64 :: mt ++ 91 :: CteEnc.hexbytes data ++ 93 :: R) = Some (TVal (EMedia mt data), R, O).
+Proof.
+  intros Hm Hd. rewrite next_tok_at.
+  destruct (ConvertProofs.media_valid_reread mt O (CteEnc.hexbytes data ++ 93 :: R) Hm) as [E _].
+  rewrite (ascii_runes mt (media_ascii mt Hm)) in E. rewrite E, bytes_body_hex by exact Hd. reflexivity.
+Qed.
+
+(* custom type numbers *)
+Lemma dec_ident n : forallb ch_ident (CteEnc.dec n) = true /\ forallb is_dec (CteEnc.dec n) = true.
+Proof.
+  assert (Hch := to_digits_chars 10 n ltac:(lia)). fold (CteEnc.dec n) in Hch. split; apply forallb_forall; intros c Hc;
+    rewrite Forall_forall in Hch; destruct (digit_below_dec c (Hch c Hc)) as [A [_ B]]; [|exact A].
+  assert (In c (nseq 48 10)) by (apply nseq_In; lia).
+  assert (S : forallb ch_ident (nseq 48 10) = true) by (vm_compute; reflexivity).
+  apply (proj1 (forallb_forall _ _) S), H.
+Qed.
+
+Lemma parse_custom_type ct : ct < 2 ^ 64 -> CteLit.go_parse_uint (CteEnc.dec ct) 0 64 = Some ct.
+Proof.
+  intro H. destruct (N.eq_dec ct 0) as [E|E].
+  - subst. reflexivity.
+  - unfold CteEnc.dec. destruct (to_digits_head 10 ct ltac:(lia) E) as [d [r [Ed [Hd0 Hd]]]].
+    assert (Hv := to_digits_val 10 ct ltac:(lia) ltac:(lia)).
+    assert (Hch := to_digits_chars 10 ct ltac:(lia)).
+    rewrite Ed in *. unfold CteLit.go_parse_uint.
+    assert (Hc0 : CteEnc.digit_char d <> 48) by (unfold CteEnc.digit_char; replace (d <? 10) with true by lia; lia).
+    change (0 =? 0) with true. cbv iota. cbn [CteLit.base0_prefix]. apply N.eqb_neq in Hc0. rewrite Hc0.
+    assert (Hok : forallb (CteLit.digit_ok CteLit.B10) (CteEnc.digit_char d :: r) = true).
+    { apply forallb_forall. intros c Hc. rewrite Forall_forall in Hch. cbn [CteLit.digit_ok]. apply digit_below_dec, Hch, Hc. }
+    assert (Hg := CteLitProofs.go_digits_chars CteLit.B10 true _ 0 Hok). cbn [CteLit.ibase_n] in Hg. rewrite Hg, Hv.
+    assert (Hus : CteLit.has_us (CteEnc.digit_char d :: r) = false).
+    { unfold CteLit.has_us. apply Bool.not_true_is_false. intro Hx. apply existsb_exists in Hx as [c [Hc Hu]].
+      rewrite Forall_forall in Hch. destruct (digit_below_dec c (Hch c Hc)) as [_ [_ B]]. unfold CteLit.is_us, CteLit.c_us in Hu. lia. }
+    rewrite Hus. cbn [andb]. replace (ct <? 2 ^ 64) with true by lia. reflexivity.
+Qed.
+
+Lemma at_token_custom ct t r : ct < 2 ^ 64 -> t = 91 \/ t = 34 ->
+  at_token O (CteEnc.dec ct ++ t :: r) =
+  if t =? 91 then match bytes_body r with Some (data, rest) => Some (TVal (ECustomBin ct data), rest, O) | None => None end
+  else match lex_string O r with Some (data, rest, idx') => Some (TVal (ECustomText ct data), rest, idx') | None => None end.
+Proof.
+  intros Hct Ht. destruct (dec_dws ct [] I) as [d [ds [Ed [Hd _]]]].
+  destruct (dec_ident ct) as [Hid Hdec]. assert (Hp := parse_custom_type ct Hct).
+  unfold at_token. rewrite Ed in *. cbn [app].
+  assert (Ha : is_alpha d = false) by (apply dec_facts in Hd; unfold is_alpha, lower; replace ((65 <=? d) && (d <=? 90)) with false by lia; lia).
+  cbn [m_media]. rewrite Ha.
+  rewrite ConvertProofs.match_lit34_40 by (apply dec_facts in Hd; lia).
+  change (d :: ds ++ t :: r) with ((d :: ds) ++ t :: r).
+  assert (Nt : ch_ident t = false) by (destruct Ht; subst t; reflexivity).
+  rewrite (ConvertProofs.span_app ch_ident (d :: ds) (t :: r) Hid Nt).
+  destruct Ht; subst t; cbn [N.eqb Pos.eqb]; rewrite Hdec, Hp; reflexivity.
+Qed.
+
+Lemma tok_custom_bin ct data R : ct < 2 ^ 64 -> data_bytes data ->
+  next_tok O (64 :: CteEnc.dec ct ++ 91 :: CteEnc.hexbytes data ++ 93 :: R) = Some (TVal (ECustomBin ct data), R, O).
+Proof.
+  intros Hct Hd. rewrite next_tok_at, (at_token_custom ct 91 _ Hct (or_introl eq_refl)).
+  change (91 =? 91) with true. cbv iota. rewrite bytes_body_hex by exact Hd. reflexivity.
+Qed.
+
+Lemma tok_custom_text ct rs R : ct < 2 ^ 64 -> scalars rs ->
+  next_tok O (64 :: CteEnc.dec ct ++ 34 :: qbody rs ++ 34 :: R) = Some (TVal (ECustomText ct (str_bytes rs)), R, O).
+Proof.
+  intros Hct Hs. rewrite next_tok_at, (at_token_custom ct 34 _ Hct (or_intror eq_refl)).
+  change (34 =? 91) with false. cbv iota. unfold lex_string.
+  rewrite lex_str_qbody; [reflexivity|exact Hs|].
+  rewrite app_length. cbn [length]. assert (H := qbody_length rs). lia.
+Qed.
+
+(* ---- integer arrays in the default (decimal) element format ---- *)
+
+Definition clean (a : inp) : Prop := a <> [] /\ Forall (fun c => is_ws c = false /\ c <> 93) a.
+
+Lemma arr_runs_run a : Forall (fun c => is_ws c = false /\ c <> 93) a -> forall Y cur runs lead tr,
+  arr_runs (a ++ Y) cur runs lead tr = arr_runs Y (rev a ++ cur) runs lead (match a with [] => tr | _ => false end).
+Proof.
+  induction 1 as [|c a [Hw Hn] Ha IH]; intros Y cur runs lead tr; [reflexivity|].
+  cbn [app arr_runs]. apply N.eqb_neq in Hn. rewrite Hn, Hw. rewrite IH. cbn [rev]. rewrite <- app_assoc. cbn [app].
+  destruct a; reflexivity.
+Qed.
+
+Lemma arr_runs_clean a r : Forall clean (a :: r) -> forall rest runs tr,
+  arr_runs (join32 (a :: r) ++ 93 :: rest) [] runs false tr = Some (rev runs ++ (a :: r), false, false, rest).
+Proof.
+  revert a. induction r as [|b r IH]; intros a Hc rest runs tr; inversion Hc as [|? ? [Hne Ha] Hr]; subst.
+  - cbn [join32]. rewrite arr_runs_run by exact Ha. rewrite app_nil_r. destruct a as [|c a']; [congruence|].
+    cbn [arr_runs]. change (93 =? 93) with true. cbv iota.
+    destruct (rev (c :: a')) eqn:E; [apply (f_equal (@length N)) in E; rewrite rev_length in E; discriminate|].
+    rewrite <- E, rev_involutive. cbn [rev]. reflexivity.
+  - change (join32 (a :: b :: r)) with (a ++ 32 :: join32 (b :: r)). rewrite <- app_assoc. rewrite arr_runs_run by exact Ha.
+    rewrite app_nil_r. destruct a as [|c a']; [congruence|]. cbn [app arr_runs]. change (32 =? 93) with false. change (is_ws 32) with true. cbv iota.
+    destruct (rev (c :: a')) eqn:E; [apply (f_equal (@length N)) in E; rewrite rev_length in E; discriminate|].
+    rewrite <- E, rev_involutive. rewrite (IH b Hr rest _ true). cbn [rev]. rewrite <- app_assoc. reflexivity.
+Qed.
+
+Lemma pad_left_zero c s : CteEnc.pad_left c 0 s = s.
+Proof. unfold CteEnc.pad_left. reflexivity. Qed.
+
+Definition ineg (sg : bool) (w : iw) (x : N) : bool := sg && (2 ^ (wbits w - 1) <=? x).
+Definition imag (sg : bool) (w : iw) (x : N) : N := if ineg sg w x then 2 ^ wbits w - x else x.
+
+Lemma ielem_int_text sg w x : x < 2 ^ wbits w -> ielem sg w x = int_text (ineg sg w x) (imag sg w x).
+Proof.
+  intro H. unfold ielem, CteEnc.go_int_text, int_text, imag, ineg.
+  destruct (sg && (2 ^ (wbits w - 1) <=? x)) eqn:E.
+  - change (0 - 1)%nat with 0%nat. rewrite pad_left_zero. unfold CteEnc.dec.
+    assert (2 ^ wbits w <= 2 ^ 64) by (destruct w; cbn; lia).
+    rewrite N.mod_small by lia. reflexivity.
+  - rewrite pad_left_zero. reflexivity.
+Qed.
+
+Lemma max_us_plain cs : CteLit.max_us {| CteLit.d_first := 0; CteLit.d_rest := map (fun c => (O, c)) cs |} = O.
+Proof. unfold CteLit.max_us. cbn [CteLit.d_rest]. induction cs as [|c cs IH]; [reflexivity|]. cbn [map fold_right fst]. rewrite IH. reflexivity. Qed.
+
+Lemma dec_lit_facts (neg : bool) (n : N) :
+  let l := dec_lit neg (hd 0 (CteEnc.dec n)) (tl (CteEnc.dec n)) in
+  CteLit.render_int l = int_text neg n /\ CteLit.int_lit_ok l = true /\ CteLit.leading_zero_dec l = false /\
+  CteLit.int_mag l = n /\ CteLit.single_us (CteLit.i_digits l) = true.
+Proof.
+  unfold int_text, CteEnc.dec.
+  assert (Hne := to_digits_nonempty 10 n).
+  assert (Hch := to_digits_chars 10 n ltac:(lia)).
+  assert (Hv := to_digits_val 10 n ltac:(lia) ltac:(lia)).
+  assert (Hhead : n <> 0 -> exists d r, CteEnc.to_digits 10 n = CteEnc.digit_char d :: r /\ d <> 0 /\ d < 10)
+    by (intro; apply to_digits_head; [lia|assumption]).
+  assert (H0 : n = 0 -> CteEnc.to_digits 10 n = [48]) by (intro; subst; apply to_digits_0).
+  set (ds := CteEnc.to_digits 10 n) in *. clearbody ds.
+  destruct ds as [|c0 cs]; [congruence|]. cbn [hd tl]. cbv zeta.
+  split; [rewrite render_dec_lit; reflexivity|]. split; [|split; [|split]].
+  - unfold CteLit.int_lit_ok, CteLit.dseq_ok, CteLit.dseq_chars, dec_lit.
+    cbn [CteLit.i_base CteLit.i_digits CteLit.d_first CteLit.d_rest]. rewrite map_snd_plain.
+    apply forallb_forall. intros c Hc. rewrite Forall_forall in Hch. cbn [CteLit.digit_ok]. apply digit_below_dec, Hch, Hc.
+  - unfold CteLit.leading_zero_dec, dec_lit. cbn [CteLit.i_base CteLit.i_digits CteLit.d_first CteLit.d_rest].
+    destruct (N.eq_dec n 0) as [E|E].
+    + specialize (H0 E). inversion H0; subst. reflexivity.
+    + destruct (Hhead E) as [d [r [Ed [Hd0 Hd]]]]. inversion Ed; subst.
+      unfold CteEnc.digit_char. replace (d <? 10) with true by lia. replace (48 + d =? 48) with false by lia. reflexivity.
+  - unfold CteLit.int_mag, CteLit.dseq_val, CteLit.dseq_chars, dec_lit.
+    cbn [CteLit.i_base CteLit.i_digits CteLit.d_first CteLit.d_rest CteLit.ibase_n]. rewrite map_snd_plain. exact Hv.
+  - unfold CteLit.single_us, dec_lit. cbn [CteLit.i_digits]. unfold CteLit.max_us. cbn [CteLit.d_rest].
+    assert (E : fold_right (fun (p : nat * N) m => Nat.max (fst p) m) O (map (fun c => (O, c)) cs) = O).
+    { clear. induction cs as [|c cs IH]; [reflexivity|]. cbn [map fold_right fst]. rewrite IH. reflexivity. }
+    rewrite E. reflexivity.
+Qed.
+
+Lemma int_elem_ok_text sg (neg : bool) n : (neg = true -> sg = true) -> int_elem_ok sg 0 (int_text neg n) = true.
+Proof.
+  intro Hsg. destruct (dec_dws n [] I) as [d [ds [Ed [Hd Hds]]]]. rewrite app_nil_r in Hds.
+  assert (Hall : dws (d :: ds) []) by (apply dws_cons; assumption).
+  unfold int_elem_ok. change (0 =? 0) with true. cbv iota.
+  assert (Hs1 : (if sg then m_neg (int_text neg n) else int_text neg n) = d :: ds).
+  { unfold int_text. rewrite Ed. destruct neg; cbn [app].
+    - rewrite (Hsg eq_refl). reflexivity.
+    - destruct sg; [|reflexivity]. unfold m_neg, m_opt, m_lit. cbn [m_char]. apply dec_facts in Hd. replace (45 =? d) with false by lia. reflexivity. }
+  rewrite Hs1. unfold full. rewrite !(m_prefixed_dws _ _ _ [] Hall) by lia. cbn [orb].
+  cbn [m_digits]. rewrite Hd. rewrite (dm_dws ds [] Hds). reflexivity.
+Qed.
+
+Lemma le_bits_w w x : CteLit.le_bits (wbits w) x = le_encode (wbytes w) x.
+Proof. destruct w; reflexivity. Qed.
+
+Lemma elem_bits_w w : CteLitProofs.elem_bits (wbits w).
+Proof. unfold CteLitProofs.elem_bits. destruct w; cbn; auto. Qed.
+
+Lemma int_elem_reads sg w x : x < 2 ^ wbits w -> int_elem sg 0 (wbits w) (ielem sg w x) = Some (le_encode (wbytes w) x).
+Proof.
+  intro Hx. rewrite (ielem_int_text sg w x Hx). unfold int_elem.
+  assert (Hp : 2 ^ wbits w = 2 * 2 ^ (wbits w - 1)) by (destruct w; reflexivity).
+  assert (Hng : ineg sg w x = true -> sg = true) by (unfold ineg; destruct sg; [reflexivity|discriminate]).
+  rewrite (int_elem_ok_text sg _ _ Hng).
+  destruct (dec_lit_facts (ineg sg w x) (imag sg w x)) as [Hr [Hok [Hlz [Hmag Hsu]]]].
+  set (l := dec_lit (ineg sg w x) (hd 0 (CteEnc.dec (imag sg w x))) (tl (CteEnc.dec (imag sg w x)))) in *.
+  rewrite <- Hr. destruct sg.
+  - rewrite (CteLitProofs.int_elem_implicit_exact (wbits w) l (elem_bits_w w) Hok Hlz Hsu).
+    unfold CteLit.spec_int_elem, CteLit.int_value. rewrite Hmag. change (CteLit.i_neg l) with (ineg true w x).
+    assert (HZ1 : (2 ^ (Z.of_N (wbits w) - 1))%Z = Z.of_N (2 ^ (wbits w - 1))) by (destruct w; reflexivity).
+    assert (HZ2 : (2 ^ Z.of_N (wbits w))%Z = Z.of_N (2 ^ wbits w)) by (destruct w; reflexivity).
+    unfold CteLit.twos. rewrite HZ1, HZ2. rewrite le_bits_w.
+    unfold imag, ineg in *. cbn [andb] in *.
+    set (P := 2 ^ (wbits w - 1)) in *. set (Q := 2 ^ wbits w) in *.
+    destruct (N.leb_spec P x).
+    + replace ((- Z.of_N P <=? - Z.of_N (Q - x)) && (- Z.of_N (Q - x) <? Z.of_N P))%Z with true by lia.
+      cbn [oc_opt]. f_equal. f_equal.
+      assert (E : ((- Z.of_N (Q - x)) mod Z.of_N Q = Z.of_N x)%Z).
+      { symmetry. apply Z.mod_unique with (q := (-1)%Z); lia. }
+      rewrite E. lia.
+    + replace ((- Z.of_N P <=? Z.of_N x) && (Z.of_N x <? Z.of_N P))%Z with true by lia.
+      cbn [oc_opt]. f_equal. f_equal. rewrite Z.mod_small by lia. lia.
+  - assert (En : ineg false w x = false) by reflexivity.
+    rewrite (CteLitProofs.uint_elem_implicit_exact (wbits w) l En Hok Hlz Hsu).
+    unfold CteLit.spec_uint_elem. rewrite Hmag. unfold imag. rewrite En.
+    replace (x <? 2 ^ wbits w) with true by lia. cbn [oc_opt]. rewrite le_bits_w. reflexivity.
+Qed.
+
+Definition iname (sg : bool) (w : iw) : inp :=
+  (if sg then 105 else 117) :: match w with W8 => [56] | W16 => [49; 54] | W32 => [51; 50] | W64 => [54; 52] end.
+
+Lemma nk_name_iname sg w : CteEnc.nk_name (ikind sg w) = 64 :: iname sg w.
+Proof. destruct sg, w; reflexivity. Qed.
+
+Lemma arr_header_iname sg w :
+  arr_header (iname sg w) = Some (num_array (ity sg w) (N.of_nat (wbytes w)) (int_elem sg 0 (wbits w))).
+Proof. destruct sg, w; reflexivity. Qed.
+
+Lemma at_token_intarr sg w X :
+  at_token O (iname sg w ++ 91 :: X) =
+  match num_array (ity sg w) (N.of_nat (wbytes w)) (int_elem sg 0 (wbits w)) X with
+  | Some (e, rest) => Some (TVal e, rest, O)
+  | None => None
+  end.
+Proof.
+  unfold at_token.
+  assert (Hm : m_media (iname sg w ++ 91 :: X) = None).
+  { apply ConvertProofs.m_media_none; [destruct sg, w; discriminate|].
+    unfold ConvertProofs.media_stop_ok. destruct sg, w; cbn; discriminate. }
+  rewrite Hm.
+  assert (Hid : forallb ch_ident (iname sg w) = true) by (destruct sg, w; vm_compute; reflexivity).
+  assert (Hnd : forallb is_dec (iname sg w) = false) by (destruct sg, w; reflexivity).
+  assert (Hsp := ConvertProofs.span_app ch_ident (iname sg w) (91 :: X) Hid eq_refl).
+  destruct (iname sg w) as [|c0 r0] eqn:En; [destruct sg, w; discriminate|].
+  assert (H34 : c0 <> 34 /\ c0 <> 40) by (destruct sg, w; inversion En; subst; split; discriminate).
+  cbn [app] in *. rewrite ConvertProofs.match_lit34_40 by apply H34.
+  rewrite Hsp. rewrite Hnd. rewrite <- En, arr_header_iname. reflexivity.
+Qed.
+
+Lemma clean_ielem sg w x : x < 2 ^ wbits w -> clean (ielem sg w x).
+Proof.
+  intro Hx. rewrite (ielem_int_text sg w x Hx). unfold clean, int_text.
+  destruct (dec_dws (imag sg w x) [] I) as [d [ds [Ed [Hd [_ [ds' [Hds' E']]]]]]]. rewrite !app_nil_r in E'. subst ds'.
+  rewrite Ed. split; [destruct (ineg sg w x); discriminate|].
+  assert (Hdig : Forall (fun c => is_ws c = false /\ c <> 93) (d :: ds)).
+  { apply Forall_forall. intros c Hc. assert (Hcd : is_dec c = true).
+    { destruct Hc as [<-|Hc]; [exact Hd|]. apply (proj1 (forallb_forall _ _) Hds'), Hc. }
+    apply dec_facts in Hcd. unfold is_ws. lia. }
+  destruct (ineg sg w x); cbn [app]; [constructor; [split; [reflexivity|discriminate]|exact Hdig]|exact Hdig].
+Qed.
+
+Lemma concat_ielems sg w xs : Forall (fun x => x < 2 ^ wbits w) xs ->
+  concat_opt (map (int_elem sg 0 (wbits w)) (map (ielem sg w) xs)) = Some (idata w xs).
+Proof.
+  induction 1 as [|x r Hx Hr IH]; [reflexivity|]. cbn [map concat_opt]. rewrite int_elem_reads by exact Hx. rewrite IH. reflexivity.
+Qed.
+
+Lemma idata_length w xs : length (idata w xs) = (wbytes w * length xs)%nat.
+Proof. unfold idata. induction xs as [|x r IH]; [cbn; lia|]. cbn [map concat length]. rewrite app_length, le_encode_length, IH. lia. Qed.
+
+Lemma tok_intarr sg w xs R : Forall (fun x => x < 2 ^ wbits w) xs ->
+  next_tok O (CteEnc.nk_name (ikind sg w) ++ 91 :: join32 (map (ielem sg w) xs) ++ 93 :: R) =
+  Some (TVal (EArray (ity sg w) (N.of_nat (length xs)) (idata w xs)), R, O).
+Proof.
+  intro Hxs. rewrite nk_name_iname. cbn [app]. rewrite next_tok_at, at_token_intarr. unfold num_array.
+  assert (Hcnt : N.of_nat (length (idata w xs)) / N.of_nat (wbytes w) = N.of_nat (length xs)).
+  { rewrite idata_length. rewrite Nat2N.inj_mul. rewrite N.mul_comm. apply N.div_mul. destruct w; discriminate. }
+  destruct xs as [|x r].
+  - cbn [map join32 app arr_runs]. change (93 =? 93) with true. cbv iota. cbn [rev map concat_opt]. destruct w; reflexivity.
+  - change (map (ielem sg w) (x :: r)) with (ielem sg w x :: map (ielem sg w) r).
+    rewrite (arr_runs_clean (ielem sg w x) (map (ielem sg w) r)).
+    + cbn [rev app]. change (ielem sg w x :: map (ielem sg w) r) with (map (ielem sg w) (x :: r)).
+      rewrite (concat_ielems sg w (x :: r) Hxs). rewrite Hcnt. reflexivity.
+    + change (ielem sg w x :: map (ielem sg w) r) with (map (ielem sg w) (x :: r)).
+      apply Forall_forall. intros t Ht. apply in_map_iff in Ht as [y [E Hy]]. subst t. apply clean_ielem.
+      apply (proj1 (Forall_forall _ _) Hxs), Hy.
+Qed.
+
+(* ---- whole UID arrays ---- *)
+
+Lemma hex2_facts b : b < 256 ->
+  exists h l, CteEnc.hex2 b = [h; l] /\ is_hex h = true /\ is_hex l = true /\ (h =? 45) = false /\ (l =? 45) = false /\
+              hexval h * 16 + hexval l = b /\ is_ws h = false /\ is_ws l = false /\ h <> 93 /\ l <> 93.
+Proof.
+  intro H. unfold CteEnc.hex2.
+  assert (H1 : b / 16 < 16) by (apply N.div_lt_upper_bound; lia).
+  assert (H2 : b mod 16 < 16) by (apply N.mod_lt; lia).
+  destruct (digit_char_hex_facts _ H1) as [A1 [W1 N1]]. destruct (digit_char_hex_facts _ H2) as [A2 [W2 N2]].
+  eexists _, _. split; [reflexivity|]. repeat split; try assumption.
+  - unfold CteEnc.digit_char. destruct (N.ltb_spec (b / 16) 10); lia.
+  - unfold CteEnc.digit_char. destruct (N.ltb_spec (b mod 16) 10); lia.
+  - rewrite !hexval_digit_char by assumption. lia.
+Qed.
+
+Lemma m_n_hex2 k b X : b < 256 -> m_n (S (S k)) is_hex (CteEnc.hex2 b ++ X) = m_n k is_hex X.
+Proof. intro H. destruct (hex2_facts b H) as [h [l [E [A1 [A2 _]]]]]. rewrite E. cbn [app m_n m_char obind]. rewrite A1. cbn [obind m_char]. rewrite A2. reflexivity. Qed.
+
+Lemma filter_hex2 b X : b < 256 -> filter (fun c => negb (c =? 45)) (CteEnc.hex2 b ++ X) = CteEnc.hex2 b ++ filter (fun c => negb (c =? 45)) X.
+Proof. intro H. destruct (hex2_facts b H) as [h [l [E [_ [_ [B1 [B2 _]]]]]]]. rewrite E. cbn [app filter]. rewrite B1, B2. reflexivity. Qed.
+
+Lemma hex_pairs_hex2 b X : b < 256 -> hex_pairs (CteEnc.hex2 b ++ X) = b :: hex_pairs X.
+Proof. intro H. destruct (hex2_facts b H) as [h [l [E [_ [_ [_ [_ [V _]]]]]]]]. rewrite E. cbn [app hex_pairs]. rewrite V. reflexivity. Qed.
+
+Lemma m_n_0 X : m_n 0 is_hex X = Some X. Proof. reflexivity. Qed.
+Lemma obind_some {A B} (x : A) (f : A -> option B) : obind (Some x) f = f x. Proof. reflexivity. Qed.
+Lemma m_lit_45 X : m_lit 45 ([45] ++ X) = Some X. Proof. reflexivity. Qed.
+
+Lemma filter_45 X : filter (fun c => negb (c =? 45)) ([45] ++ X) = filter (fun c => negb (c =? 45)) X. Proof. reflexivity. Qed.
+
+Lemma list16 (u : list N) : length u = 16%nat ->
+  u = [nth 0 u 0; nth 1 u 0; nth 2 u 0; nth 3 u 0; nth 4 u 0; nth 5 u 0; nth 6 u 0; nth 7 u 0;
+       nth 8 u 0; nth 9 u 0; nth 10 u 0; nth 11 u 0; nth 12 u 0; nth 13 u 0; nth 14 u 0; nth 15 u 0].
+Proof. intro H. do 16 (destruct u as [|? u]; [discriminate H|]). destruct u; [reflexivity|discriminate H]. Qed.
+
+Lemma uid_elem_reads u : length u = 16%nat -> data_bytes u -> uid_elem (CteEnc.uid_text u) = Some u.
+Proof.
+  intros Hl Hd.
+  assert (Hb := nth_byte u Hd).
+  unfold uid_elem, full.
+  assert (Hm : m_uid (CteEnc.uid_text u) = Some []).
+  { unfold m_uid, CteEnc.uid_text. cbv zeta beta.
+    rewrite <- (app_nil_r (CteEnc.hex2 (nth 15 u 0))).
+    repeat first [ rewrite m_n_hex2 by apply Hb | rewrite m_n_0 | rewrite obind_some; cbv beta | rewrite m_lit_45 ].
+    reflexivity. }
+  rewrite Hm. f_equal. unfold uid_bytes, CteEnc.uid_text. cbv zeta beta. 
+  rewrite <- (app_nil_r (CteEnc.hex2 (nth 15 u 0))).
+  repeat first [ rewrite filter_hex2 by apply Hb | rewrite filter_45 ]. cbn [filter].
+  rewrite !hex_pairs_hex2 by apply Hb. cbn [hex_pairs]. symmetry. apply list16, Hl.
+Qed.
+
+Lemma hex2_clean b : b < 256 -> Forall (fun c => is_ws c = false /\ c <> 93) (CteEnc.hex2 b).
+Proof.
+  intro H. destruct (hex2_facts b H) as [h [l [E [_ [_ [_ [_ [_ [W1 [W2 [N1 N2]]]]]]]]]]]. rewrite E.
+  constructor; [split; assumption|constructor; [split; assumption|constructor]].
+Qed.
+
+Lemma clean_uid_text u : data_bytes u -> clean (CteEnc.uid_text u).
+Proof.
+  intro Hd. assert (Hb := nth_byte u Hd). split.
+  - unfold CteEnc.uid_text. cbv zeta beta. destruct (hex2_facts _ (Hb O)) as [h [l [E _]]]. rewrite E. discriminate.
+  - unfold CteEnc.uid_text. cbv zeta beta.
+    repeat (apply Forall_app; split; [first [apply hex2_clean, Hb | (constructor; [split; [reflexivity|discriminate]|constructor])]|]).
+    apply hex2_clean, Hb.
+Qed.
+
+Lemma at_token_uid X :
+  at_token O ([117; 105; 100] ++ 91 :: X) =
+  match num_array AT_UID 16 uid_elem X with
+  | Some (e, rest) => Some (TVal e, rest, O)
+  | None => None
+  end.
+Proof.
+  unfold at_token.
+  assert (Hm : m_media ([117; 105; 100] ++ 91 :: X) = None).
+  { apply ConvertProofs.m_media_none; [discriminate|]. unfold ConvertProofs.media_stop_ok. cbn. discriminate. }
+  rewrite Hm.
+  assert (Hid : forallb ch_ident [117; 105; 100] = true) by (vm_compute; reflexivity).
+  assert (Hsp := ConvertProofs.span_app ch_ident [117; 105; 100] (91 :: X) Hid eq_refl).
+  cbn [app] in *. rewrite ?ConvertProofs.match_lit34_40 by (split; discriminate).
+  rewrite Hsp. reflexivity.
+Qed.
+
+Lemma concat_uids us : Forall (fun u => length u = 16%nat /\ data_bytes u) us ->
+  concat_opt (map uid_elem (map CteEnc.uid_text us)) = Some (concat us).
+Proof.
+  induction 1 as [|u r [Hl Hd] Hr IH]; [reflexivity|]. cbn [map concat_opt concat]. rewrite uid_elem_reads by assumption. rewrite IH. reflexivity.
+Qed.
+
+Lemma concat_uids_length us : Forall (fun u => length u = 16%nat /\ data_bytes u) us -> length (concat us) = (16 * length us)%nat.
+Proof. induction 1 as [|u r [Hl _] Hr IH]; [reflexivity|]. cbn [concat length]. rewrite app_length, Hl, IH. lia. Qed.
+
+Lemma tok_uidarr us R : Forall (fun u => length u = 16%nat /\ data_bytes u) us ->
+  next_tok O (CteEnc.t_uidhdr ++ join32 (map CteEnc.uid_text us) ++ 93 :: R) =
+  Some (TVal (EArray AT_UID (N.of_nat (length us)) (concat us)), R, O).
+Proof.
+  intro Hus. change CteEnc.t_uidhdr with (64 :: [117; 105; 100] ++ [91]). cbn [app].
+  rewrite next_tok_at. change (117 :: 105 :: 100 :: 91 :: join32 (map CteEnc.uid_text us) ++ 93 :: R)
+    with ([117; 105; 100] ++ 91 :: join32 (map CteEnc.uid_text us) ++ 93 :: R).
+  rewrite at_token_uid. unfold num_array.
+  assert (Hcnt : N.of_nat (length (concat us)) / 16 = N.of_nat (length us)).
+  { rewrite (concat_uids_length us Hus). rewrite Nat2N.inj_mul. change (N.of_nat 16) with 16. rewrite N.mul_comm. apply N.div_mul. discriminate. }
+  destruct us as [|u r].
+  - cbn [map join32 app arr_runs]. change (93 =? 93) with true. cbv iota. cbn [rev map concat_opt]. reflexivity.
+  - change (map CteEnc.uid_text (u :: r)) with (CteEnc.uid_text u :: map CteEnc.uid_text r).
+    rewrite (arr_runs_clean (CteEnc.uid_text u) (map CteEnc.uid_text r)).
+    + cbn [rev app]. change (CteEnc.uid_text u :: map CteEnc.uid_text r) with (map CteEnc.uid_text (u :: r)).
+      rewrite (concat_uids (u :: r) Hus). rewrite Hcnt. reflexivity.
+    + change (CteEnc.uid_text u :: map CteEnc.uid_text r) with (map CteEnc.uid_text (u :: r)).
+      apply Forall_forall. intros t Ht. apply in_map_iff in Ht as [y [E Hy]]. subst t. apply clean_uid_text.
+      apply (proj1 (Forall_forall _ _) Hus), Hy.
+Qed.
+
+(* ---- a UID as a value token: no other candidate rule gets as far ---- *)
+
+Definition hx (c : N) : Prop := 48 <= c <= 57 \/ 97 <= c <= 102.
+
+Lemma hx_digit_char d : d < 16 -> hx (CteEnc.digit_char d).
+Proof. intro H. unfold hx, CteEnc.digit_char. destruct (N.ltb_spec d 10); lia. Qed.
+Lemma hex2_hx b : b < 256 -> exists h l, CteEnc.hex2 b = [h; l] /\ hx h /\ hx l.
+Proof.
+  intro H. unfold CteEnc.hex2. eexists _, _. split; [reflexivity|]. split; apply hx_digit_char.
+  - apply N.div_lt_upper_bound; lia.
+  - apply N.mod_lt; lia.
+Qed.
+Lemma hx_lower c : hx c -> lower c = c.
+Proof. intro H. unfold lower. replace ((65 <=? c) && (c <=? 90)) with false by (unfold hx in H; lia). reflexivity. Qed.
+
+Definition keeps (W r : inp) : Prop := exists q, r = q ++ 45 :: W /\ Forall hx q.
+
+Lemma dm_keeps isd W : isd 45 = false -> forall p, Forall hx p -> keeps W (dm isd (p ++ 45 :: W)).
+Proof.
+  intros H45 p Hp. induction Hp as [|c p Hc Hp IH].
+  - cbn [app dm]. rewrite H45. change (45 =? 95) with false. cbn [andb]. exists []. split; [reflexivity|constructor].
+  - cbn [app dm]. destruct (isd c); [exact IH|]. replace (c =? 95) with false by (unfold hx in Hc; lia). cbn [andb].
+    exists (c :: p). split; [reflexivity|constructor; assumption].
+Qed.
+
+Lemma m_digits_keeps isd W p : isd 45 = false -> Forall hx p ->
+  m_digits isd (p ++ 45 :: W) = None \/ exists r, m_digits isd (p ++ 45 :: W) = Some r /\ keeps W r.
+Proof.
+  intros H45 Hp. destruct Hp as [|c p Hc Hp]; cbn [app m_digits].
+  - rewrite H45. left; reflexivity.
+  - destruct (isd c); [|left; reflexivity]. right. eexists. split; [reflexivity|]. apply dm_keeps; assumption.
+Qed.
+
+Lemma keeps_length W r : keeps W r -> (length W < length r)%nat.
+Proof. intros [q [E _]]. subst r. rewrite app_length. cbn [length]. lia. Qed.
+
+Section UidTok.
+  Variables a1 a2 a3 a4 a5 a6 a7 a8 g1 g2 g3 g4 : N.
+  Variable Z : inp.
+  Hypothesis H1 : hx a1. Hypothesis H2 : hx a2. Hypothesis H3 : hx a3. Hypothesis H4 : hx a4.
+  Hypothesis H5 : hx a5. Hypothesis H6 : hx a6. Hypothesis H7 : hx a7. Hypothesis H8 : hx a8.
+  Hypothesis K1 : hx g1. Hypothesis K2 : hx g2. Hypothesis K3 : hx g3. Hypothesis K4 : hx g4.
+
+  Let Y : inp := [g1; g2; g3; g4] ++ 45 :: Z.
+  Let s : inp := [a1; a2; a3; a4; a5; a6; a7; a8] ++ 45 :: Y.
+  Definition far (o : option inp) : Prop := match o with None => True | Some r => (length Z < length r)%nat end.
+
+  Lemma keepsY_far r : keeps Y r -> (length Z < length r)%nat.
+  Proof. intro K. apply keeps_length in K. unfold Y in K. rewrite app_length in K. cbn [length] in K. lia. Qed.
+
+  Lemma Fa : Forall hx [a1; a2; a3; a4; a5; a6; a7; a8]. Proof. repeat (apply Forall_cons; [assumption|]). apply Forall_nil. Qed.
+  Lemma Fa2 : Forall hx [a3; a4; a5; a6; a7; a8]. Proof. repeat (apply Forall_cons; [assumption|]). apply Forall_nil. Qed.
+  Lemma Fg : Forall hx [g1; g2; g3; g4]. Proof. repeat (apply Forall_cons; [assumption|]). apply Forall_nil. Qed.
+
+  Lemma neg_s : m_neg s = s.
+  Proof. unfold s, m_neg, m_opt, m_lit. cbn [app m_char]. replace (45 =? a1) with false by (unfold hx in H1; lia). reflexivity. Qed.
+
+  Lemma prefixed_far l isd : isd 45 = false -> far (m_prefixed l isd s).
+  Proof.
+    intro H45. unfold s. cbn [app m_prefixed]. destruct ((a1 =? 48) && (lower a2 =? l)); [|exact I].
+    destruct (m_digits_keeps isd Y [a3; a4; a5; a6; a7; a8] H45 Fa2) as [E|[r [E K]]]; cbn [app] in E; rewrite E; [exact I|].
+    apply keepsY_far, K.
+  Qed.
+
+  Lemma digits_s isd : isd 45 = false ->
+    m_digits isd s = None \/ exists r, m_digits isd s = Some r /\ keeps Y r.
+  Proof. intro H45. apply (m_digits_keeps isd Y _ H45 Fa). Qed.
+
+  Lemma int_far : far (m_int s).
+  Proof.
+    unfold m_int. cbv zeta. rewrite neg_s.
+    assert (A := prefixed_far 98 is_bit eq_refl). assert (B := prefixed_far 111 is_oct eq_refl). assert (C := prefixed_far 120 is_hex eq_refl).
+    destruct (m_prefixed 98 is_bit s); [exact A|]. destruct (m_prefixed 111 is_oct s); [exact B|]. destruct (m_prefixed 120 is_hex s); [exact C|].
+    destruct (digits_s is_dec eq_refl) as [E|[r [E K]]]; rewrite E; [exact I|apply keepsY_far, K].
+  Qed.
+
+  Lemma float_tail_far q : Forall hx q -> far (m_float_tail is_dec 101 true (q ++ 45 :: Y)).
+  Proof.
+    intro Hq. unfold m_float_tail. destruct Hq as [|c q Hc Hq]; cbn [app].
+    - reflexivity.
+    - unfold m_frac. replace (c =? 46) with false by (unfold hx in Hc; lia).
+      unfold m_exp. rewrite (hx_lower c Hc). destruct (c =? 101); [|exact I].
+      destruct Hq as [|c' q Hc' Hq]; cbn [app].
+      + unfold m_opt. cbn [m_char]. change ((45 =? 43) || (45 =? 45)) with true. cbv iota.
+        destruct (m_digits_keeps is_dec Z [g1; g2; g3; g4] eq_refl Fg) as [E|[r [E K]]]; unfold Y; rewrite E; [exact I|].
+        cbn [far]. apply keeps_length, K.
+      + unfold m_opt. cbn [m_char]. replace ((c' =? 43) || (c' =? 45)) with false by (unfold hx in Hc'; lia).
+        destruct (m_digits_keeps is_dec Y (c' :: q) eq_refl (Forall_cons _ Hc' Hq)) as [E|[r [E K]]]; cbn [app] in E; rewrite E; [exact I|].
+        cbn [far]. apply keepsY_far, K.
+  Qed.
+
+  Lemma float_dec_far : far (m_float_dec true s).
+  Proof.
+    unfold m_float_dec. rewrite neg_s. destruct (digits_s is_dec eq_refl) as [E|[r [E [q [Er Hq]]]]]; rewrite E; [exact I|].
+    cbn [obind]. subst r. apply float_tail_far, Hq.
+  Qed.
+
+  Lemma float_hex_none : m_float_hex true s = None.
+  Proof.
+    unfold m_float_hex. rewrite neg_s. unfold s. cbn [app m_prefixed]. rewrite (hx_lower a2 H2).
+    replace (a2 =? 120) with false by (unfold hx in H2; lia). rewrite andb_false_r. reflexivity.
+  Qed.
+
+  Lemma date_none : m_date s = None.
+  Proof.
+    unfold m_date. rewrite neg_s. destruct (digits_s is_dec eq_refl) as [E|[r [E [q [Er Hq]]]]]; rewrite E; [reflexivity|].
+    cbn [obind]. subst r. destruct Hq as [|c q Hc Hq]; cbn [app].
+    - unfold m_lit at 1. cbn [m_char]. change (45 =? 45) with true. cbv iota. cbn [obind]. unfold Y. cbn [app].
+      unfold m_1to. cbn [m_char]. destruct (is_dec g1); [|reflexivity]. cbn [obind Nat.sub m_upto m_char].
+      destruct (is_dec g2); cbn [obind]; unfold m_lit; cbn [m_char].
+      + replace (45 =? g3) with false by (unfold hx in K3; lia). reflexivity.
+      + replace (45 =? g2) with false by (unfold hx in K2; lia). reflexivity.
+    - unfold m_lit at 1. cbn [m_char]. replace (45 =? c) with false by (unfold hx in Hc; lia). reflexivity.
+  Qed.
+
+  Lemma time_none : m_time s = None.
+  Proof.
+    unfold m_time, s. cbn [app]. unfold m_1to. cbn [m_char]. destruct (is_dec a1); [|reflexivity]. cbn [obind Nat.sub m_upto m_char].
+    destruct (is_dec a2); cbn [obind]; unfold m_lit; cbn [m_char].
+    - replace (58 =? a3) with false by (unfold hx in H3; lia). reflexivity.
+    - replace (58 =? a2) with false by (unfold hx in H2; lia). reflexivity.
+  Qed.
+End UidTok.
+
+Lemma m_word_length w : forall s r, m_word w s = Some r -> length s = (length w + length r)%nat.
+Proof.
+  induction w as [|x w IH]; intros s r H; cbn [m_word] in H.
+  - inversion H; subst. reflexivity.
+  - destruct s as [|c s]; [discriminate|]. destruct (lower c =? x); [|discriminate]. apply IH in H. cbn [length]. lia.
+Qed.
+
+Definition farther (R : inp) (kc : wkind * option inp) : Prop :=
+  match snd kc with None => True | Some r => (length R < length r)%nat end.
+
+Lemma best_match_last k R l : Forall (farther R) l ->
+  forall best, match best with None => True | Some (_, rb) => (length R < length rb)%nat end ->
+  best_match (l ++ [(k, Some R)]) best = Some (k, R).
+Proof.
+  induction 1 as [|[k1 [r|]] l Hx Hl IH]; intros best Hb; cbn [app best_match].
+  - destruct best as [[kb rb]|]; [|reflexivity]. replace (length R <? length rb)%nat with true by lia. reflexivity.
+  - apply IH. unfold farther in Hx. cbn [snd] in Hx. destruct best as [[kb rb]|]; [|exact Hx].
+    destruct (length r <? length rb)%nat; assumption.
+  - apply IH, Hb.
+Qed.
+
+Lemma uid_text_shape u : data_bytes u -> exists a1 a2 a3 a4 a5 a6 a7 a8 g1 g2 g3 g4 Z,
+  CteEnc.uid_text u = [a1; a2; a3; a4; a5; a6; a7; a8] ++ 45 :: ([g1; g2; g3; g4] ++ 45 :: Z) /\
+  hx a1 /\ hx a2 /\ hx a3 /\ hx a4 /\ hx a5 /\ hx a6 /\ hx a7 /\ hx a8 /\ hx g1 /\ hx g2 /\ hx g3 /\ hx g4 /\
+  length (CteEnc.uid_text u) = (14 + length Z)%nat /\ (22 = length Z)%nat.
+Proof.
+  intro Hd. assert (Hb := nth_byte u Hd). unfold CteEnc.uid_text. cbv zeta beta.
+  destruct (hex2_hx _ (Hb 0%nat)) as [a1 [a2 [E0 [? ?]]]]. destruct (hex2_hx _ (Hb 1%nat)) as [a3 [a4 [E1 [? ?]]]].
+  destruct (hex2_hx _ (Hb 2%nat)) as [a5 [a6 [E2 [? ?]]]]. destruct (hex2_hx _ (Hb 3%nat)) as [a7 [a8 [E3 [? ?]]]].
+  destruct (hex2_hx _ (Hb 4%nat)) as [g1 [g2 [E4 [? ?]]]]. destruct (hex2_hx _ (Hb 5%nat)) as [g3 [g4 [E5 [? ?]]]].
+  rewrite E0, E1, E2, E3, E4, E5.
+  exists a1, a2, a3, a4, a5, a6, a7, a8, g1, g2, g3, g4. eexists. split; [cbn [app]; reflexivity|].
+  repeat (split; [assumption|]).
+  assert (L : forall i, length (CteEnc.hex2 (nth i u 0)) = 2%nat) by (intro i; reflexivity).
+  rewrite !app_length. cbn [length]. rewrite !L. split; reflexivity.
+Qed.
+
+Lemma uid_bytes_text u : length u = 16%nat -> data_bytes u -> uid_bytes (CteEnc.uid_text u) = u.
+Proof.
+  intros Hl Hd. assert (H := uid_elem_reads u Hl Hd). unfold uid_elem in H.
+  destruct (full m_uid (CteEnc.uid_text u)); [injection H as H; exact H|discriminate].
+Qed.
+
+Lemma m_uid_text u R : data_bytes u -> m_uid (CteEnc.uid_text u ++ R) = Some R.
+Proof.
+  intro Hd. assert (Hb := nth_byte u Hd). unfold m_uid, CteEnc.uid_text. cbv zeta beta. rewrite <- !app_assoc.
+  repeat first [ rewrite m_n_hex2 by apply Hb | rewrite m_n_0 | rewrite obind_some; cbv beta | rewrite m_lit_45 ].
+  reflexivity.
+Qed.
+
+Lemma word_token_uid u R : length u = 16%nat -> data_bytes u ->
+  word_token (CteEnc.uid_text u ++ R) = Some (TVal (EUid u), R).
+Proof.
+  intros Hl Hd. unfold word_token.
+  assert (Hbest : best_match (word_candidates (CteEnc.uid_text u ++ R)) None = Some (WUid, R)).
+  { assert (Hu := m_uid_text u R Hd).
+    destruct (uid_text_shape u Hd) as (a1 & a2 & a3 & a4 & a5 & a6 & a7 & a8 & g1 & g2 & g3 & g4 & Z & E & H1 & H2 & H3 & H4 & H5 & H6 & H7 & H8 & K1 & K2 & K3 & K4 & Hlen & HZ).
+    assert (Es : CteEnc.uid_text u ++ R = [a1; a2; a3; a4; a5; a6; a7; a8] ++ 45 :: ([g1; g2; g3; g4] ++ 45 :: (Z ++ R))).
+    { rewrite E. cbn [app]. reflexivity. }
+    assert (Hlen2 : length (CteEnc.uid_text u ++ R) = (36 + length R)%nat) by (rewrite app_length; lia).
+    assert (HZR : (length R <= length (Z ++ R))%nat) by (rewrite app_length; lia).
+    assert (W : forall w r, (length w <= 5)%nat -> m_word w (CteEnc.uid_text u ++ R) = Some r -> (length R < length r)%nat).
+    { intros w r Hw Hm. apply m_word_length in Hm. lia. }
+    assert (F : forall o, far (Z ++ R) o -> match o with None => True | Some r => (length R < length r)%nat end).
+    { intros [r|] Ho; [|exact I]. unfold far in Ho. lia. }
+    unfold word_candidates. rewrite Hu.
+    change [(WNull, m_word [110; 117; 108; 108] (CteEnc.uid_text u ++ R)); (WTrue, m_word [116; 114; 117; 101] (CteEnc.uid_text u ++ R));
+            (WFalse, m_word [102; 97; 108; 115; 101] (CteEnc.uid_text u ++ R)); (WInt, m_int (CteEnc.uid_text u ++ R));
+            (WFloat, m_float_dec true (CteEnc.uid_text u ++ R)); (WFloat, m_float_hex true (CteEnc.uid_text u ++ R));
+            (WInf, m_word [105; 110; 102] (CteEnc.uid_text u ++ R)); (WNinf, m_word [45; 105; 110; 102] (CteEnc.uid_text u ++ R));
+            (WNan, m_word [110; 97; 110] (CteEnc.uid_text u ++ R)); (WSnan, m_word [115; 110; 97; 110] (CteEnc.uid_text u ++ R));
+            (WDate, m_date (CteEnc.uid_text u ++ R)); (WTime, m_time (CteEnc.uid_text u ++ R)); (WUid, Some R)]
+      with ([(WNull, m_word [110; 117; 108; 108] (CteEnc.uid_text u ++ R)); (WTrue, m_word [116; 114; 117; 101] (CteEnc.uid_text u ++ R));
+            (WFalse, m_word [102; 97; 108; 115; 101] (CteEnc.uid_text u ++ R)); (WInt, m_int (CteEnc.uid_text u ++ R));
+            (WFloat, m_float_dec true (CteEnc.uid_text u ++ R)); (WFloat, m_float_hex true (CteEnc.uid_text u ++ R));
+            (WInf, m_word [105; 110; 102] (CteEnc.uid_text u ++ R)); (WNinf, m_word [45; 105; 110; 102] (CteEnc.uid_text u ++ R));
+            (WNan, m_word [110; 97; 110] (CteEnc.uid_text u ++ R)); (WSnan, m_word [115; 110; 97; 110] (CteEnc.uid_text u ++ R));
+            (WDate, m_date (CteEnc.uid_text u ++ R)); (WTime, m_time (CteEnc.uid_text u ++ R))] ++ [(WUid, Some R)]).
+    apply best_match_last; [|exact I].
+    assert (Wd : forall k w, (length w <= 5)%nat -> farther R (k, m_word w (CteEnc.uid_text u ++ R))).
+    { intros k w Hw. unfold farther. cbn [snd]. destruct (m_word w (CteEnc.uid_text u ++ R)) as [r|] eqn:Em; [|exact I]. apply (W w r Hw Em). }
+    repeat (apply Forall_cons; [first [apply Wd; cbn [length]; lia | idtac]|]); [| | | | |apply Forall_nil].
+    - unfold farther. cbn [snd]. apply F. rewrite Es. apply int_far; assumption.
+    - unfold farther. cbn [snd]. apply F. rewrite Es. apply float_dec_far; assumption.
+    - unfold farther. cbn [snd]. rewrite Es, float_hex_none by assumption. exact I.
+    - unfold farther. cbn [snd]. rewrite Es, date_none by assumption. exact I.
+    - unfold farther. cbn [snd]. rewrite Es, time_none by assumption. exact I. }
+  rewrite Hbest. rewrite consumed_app. cbn [option_map]. rewrite (uid_bytes_text u Hl Hd). reflexivity.
+Qed.
+
+Lemma next_tok_hx c s : hx c ->
+  next_tok O (c :: s) = match word_token (c :: s) with Some (t, rest) => Some (t, rest, O) | None => None end.
+Proof.
+  intro H. unfold hx in H. unfold next_tok, is_ws.
+  replace ((c =? 32) || (c =? 9) || (c =? 10) || (c =? 13)) with false by lia.
+  replace (c =? 47) with false by lia. replace (c =? 91) with false by lia. replace (c =? 93) with false by lia.
+  replace (c =? 123) with false by lia. replace (c =? 125) with false by lia. replace (c =? 61) with false by lia.
+  replace (c =? 40) with false by lia. replace (c =? 41) with false by lia. replace (c =? 62) with false by lia.
+  replace (c =? 34) with false by lia. replace (c =? 36) with false by lia. replace (c =? 38) with false by lia.
+  replace (c =? 64) with false by lia. reflexivity.
+Qed.
+
+Lemma tok_uid u R : length u = 16%nat -> data_bytes u -> next_tok O (CteEnc.uid_text u ++ R) = Some (TVal (EUid u), R, O).
+Proof.
+  intros Hl Hd. assert (Hw := word_token_uid u R Hl Hd).
+  destruct (uid_text_shape u Hd) as (a1 & a2 & a3 & a4 & a5 & a6 & a7 & a8 & g1 & g2 & g3 & g4 & Z & E & H1 & _).
+  rewrite E in *. cbn [app] in *. rewrite next_tok_hx by exact H1. rewrite Hw. reflexivity.
+Qed.
+
+(* ---- whole bit arrays ---- *)
+
+Lemma byte_rt l : (length l <= 8)%nat -> firstn (length l) (CteEnc.byte_bits (pack_byte l 0)) = l.
+Proof.
+  intro H. do 9 (destruct l as [|[] l]; [vm_compute; reflexivity| |]); cbn [length] in H; lia.
+Qed.
+
+Lemma pack_bits_nil f : pack_bits f [] = [].
+Proof. destruct f; reflexivity. Qed.
+
+Lemma pack_bits_rt : forall f l, (length l <= f)%nat ->
+  firstn (length l) (CteEnc.bytes_bits (pack_bits f l)) = l /\ length (pack_bits f l) = ((length l + 7) / 8)%nat.
+Proof.
+  induction f as [|f IH]; intros l Hl.
+  - destruct l; [split; reflexivity|cbn [length] in Hl; lia].
+  - destruct l as [|b0 l0]; [split; reflexivity|].
+    assert (Hp : pack_bits (S f) (b0 :: l0) = pack_byte (firstn 8 (b0 :: l0)) 0 :: pack_bits f (skipn 8 (b0 :: l0))) by reflexivity.
+    assert (Hpos : (0 < length (b0 :: l0))%nat) by (cbn [length]; lia).
+    remember (b0 :: l0) as l eqn:El. clear El b0 l0. rewrite Hp. clear Hp.
+    change (CteEnc.bytes_bits (pack_byte (firstn 8 l) 0 :: pack_bits f (skipn 8 l)))
+      with (CteEnc.byte_bits (pack_byte (firstn 8 l) 0) ++ CteEnc.bytes_bits (pack_bits f (skipn 8 l))).
+    assert (Hsplit := firstn_skipn 8 l).
+    destruct (Nat.le_gt_cases 8 (length l)) as [H8|H8].
+    + assert (La : length (firstn 8 l) = 8%nat) by (rewrite firstn_length; lia).
+      assert (Lb : length (skipn 8 l) = (length l - 8)%nat) by apply skipn_length.
+      destruct (IH (skipn 8 l)) as [I1 I2]; [lia|].
+      assert (Ha := byte_rt (firstn 8 l)). rewrite La in Ha. specialize (Ha (Nat.le_refl 8)).
+      rewrite firstn_all2 in Ha by (rewrite CteEncProofs.byte_bits_length; lia).
+      split.
+      * rewrite Ha. rewrite firstn_app, La. rewrite (firstn_all2 (firstn 8 l)) by lia.
+        replace (length l - 8)%nat with (length (skipn 8 l)) by exact Lb. rewrite I1. exact Hsplit.
+      * cbn [length]. rewrite I2, Lb. clear - H8. 
+        replace (length l + 7)%nat with ((length l - 8 + 7) + 1 * 8)%nat by lia. rewrite Nat.div_add by discriminate. lia.
+    + assert (Ea : firstn 8 l = l) by (apply firstn_all2; lia).
+      assert (Eb : skipn 8 l = []) by (apply skipn_all2; lia).
+      rewrite Ea, Eb, pack_bits_nil. change (CteEnc.bytes_bits []) with (@nil bool). rewrite app_nil_r. split.
+      * apply byte_rt. lia.
+      * cbn [length].
+        assert (E : ((length l + 7) / 8 = 1)%nat); [|lia].
+        replace (length l + 7)%nat with ((length l - 1) + 1 * 8)%nat by lia. rewrite Nat.div_add by discriminate.
+        rewrite Nat.div_small by lia. reflexivity.
+Qed.
+
+Lemma bit_body_text l : forall R acc, bit_body (CteEncProofs.bits_text l ++ 93 :: R) acc = Some (rev acc ++ l, R).
+Proof.
+  induction l as [|b l IH]; intros R acc; cbn [CteEncProofs.bits_text map app bit_body].
+  - change (93 =? 93) with true. cbv iota. rewrite app_nil_r. reflexivity.
+  - destruct b; cbn; rewrite IH; cbn [rev]; rewrite <- app_assoc; reflexivity.
+Qed.
+
+Lemma at_token_bit X :
+  at_token O ([98] ++ 91 :: X) =
+  match bit_body X [] with
+  | Some (bits, rest) => Some (TVal (EArray AT_Bit (N.of_nat (length bits)) (pack_bits (length bits) bits)), rest, O)
+  | None => None
+  end.
+Proof.
+  unfold at_token.
+  assert (Hm : m_media ([98] ++ 91 :: X) = None).
+  { apply ConvertProofs.m_media_none; [discriminate|]. unfold ConvertProofs.media_stop_ok. cbn. discriminate. }
+  rewrite Hm.
+  assert (Hid : forallb ch_ident [98] = true) by (vm_compute; reflexivity).
+  assert (Hsp := ConvertProofs.span_app ch_ident [98] (91 :: X) Hid eq_refl).
+  cbn [app] in *. rewrite ?ConvertProofs.match_lit34_40 by (split; discriminate).
+  rewrite Hsp. cbn. destruct (bit_body X []) as [[bits rest]|]; reflexivity.
+Qed.
+
+Lemma tok_bitarr l R :
+  next_tok O (CteEnc.t_bithdr ++ CteEncProofs.bits_text l ++ 93 :: R) =
+  Some (TVal (EArray AT_Bit (N.of_nat (length l)) (pack_bits (length l) l)), R, O).
+Proof.
+  change CteEnc.t_bithdr with (64 :: [98] ++ [91]). cbn [app]. rewrite next_tok_at.
+  change (98 :: 91 :: CteEncProofs.bits_text l ++ 93 :: R) with ([98] ++ 91 :: CteEncProofs.bits_text l ++ 93 :: R).
+  rewrite at_token_bit, bit_body_text. reflexivity.
+Qed.
+
+(* ---- atoms: first character, token ---- *)
+
+Lemma atom_head a : awf a -> exists c r, arunes a = c :: r /\ is_ws c = false.
+Proof.
+  intro Hwf. unfold arunes. destruct a; cbn [atext awf] in *.
+  - eexists _, _. split; reflexivity.
+  - destruct b; eexists _, _; split; reflexivity.
+  - destruct (int_text_head false n) as [c [r [E Hc]]]. exists c, r. split; [exact E|apply not_ws_range, Hc].
+  - destruct (int_text_head true n) as [c [r [E Hc]]]. exists c, r. split; [exact E|apply not_ws_range, Hc].
+  - rewrite (z_text_int z Hwf).
+    destruct (int_text_head (z <? 0)%Z (Z.abs_N z)) as [c [r [E Hc]]]. exists c, r. split; [exact E|apply not_ws_range, Hc].
+  - destruct k; eexists _, _; split; reflexivity.
+  - eexists _, _; split; reflexivity.
+  - eexists _, _; split; reflexivity.
+  - eexists _, _; split; reflexivity.
+  - eexists _, _; split; reflexivity.
+  - destruct sg, w; eexists _, _; split; reflexivity.
+  - eexists _, _; split; reflexivity.
+  - destruct (uid_text_shape u (proj2 Hwf)) as (a1 & a2 & a3 & a4 & a5 & a6 & a7 & a8 & g1 & g2 & g3 & g4 & Z & E & H1 & _).
+    rewrite E. eexists _, _. split; [reflexivity|]. unfold hx in H1. unfold is_ws. lia.
+  - eexists _, _; split; reflexivity.
+Qed.
+
+Lemma atom_tok a R : awf a -> wsd R -> next_tok O (arunes a ++ R) = Some (TVal (ard a), R, O).
+Proof.
+  intros Hwf Hw. unfold arunes. destruct a; cbn [atext awf ard] in *.
+  - reflexivity.
+  - destruct b; reflexivity.
+  - apply tok_int, Hw.
+  - apply tok_int, Hw.
+  - rewrite (z_text_int z Hwf). apply tok_int, Hw.
+  - rewrite <- app_assoc. cbn [app]. rewrite <- app_assoc. cbn [app]. apply tok_text, Hwf.
+  - cbn [app]. apply tok_ref; assumption.
+  - destruct Hwf as [Hm Hd]. cbn [app]. rewrite <- app_assoc. cbn [app]. rewrite <- app_assoc. cbn [app]. apply tok_media; assumption.
+  - destruct Hwf as [Hc Hd]. cbn [app]. rewrite <- app_assoc. cbn [app]. rewrite <- app_assoc. cbn [app]. apply tok_custom_bin; assumption.
+  - destruct Hwf as [Hc Hs]. cbn [app]. rewrite <- app_assoc. cbn [app]. rewrite <- app_assoc. cbn [app]. apply tok_custom_text; assumption.
+  - rewrite <- app_assoc. cbn [app]. rewrite <- app_assoc. cbn [app]. apply tok_intarr, (proj1 Hwf).
+  - rewrite <- !app_assoc. cbn [app]. apply tok_uidarr, (proj1 Hwf).
+  - apply tok_uid; apply Hwf.
+  - rewrite <- !app_assoc. cbn [app]. apply tok_bitarr.
+Qed.
+
+(* ------------------------------------------------------------------ *)
+(** * Documents as trees: the fragment of the structure theorem
+
+   Atoms; lists, records and edges ([VSeq]); maps of key = value pairs; nodes; markers on values; comments of
+   both kinds between the items of a container.  [VPair] and [VCom] are items, not values; [wf] says where
+   each may stand. *)
+
+Inductive seqk := SList | SRec (id : list N) | SEdge.
+
+Inductive tree :=
+| VAtom (a : atom)
+| VCom (multi : bool) (rs : list N)
+| VPair (k v : tree)
+| VMark (id : list N) (v : tree)
+| VSeq (k : seqk) (l : list tree)
+| VMap (l : list tree)
+| VNode (v : tree) (l : list tree).
+
+Section tree_induction.
+  Variable P : tree -> Prop.
+  Hypotheses (Hatom : forall a, P (VAtom a)) (Hcom : forall m rs, P (VCom m rs))
+             (Hpair : forall k v, P k -> P v -> P (VPair k v))
+             (Hmark : forall id v, P v -> P (VMark id v))
+             (Hseq : forall k l, Forall P l -> P (VSeq k l)) (Hmap : forall l, Forall P l -> P (VMap l))
+             (Hnode : forall v l, P v -> Forall P l -> P (VNode v l)).
+  Fixpoint tree_induction (t : tree) : P t :=
+    let go := fix go (l : list tree) : Forall P l :=
+                match l with [] => Forall_nil P | x :: r => Forall_cons x (tree_induction x) (go r) end in
+    match t with
+    | VAtom a => Hatom a | VCom m rs => Hcom m rs
+    | VPair k v => Hpair k v (tree_induction k) (tree_induction v)
+    | VMark id v => Hmark id v (tree_induction v)
+    | VSeq k l => Hseq k l (go l)
+    | VMap l => Hmap l (go l)
+    | VNode v l => Hnode v l (tree_induction v) (go l)
+    end.
+End tree_induction.
+
+Definition is_value (t : tree) : bool := match t with VCom _ _ | VPair _ _ => false | _ => true end.
+Definition is_pair (t : tree) : bool := match t with VPair _ _ => true | _ => false end.
+Definition is_lc (t : tree) : bool := match t with VCom false _ => true | _ => false end.
+Definition is_node (t : tree) : bool := match t with VNode _ _ => true | _ => false end.
+Definition count_values (l : list tree) : nat := length (filter is_value l).
+
+Definition seq_ok (k : seqk) (l : list tree) : Prop :=
+  match k with SList => True | SRec id => ident_ok id | SEdge => count_values l = 3%nat end.
+
+(* where things may stand.  A node may be an item of a list, record, edge or node, a map key, or the top-level
+   value; not a map value, a marked value or the value of a node: there the encoder's indentation of the node's
+   value depends on Writer.Column (see finding comment-first-in-node), which the layout [pp] does not track. *)
+Fixpoint wf (t : tree) : Prop :=
+  let all := fix all (p : tree -> Prop) (l : list tree) : Prop :=
+               match l with [] => True | x :: r => (wf x /\ p x) /\ all p r end in
+  match t with
+  | VAtom a => awf a
+  | VCom multi rs => scalars rs /\ (if multi then blk_plain PNone rs = true else line_ok rs = true)
+  | VPair k v => wf k /\ wf v /\ is_value k = true /\ is_value v = true /\ is_node v = false
+  | VMark id v => ident_ok id /\ wf v /\ is_value v = true /\ is_node v = false
+  | VSeq k l => all (fun x => is_pair x = false) l /\ seq_ok k l
+  | VMap l => all (fun x => is_value x = false) l
+  | VNode v l => (wf v /\ is_value v = true /\ is_node v = false) /\ all (fun x => is_pair x = false) l
+  end.
+
+Lemma wf_all (p : tree -> Prop) l :
+  (fix all (p : tree -> Prop) (l : list tree) : Prop :=
+     match l with [] => True | x :: r => (wf x /\ p x) /\ all p r end) p l <-> Forall (fun x => wf x /\ p x) l.
+Proof. induction l as [|x r IH]; [split; constructor|]. split; intro H.
+  - destruct H as [H1 H2]. constructor; [exact H1|]. apply IH, H2.
+  - inversion H; subst. split; [assumption|]. apply IH. assumption. Qed.
+
+Lemma wf_seq k l : wf (VSeq k l) <-> Forall (fun x => wf x /\ is_pair x = false) l /\ seq_ok k l.
+Proof. cbn [wf]. rewrite wf_all. reflexivity. Qed.
+Lemma wf_map l : wf (VMap l) <-> Forall (fun x => wf x /\ is_value x = false) l.
+Proof. cbn [wf]. rewrite wf_all. reflexivity. Qed.
+Lemma wf_node v l : wf (VNode v l) <-> (wf v /\ is_value v = true /\ is_node v = false) /\ Forall (fun x => wf x /\ is_pair x = false) l.
+Proof. cbn [wf]. rewrite wf_all. reflexivity. Qed.
+
+Definition sevent (k : seqk) : event := match k with SList => EList | SRec id => ERecord (str_bytes id) | SEdge => EEdge end.
+Definition sopen (fc : list N -> list N) (k : seqk) : list N :=
+  match k with SList => [91] | SRec id => 64 :: fc id ++ [123] | SEdge => [64; 40] end.
+Definition sclose (k : seqk) : N := match k with SList => 93 | SRec _ => 125 | SEdge => 41 end.
+Definition stokb (k : seqk) : tok := match k with SList => TListB | SRec id => TRecB (str_bytes id) | SEdge => TEdgeB end.
+Definition stoke (k : seqk) : tok := match k with SList => TListE | SRec _ => TBraceE | SEdge => TParenE end.
+Definition sck (k : seqk) : ckind := match k with SList => CList | SRec _ => CRecord | SEdge => CEdge end.
+Definition sdev (k : seqk) : Denote.dev :=
+  match k with SList => Denote.DList | SRec id => Denote.DRecord (str_bytes id) | SEdge => Denote.DEdge end.
+
+(* the events handed to the encoder *)
+Fixpoint events_of (t : tree) : list event :=
+  match t with
+  | VAtom a => [aevent a]
+  | VCom m rs => [EComment m (str_bytes rs)]
+  | VPair k v => events_of k ++ events_of v
+  | VMark id v => EMarker (str_bytes id) :: events_of v
+  | VSeq k l => sevent k :: flat_map events_of l ++ [EEnd]
+  | VMap l => EMap :: flat_map events_of l ++ [EEnd]
+  | VNode v l => ENode :: events_of v ++ flat_map events_of l ++ [EEnd]
+  end.
+
+(* the events the reader reports *)
+Fixpoint rd_events (t : tree) : list event :=
+  match t with
+  | VAtom a => [ard a]
+  | VCom m rs => [EComment m (str_bytes rs)]
+  | VPair k v => rd_events k ++ rd_events v
+  | VMark id v => EMarker (str_bytes id) :: rd_events v
+  | VSeq k l => sevent k :: flat_map rd_events l ++ [EEnd]
+  | VMap l => EMap :: flat_map rd_events l ++ [EEnd]
+  | VNode v l => ENode :: rd_events v ++ flat_map rd_events l ++ [EEnd]
+  end.
+
+(* ---- the layout the encoder gives such a tree ---- *)
+
+Section Printer.
+  Variables (fs fc : list N -> list N).
+  Fixpoint gp (ind : N) (t : tree) : list N :=
+    let items := fun (l : list tree) => flat_map (fun x => nl (ind + 4) ++ gp (ind + 4) x) l in
+    match t with
+    | VAtom a => atext fs fc a
+    | VCom false rs => 47 :: 47 :: fc rs
+    | VCom true rs => 47 :: 42 :: fc rs ++ [42; 47]
+    | VPair k v => gp ind k ++ [32; 61; 32] ++ gp ind v
+    | VMark id v => 38 :: fc id ++ 58 :: gp ind v
+    | VSeq k l => sopen fc k ++ items l ++ (match l with [] => [] | _ => nl ind end) ++ [sclose k]
+    | VMap l => 123 :: items l ++ (match l with [] => [] | _ => nl ind end) ++ [125]
+    | VNode v l => 40 :: gp (ind + 4) v ++ items l ++ nl ind ++ [41]
+    end.
+End Printer.
+
+Definition pp : N -> tree -> bytes := gp qbytes str_bytes.          (* the text *)
+Definition rp : N -> tree -> inp := gp qbody (fun rs => rs).         (* its code points *)
+
+(* ---- the code points of the text ---- *)
+
+Lemma runes_items k l (IH : Forall (fun t => wf t -> forall ind tail, runes (pp ind t ++ tail) = rp ind t ++ runes tail) l) :
+  Forall wf l -> forall tail,
+  runes (flat_map (fun x => nl k ++ pp k x) l ++ tail) = flat_map (fun x => nl k ++ rp k x) l ++ runes tail.
+Proof.
+  induction IH as [|x r Hx Hr IHr]; intros Hwf tail; [reflexivity|].
+  inversion Hwf; subst. cbn [flat_map]. rewrite <- !app_assoc.
+  rewrite runes_ascii_app by apply ascii_nl. rewrite Hx by assumption. rewrite IHr by assumption. reflexivity.
+Qed.
+
+Lemma Forall_wf {p : tree -> Prop} l : Forall (fun x => wf x /\ p x) l -> Forall wf l.
+Proof. intro H. eapply Forall_impl; [|exact H]. intros a [Ha _]. exact Ha. Qed.
+
+Lemma runes_ident id tail : scalars id -> runes (str_bytes id ++ tail) = id ++ runes tail.
+Proof. intro H. unfold str_bytes. apply runes_utf8_str_app, H. Qed.
+
+Lemma runes_pp t : wf t -> forall ind tail, runes (pp ind t ++ tail) = rp ind t ++ runes tail.
+Proof.
+  induction t using tree_induction; intros Hwf ind tail; unfold pp, rp in *; cbn [gp].
+  - apply atom_runes, Hwf.
+  - cbn [wf] in Hwf. destruct Hwf as [Hs _]. destruct m; cbn [app].
+    + rewrite !runes_ascii_cons by lia. rewrite <- app_assoc. unfold str_bytes. rewrite runes_utf8_str_app by exact Hs.
+      cbn [app]. rewrite !runes_ascii_cons by lia. rewrite <- app_assoc. reflexivity.
+    + rewrite !runes_ascii_cons by lia. unfold str_bytes. rewrite runes_utf8_str_app by exact Hs. reflexivity.
+  - cbn [wf] in Hwf. destruct Hwf as [Hk [Hv _]]. rewrite <- !app_assoc. rewrite IHt1 by exact Hk.
+    cbn [app]. rewrite !runes_ascii_cons by lia. rewrite IHt2 by exact Hv. reflexivity.
+  - cbn [wf] in Hwf. destruct Hwf as [[_ [_ Hs]] [Hv _]]. cbn [app]. rewrite runes_ascii_cons by lia.
+    rewrite <- app_assoc. rewrite runes_ident by exact Hs. cbn [app]. rewrite runes_ascii_cons by lia.
+    rewrite IHt by exact Hv. rewrite <- app_assoc. reflexivity.
+  - apply wf_seq in Hwf. destruct Hwf as [Hl Hk]. assert (Hw := Forall_wf _ Hl).
+    assert (Hop : forall X, runes (sopen str_bytes k ++ X) = sopen (fun rs => rs) k ++ runes X).
+    { intro X. destruct k; cbn [sopen app]; rewrite ?runes_ascii_cons by lia; [reflexivity| |reflexivity].
+      destruct Hk as [_ [_ Hs]]. rewrite <- app_assoc, runes_ident by exact Hs. cbn [app]. rewrite runes_ascii_cons by lia.
+      rewrite <- app_assoc. reflexivity. }
+    rewrite <- !app_assoc. rewrite Hop. rewrite (runes_items _ _ H Hw).
+    assert (Hcl : sclose k < 128) by (destruct k; cbn; lia).
+    destruct l; cbn [app]; [rewrite runes_ascii_cons by exact Hcl; reflexivity|].
+    rewrite runes_ascii_app by apply ascii_nl. cbn [app]. rewrite runes_ascii_cons by exact Hcl. reflexivity.
+  - apply wf_map in Hwf. assert (Hw := Forall_wf _ Hwf).
+    cbn [app]. rewrite runes_ascii_cons by lia. rewrite <- !app_assoc.
+    rewrite (runes_items _ _ H Hw). destruct l; cbn [app]; [rewrite runes_ascii_cons by lia; reflexivity|].
+    rewrite runes_ascii_app by apply ascii_nl. cbn [app]. rewrite runes_ascii_cons by lia. reflexivity.
+  - apply wf_node in Hwf. destruct Hwf as [[Hv _] Hl]. assert (Hw := Forall_wf _ Hl).
+    cbn [app]. rewrite runes_ascii_cons by lia. rewrite <- !app_assoc. rewrite IHt by exact Hv.
+    rewrite (runes_items _ _ H Hw). rewrite runes_ascii_app by apply ascii_nl. cbn [app]. rewrite runes_ascii_cons by lia. reflexivity.
+Qed.
+
+(* ------------------------------------------------------------------ *)
+(** * From code points to tokens *)
+
+Definition cwp (ind : N) (p : bool) : list tok := if p && (ind =? 0) then [] else [TWs].
+Definition pfin (pend : bool) (l : list tree) : bool := match l with [] => pend | _ => is_lc (last l (VAtom ANull)) end.
+
+Fixpoint tk (ind : N) (t : tree) : list tok :=
+  let items := fun (l : list tree) => flat_map (fun x => TWs :: tk (ind + 4) x) l in
+  match t with
+  | VAtom a => [TVal (ard a)]
+  | VCom m rs => [TComment m (str_bytes rs)]
+  | VPair k v => tk ind k ++ [TWs; TEq; TWs] ++ tk ind v
+  | VMark id v => TMarker (str_bytes id) :: tk ind v
+  | VSeq k l => stokb k :: items l ++ (match l with [] => [] | _ => cwp ind (pfin false l) end) ++ [stoke k]
+  | VMap l => TMapB :: items l ++ (match l with [] => [] | _ => cwp ind (pfin false l) end) ++ [TBraceE]
+  | VNode v l => TNodeB :: tk (ind + 4) v ++ items l ++ cwp ind (pfin false l) ++ [TParenE]
+  end.
+
+Definition follow (t : tree) (R : inp) : Prop := wsd R /\ (is_lc t = true -> exists R', R = 10 :: R').
+Definition strip (p : bool) (s : inp) : inp := if p then tl s else s.
 
 Lemma rp_head t : wf t -> forall ind, exists c r, rp ind t = c :: r /\ is_ws c = false.
 Proof.
   induction t using tree_induction; intros Hwf ind; unfold rp in *; cbn [gp].
-  - eexists _, _. split; [reflexivity|reflexivity].
-  - destruct b; eexists _, _; split; reflexivity.
-  - destruct (int_text_head false n) as [c [r [E Hc]]]. exists c, r. split; [exact E|apply not_ws_range, Hc].
-  - destruct (int_text_head true n) as [c [r [E Hc]]]. exists c, r. split; [exact E|apply not_ws_range, Hc].
-  - cbn [wf] in Hwf. rewrite (z_text_int z Hwf).
-    destruct (int_text_head (z <? 0)%Z (Z.abs_N z)) as [c [r [E Hc]]]. exists c, r. split; [exact E|apply not_ws_range, Hc].
-  - destruct k; eexists _, _; split; reflexivity.
+  - apply atom_head, Hwf.
   - destruct m; eexists _, _; split; reflexivity.
   - cbn [wf] in Hwf. destruct Hwf as [Hk _]. destruct (IHt1 Hk ind) as [c [r [E Hc]]]. rewrite E. cbn [app].
     eexists _, _. split; [reflexivity|exact Hc].
+  - eexists _, _. split; reflexivity.
+  - destruct k; eexists _, _; split; reflexivity.
   - eexists _, _. split; reflexivity.
   - eexists _, _. split; reflexivity.
 Qed.
 
 Lemma rp_nows t : wf t -> forall ind R, nows (rp ind t ++ R).
 Proof. intros Hwf ind R. destruct (rp_head t Hwf ind) as [c [r [E Hc]]]. rewrite E. exact Hc. Qed.
+
+Lemma rp_length t : wf t -> forall ind, (0 < length (rp ind t))%nat.
+Proof. intros Hwf ind. destruct (rp_head t Hwf ind) as [c [r [E _]]]. rewrite E. cbn [length]. lia. Qed.
 
 Section Items.
   Variables (cc : N) (ct : tok).
@@ -1091,23 +2125,44 @@ Section Items.
   Qed.
 End Items.
 
+Lemma ws_not_media c : is_ws c = true -> ch_media_next c = false.
+Proof. intro H. apply ws_cases in H. destruct H as [E|[E|[E|E]]]; subst c; reflexivity. Qed.
+
+Lemma media_stop_braces R : wsd R -> ConvertProofs.media_stop_ok (123 :: 125 :: R).
+Proof.
+  intro H. unfold ConvertProofs.media_stop_ok. cbn [span]. change (ch_media_next 123) with true. change (ch_media_next 125) with true. cbv iota.
+  destruct R as [|c R']; [exact I|]. cbn [span]. cbn in H. rewrite (ws_not_media c H). cbn [snd].
+  apply ws_cases in H. lia.
+Qed.
+
+Lemma tok_sopen k X : seq_ok k [] \/ (exists l, seq_ok k l) -> (forall id, k = SRec id -> ident_ok id /\ ConvertProofs.media_stop_ok (123 :: X)) ->
+  next_tok O (sopen (fun rs => rs) k ++ X) = Some (stokb k, X, O).
+Proof.
+  intros _ Hrec. destruct k as [|id|]; cbn [sopen stokb app].
+  - reflexivity.
+  - destruct (Hrec id eq_refl) as [[Hne [Hid _]] Hst]. rewrite <- app_assoc. cbn [app].
+    rewrite (ConvertProofs.at_ident_token O id 123 X Hne Hid (or_intror eq_refl) Hst). reflexivity.
+  - reflexivity.
+Qed.
+
+Lemma sopen_length k X : (length X < length (sopen (fun rs => rs) k ++ X))%nat.
+Proof. destruct k; cbn [sopen app length]; rewrite ?app_length; cbn [length]; lia. Qed.
+
+Lemma tok_sclose k R : next_tok O (sclose k :: R) = Some (stoke k, R, O).
+Proof. destruct k; reflexivity. Qed.
+
 Lemma lexes_tree t : wf t -> forall ind R, follow t R -> lexes (tk ind t) (rp ind t ++ R) (strip (is_lc t) R).
 Proof.
   induction t using tree_induction; intros Hwf ind R [Hw Hlc]; unfold rp in *; cbn [gp tk is_lc strip].
-  - apply lexes_one; [reflexivity|unfold CteEnc.t_null; cbn [app length]; lia].
-  - destruct b; (apply lexes_one; [reflexivity|unfold CteEnc.t_true, CteEnc.t_false; cbn [app length]; lia]).
-  - apply lexes_one; [apply tok_int, Hw|]. destruct (int_text_head false n) as [c [r [E _]]]. rewrite E. cbn [app length]. rewrite app_length. lia.
-  - apply lexes_one; [apply tok_int, Hw|]. destruct (int_text_head true n) as [c [r [E _]]]. rewrite E. cbn [app length]. rewrite app_length. lia.
-  - cbn [wf] in Hwf. rewrite (z_text_int z Hwf). apply lexes_one; [apply tok_int, Hw|].
-    destruct (int_text_head (z <? 0)%Z (Z.abs_N z)) as [c [r [E _]]]. rewrite E. cbn [app length]. rewrite app_length. lia.
-  - cbn [wf] in Hwf. rewrite <- app_assoc. cbn [app]. rewrite <- app_assoc. cbn [app].
-    apply lexes_one; [apply tok_text, Hwf|]. rewrite !app_length. cbn [length]. rewrite app_length. cbn [length]. lia.
+  - (* atoms *)
+    apply lexes_one; [apply atom_tok; assumption|].
+    destruct (atom_head a Hwf) as [c [r [E _]]]. unfold arunes in E. rewrite E. cbn [app length]. rewrite app_length. lia.
   - cbn [wf] in Hwf. destruct Hwf as [_ Hok]. destruct m; cbn [is_lc strip] in *.
     + cbn [app]. rewrite <- app_assoc. cbn [app]. apply lexes_one; [apply tok_block_comment, Hok|].
       cbn [length]. rewrite app_length. cbn [length]. lia.
     + destruct (Hlc eq_refl) as [R' ->]. cbn [app tl]. apply lexes_one; [apply tok_line_comment, Hok|].
       cbn [length]. rewrite app_length. cbn [length]. lia.
-  - cbn [wf] in Hwf. destruct Hwf as [Hk [Hv [Vk Vv]]].
+  - cbn [wf] in Hwf. destruct Hwf as [Hk [Hv [Vk [Vv _]]]].
     assert (Lk : is_lc t1 = false) by (destruct t1; try reflexivity; discriminate).
     assert (Lv : is_lc t2 = false) by (destruct t2; try reflexivity; discriminate).
     rewrite <- !app_assoc. cbn [app].
@@ -1120,15 +2175,34 @@ Proof.
     exists (gp qbody (fun rs => rs) ind t2 ++ R). split; [|split; [cbn [length]; lia|]].
     { change (32 :: gp qbody (fun rs => rs) ind t2 ++ R) with (spaces 1 ++ (rp ind t2 ++ R)). apply tok_spaces; [lia|exact Hn]. }
     assert (F := IHt2 Hv ind R). rewrite Lv in F. cbn [strip] in F. apply F. split; [exact Hw|]. rewrite Lv. discriminate.
-  - apply wf_list in Hwf. destruct l as [|x l'].
-    + cbn [flat_map app]. exists (93 :: R). split; [reflexivity|]. split; [cbn [length]; lia|].
-      apply lexes_one; [reflexivity|cbn [length]; lia].
-    + cbv iota. set (l := x :: l') in *. cbn [app]. exists (items_text 93 ind (ind + 4) R l). split; [|split].
-      * unfold items_text, rp. rewrite <- !app_assoc. reflexivity.
-      * unfold items_text, rp. rewrite <- !app_assoc. cbn [app length]. lia.
-      * apply (lexes_items 93 TListE (fun r => eq_refl) eq_refl ind (ind + 4) R ltac:(lia) l) with (pend := false).
-        rewrite Forall_forall in *. intros y Hy. split; [apply Hwf, Hy|]. intros ind' R' F. apply H; [exact Hy|apply Hwf, Hy|exact F].
-  - apply wf_map in Hwf. destruct l as [|x l'].
+  - (* marker *)
+    cbn [wf] in Hwf. destruct Hwf as [[Hne [Hid Hs]] [Hv [Vv _]]].
+    assert (Lv : is_lc t = false) by (destruct t; try reflexivity; discriminate).
+    cbn [app]. rewrite <- app_assoc. cbn [app].
+    exists (gp qbody (fun rs => rs) ind t ++ R). split; [apply ConvertProofs.marker_token; assumption|].
+    split; [cbn [length]; rewrite !app_length; cbn [length]; rewrite ?app_length; lia|].
+    assert (F := IHt Hv ind R). rewrite Lv in F. cbn [strip] in F. apply F. split; [exact Hw|]. rewrite Lv. discriminate.
+  - (* list, record, edge *)
+    apply wf_seq in Hwf. destruct Hwf as [Hl Hk]. rewrite <- !app_assoc.
+    assert (Hst : forall X, (X = sclose k :: R \/ exists Y, X = 10 :: Y) ->
+                  forall id, k = SRec id -> ident_ok id /\ ConvertProofs.media_stop_ok (123 :: X)).
+    { intros X HX id E. subst k. split; [exact Hk|]. destruct HX as [->|[Y ->]].
+      - apply media_stop_braces, Hw.
+      - apply ConvertProofs.media_stop_after_brace_lf. }
+    destruct l as [|x l'].
+    + cbn [flat_map app]. exists (sclose k :: R). split; [apply tok_sopen; [left; destruct k; cbn; trivial; exact Hk|apply Hst; left; reflexivity]|].
+      split; [apply sopen_length|]. apply lexes_one; [apply tok_sclose|cbn [length]; lia].
+    + cbv iota. set (l := x :: l') in *.
+      assert (Etxt : flat_map (fun x0 => nl (ind + 4) ++ gp qbody (fun rs => rs) (ind + 4) x0) l ++ nl ind ++ [sclose k] ++ R
+                     = items_text (sclose k) ind (ind + 4) R l) by reflexivity.
+      rewrite Etxt. destruct (items_text_head (sclose k) ind (ind + 4) R l) as [Y EY].
+      exists (items_text (sclose k) ind (ind + 4) R l). split; [|split].
+      * apply tok_sopen; [right; exists l; exact Hk|]. apply Hst. right. exists Y. exact EY.
+      * apply sopen_length.
+      * apply (lexes_items (sclose k) (stoke k) (tok_sclose k) ltac:(destruct k; reflexivity) ind (ind + 4) R ltac:(lia) l) with (pend := false).
+        rewrite Forall_forall in *. intros y Hy. split; [apply Hl, Hy|]. intros ind' R' F. apply H; [exact Hy|apply Hl, Hy|exact F].
+  - (* map *)
+    apply wf_map in Hwf. destruct l as [|x l'].
     + cbn [flat_map app]. exists (125 :: R). split; [reflexivity|]. split; [cbn [length]; lia|].
       apply lexes_one; [reflexivity|cbn [length]; lia].
     + cbv iota. set (l := x :: l') in *. cbn [app]. exists (items_text 125 ind (ind + 4) R l). split; [|split].
@@ -1136,15 +2210,30 @@ Proof.
       * unfold items_text, rp. rewrite <- !app_assoc. cbn [app length]. lia.
       * apply (lexes_items 125 TBraceE (fun r => eq_refl) eq_refl ind (ind + 4) R ltac:(lia) l) with (pend := false).
         rewrite Forall_forall in *. intros y Hy. split; [apply Hwf, Hy|]. intros ind' R' F. apply H; [exact Hy|apply Hwf, Hy|exact F].
+  - (* node *)
+    apply wf_node in Hwf. destruct Hwf as [[Hv [Vv _]] Hl].
+    assert (Lv : is_lc t = false) by (destruct t; try reflexivity; discriminate).
+    cbn [app]. rewrite <- !app_assoc.
+    assert (Etxt : flat_map (fun x0 => nl (ind + 4) ++ gp qbody (fun rs => rs) (ind + 4) x0) l ++ nl ind ++ [41] ++ R
+                   = items_text 41 ind (ind + 4) R l) by reflexivity.
+    rewrite Etxt. destruct (items_text_head 41 ind (ind + 4) R l) as [Y EY].
+    exists (gp qbody (fun rs => rs) (ind + 4) t ++ items_text 41 ind (ind + 4) R l). split; [reflexivity|]. split; [cbn [length]; lia|].
+    eapply lexes_app.
+    { assert (F := IHt Hv (ind + 4) (items_text 41 ind (ind + 4) R l)). rewrite Lv in F. cbn [strip] in F. apply F.
+      rewrite EY. split; [reflexivity|]. rewrite Lv. discriminate. }
+    apply (lexes_items 41 TParenE (fun r => eq_refl) eq_refl ind (ind + 4) R ltac:(lia) l) with (pend := false).
+    rewrite Forall_forall in *. intros y Hy. split; [apply Hl, Hy|]. intros ind' R' F. apply H; [exact Hy|apply Hl, Hy|exact F].
 Qed.
 
 (* ------------------------------------------------------------------ *)
 (** * From tokens to events *)
 
-Definition vhead (t : tok) : bool := match t with TVal _ | TListB | TMapB => true | _ => false end.
+Definition vhead (t : tok) : bool :=
+  match t with TVal _ | TListB | TMapB | TMarker _ | TRecB _ | TNodeB | TEdgeB => true | _ => false end.
 
 Lemma tk_value_head t ind : is_value t = true -> exists t0 r, tk ind t = t0 :: r /\ vhead t0 = true.
-Proof. destruct t; intro H; try discriminate; cbn [tk]; eexists _, _; split; reflexivity. Qed.
+Proof. destruct t as [| | | |k l| |]; intro H; try discriminate; cbn [tk]; try (eexists _, _; split; reflexivity).
+  destruct k; eexists _, _; split; reflexivity. Qed.
 
 Lemma skip_seps_vhead t0 r : vhead t0 = true -> skip_seps (t0 :: r) = ([], t0 :: r, false).
 Proof. destruct t0; intro H; try discriminate; reflexivity. Qed.
@@ -1152,6 +2241,8 @@ Proof. destruct t0; intro H; try discriminate; reflexivity. Qed.
 Lemma skip_seps_ws_vhead t0 r : vhead t0 = true -> skip_seps (TWs :: t0 :: r) = ([], t0 :: r, true).
 Proof. destruct t0; intro H; try discriminate; reflexivity. Qed.
 
+Lemma closes_vhead k t0 : vhead t0 = true -> closes k t0 = false.
+Proof. destruct k, t0; intro H; try discriminate; reflexivity. Qed.
 Lemma p_items_ws f k n T res : p_items f k n T = Some res -> p_items f k n (TWs :: T) = Some res.
 Proof.
   destruct f as [|f]; [discriminate|]. cbn [p_items skip_seps].
@@ -1206,38 +2297,58 @@ Definition parses (t : tree) : Prop :=
 
 Definition item_toks (i : N) (l : list tree) : list tok := flat_map (fun x => TWs :: tk i x) l.
 
-Lemma p_items_value_step x i T f n es rest :
+
+Lemma p_items_value_step k x i T f n es rest :
   parses x -> wf x -> is_value x = true -> (length (tk i x) < f)%nat ->
-  p_items f CList (S n) T = Some (es, rest) ->
-  p_items (S f) CList n (TWs :: tk i x ++ T) = Some (rd_events x ++ es, rest).
+  p_items f k (S n) T = Some (es, rest) ->
+  p_items (S f) k n (TWs :: tk i x ++ T) = Some (rd_events x ++ es, rest).
 Proof.
   intros Hx Hwf Hv Hf HT.
   destruct (tk_value_head x i Hv) as [t0 [r0 [E0 V0]]].
   assert (Hp := Hx Hwf Hv i f T Hf).
   cbn [p_items]. rewrite E0 in *. cbn [app] in *. rewrite (skip_seps_ws_vhead _ _ V0).
-  assert (Hcl : closes CList t0 = false) by (destruct t0; try discriminate; reflexivity).
-  rewrite Hcl. rewrite andb_false_r. rewrite Hp, HT. reflexivity.
+  rewrite (closes_vhead k t0 V0). rewrite andb_false_r. rewrite Hp, HT. reflexivity.
 Qed.
 
-Lemma p_items_list i l :
+(* the first value of a node follows the opening parenthesis directly *)
+Lemma p_items_first_step k x i T f es rest :
+  parses x -> wf x -> is_value x = true -> (length (tk i x) < f)%nat ->
+  p_items f k 1 T = Some (es, rest) ->
+  p_items (S f) k 0 (tk i x ++ T) = Some (rd_events x ++ es, rest).
+Proof.
+  intros Hx Hwf Hv Hf HT.
+  destruct (tk_value_head x i Hv) as [t0 [r0 [E0 V0]]].
+  assert (Hp := Hx Hwf Hv i f T Hf).
+  cbn [p_items]. rewrite E0 in *. cbn [app] in *. rewrite (skip_seps_vhead _ _ V0).
+  rewrite (closes_vhead k t0 V0). cbn [Nat.ltb Nat.leb andb]. rewrite Hp, HT. reflexivity.
+Qed.
+
+Lemma count_values_cons x l : count_values (x :: l) = if is_value x then S (count_values l) else count_values l.
+Proof. unfold count_values. cbn [filter]. destruct (is_value x); reflexivity. Qed.
+
+Lemma p_items_seq k ct i l : closes k ct = true -> vhead ct = false -> ct <> TWs -> (forall m b, ct <> TComment m b) ->
   Forall (fun x => (wf x /\ is_pair x = false) /\ parses x) l ->
   forall cw, cw = [] \/ cw = [TWs] ->
-  forall f n rest, (length (item_toks i l ++ cw ++ [TListE]) < f)%nat ->
-  p_items f CList n (item_toks i l ++ cw ++ TListE :: rest) = Some (flat_map rd_events l ++ [EEnd], rest).
+  forall f n rest, (length (item_toks i l ++ cw ++ [ct]) < f)%nat -> count_ok k (n + count_values l) = true ->
+  p_items f k n (item_toks i l ++ cw ++ ct :: rest) = Some (flat_map rd_events l ++ [EEnd], rest).
 Proof.
-  induction 1 as [|x l' [[Hwf Hnp] Hx] Hl IH]; intros cw Hcw f n rest Hf.
+  intros Hcl Hnv Hnw Hnc. induction 1 as [|x l' [[Hwf Hnp] Hx] Hl IH]; intros cw Hcw f n rest Hf Hcnt.
   - cbn [item_toks flat_map app]. destruct f as [|f]; [cbn in Hf; lia|].
-    destruct Hcw as [-> | ->]; reflexivity.
+    unfold count_values in Hcnt. cbn [filter length] in Hcnt. rewrite Nat.add_0_r in Hcnt.
+    destruct Hcw as [E | E]; subst cw; cbn [app p_items skip_seps].
+    + destruct ct; try discriminate Hnv; try (exfalso; apply Hnw; reflexivity); try (exfalso; eapply Hnc; reflexivity);
+        cbn [skip_seps]; rewrite Hcl, Hcnt; reflexivity.
+    + destruct ct; try discriminate Hnv; try (exfalso; apply Hnw; reflexivity); try (exfalso; eapply Hnc; reflexivity);
+        cbn [skip_seps]; rewrite Hcl, Hcnt; reflexivity.
   - unfold item_toks in *. cbn [flat_map] in *. rewrite <- !app_assoc in *. cbn [app] in *.
-    cbn [length] in Hf. rewrite !app_length in Hf. cbn [length] in Hf.
+    cbn [length] in Hf. rewrite !app_length in Hf. cbn [length] in Hf. rewrite count_values_cons in Hcnt.
     destruct (is_value x) eqn:V.
     + destruct f as [|f]; [lia|]. apply p_items_value_step; try assumption; [lia|].
-      apply (IH cw Hcw). rewrite !app_length. cbn [length]. lia.
+      apply (IH cw Hcw); [rewrite !app_length; cbn [length]; lia|]. replace (S n + count_values l')%nat with (n + S (count_values l'))%nat by lia. exact Hcnt.
     + destruct x; try discriminate.
-      cbn [tk app rd_events]. apply p_items_ws, p_items_com. apply (IH cw Hcw).
+      cbn [tk app rd_events]. apply p_items_ws, p_items_com. apply (IH cw Hcw); [|exact Hcnt].
       rewrite !app_length. cbn [length]. cbn [tk length] in Hf. lia.
 Qed.
-
 Lemma p_pairs_pair_step k v i T f first es rest :
   parses k -> parses v -> wf k -> wf v -> is_value k = true -> is_value v = true ->
   (length (tk i k) < f)%nat -> (length (tk i v) < f)%nat ->
@@ -1273,7 +2384,7 @@ Proof.
     destruct x; try discriminate.
     + cbn [tk app rd_events] in *. apply p_pairs_ws, p_pairs_com. apply (IH cw Hcw).
       cbn [length] in Hf. lia.
-    + destruct (Hx x1 x2 eq_refl) as [P1 P2]. cbn [wf] in Hwf. destruct Hwf as [W1 [W2 [V1 V2]]].
+    + destruct (Hx x1 x2 eq_refl) as [P1 P2]. cbn [wf] in Hwf. destruct Hwf as [W1 [W2 [V1 [V2 _]]]].
       cbn [tk rd_events] in *. rewrite <- !app_assoc in *. cbn [app] in *.
       cbn [length] in Hf. repeat (rewrite app_length in Hf; cbn [length] in Hf).
       destruct f as [|f]; [lia|]. apply p_pairs_pair_step; try assumption; try lia.
@@ -1286,20 +2397,33 @@ Lemma cw_cases ind (l : list tree) :
   (match l with [] => [] | _ => cwp ind (pfin false l) end) = [] \/ (match l with [] => [] | _ => cwp ind (pfin false l) end) = [TWs].
 Proof. destruct l; [left; reflexivity|]. unfold cwp. destruct (_ && _); [left|right]; reflexivity. Qed.
 
+
 Lemma parses_all t : parses2 t.
 Proof.
   induction t using tree_induction; (split; [|try (intros k0 v0 E; discriminate E)]);
     try (intros Hwf Hv ind f rest Hf; first [cbn in Hv; discriminate Hv | destruct f as [|f]; [cbn in Hf; lia|]; reflexivity]).
   - intros k0 v0 E. inversion E; subst. split; [apply IHt1|apply IHt2].
-  - (* list *)
+  - (* marker *)
+    intros Hwf Hv ind f rest Hf. cbn [wf] in Hwf. destruct Hwf as [_ [Wv [Vv _]]].
+    cbn [tk rd_events app] in *. destruct f as [|f]; [cbn in Hf; lia|]. cbn [length] in Hf.
+    cbn [p_value]. rewrite (proj1 IHt Wv Vv ind f rest) by lia. reflexivity.
+  - (* list, record, edge *)
     intros Hwf Hv ind f rest Hf.
-    apply wf_list in Hwf. cbn [tk rd_events] in *. destruct f as [|f]; [cbn in Hf; lia|].
-    cbn [app p_value]. cbn [length] in Hf. rewrite <- !app_assoc. cbn [app].
-    fold (item_toks (ind + 4) l) in *. rewrite (p_items_list (ind + 4) l).
-    + reflexivity.
-    + rewrite Forall_forall in *. intros x Hx. split; [apply Hwf, Hx|apply H, Hx].
-    + apply cw_cases.
-    + lia.
+    apply wf_seq in Hwf. destruct Hwf as [Hl Hk]. cbn [tk rd_events] in *. destruct f as [|f]; [cbn in Hf; lia|].
+    cbn [length] in Hf. cbn [app]. rewrite <- !app_assoc. cbn [app].
+    fold (item_toks (ind + 4) l) in *.
+    assert (G : p_items f (sck k) O (item_toks (ind + 4) l ++ (match l with [] => [] | _ => cwp ind (pfin false l) end) ++ stoke k :: rest)
+                = Some (flat_map rd_events l ++ [EEnd], rest)).
+    { apply p_items_seq.
+      - destruct k; reflexivity.
+      - destruct k; reflexivity.
+      - destruct k; discriminate.
+      - destruct k; discriminate.
+      - rewrite Forall_forall in *. intros x Hx. split; [apply Hl, Hx|apply H, Hx].
+      - apply cw_cases.
+      - rewrite !app_length in *. cbn [length] in *. lia.
+      - destruct k; cbn [sck count_ok]; try reflexivity. cbn [seq_ok] in Hk. rewrite Hk. reflexivity. }
+    destruct k; cbn [stokb sck sevent p_value] in *; rewrite G; reflexivity.
   - (* map *)
     intros Hwf Hv ind f rest Hf.
     apply wf_map in Hwf. cbn [tk rd_events] in *. destruct f as [|f]; [cbn in Hf; lia|].
@@ -1309,9 +2433,19 @@ Proof.
     + rewrite Forall_forall in *. intros x Hx. split; [apply Hwf, Hx|apply H, Hx].
     + apply cw_cases.
     + lia.
+  - (* node *)
+    intros Hwf Hv ind f rest Hf.
+    apply wf_node in Hwf. destruct Hwf as [[Wv [Vv _]] Hl]. cbn [tk rd_events] in *. destruct f as [|f]; [cbn in Hf; lia|].
+    cbn [app p_value]. cbn [length] in Hf. rewrite <- !app_assoc. cbn [app].
+    fold (item_toks (ind + 4) l) in *. rewrite !app_length in Hf. cbn [length] in Hf.
+    destruct f as [|f]; [lia|].
+    rewrite (p_items_first_step CNode t (ind + 4) _ f (flat_map rd_events l ++ [EEnd]) rest (proj1 IHt) Wv Vv ltac:(lia)).
+    + rewrite <- ?app_assoc. reflexivity.
+    + apply p_items_seq; try reflexivity; try discriminate.
+      * rewrite Forall_forall in *. intros x Hx. split; [apply Hl, Hx|apply H, Hx].
+      * unfold cwp. destruct (_ && _); [left|right]; reflexivity.
+      * destruct (tk_value_head t (ind + 4) Vv) as [t0 [r0 [E0 _]]]. rewrite E0 in Hf. rewrite !app_length in *. cbn [length] in *. lia.
 Qed.
-
-(* ------------------------------------------------------------------ *)
 (** * The reader on the encoder's layout *)
 
 Lemma lex_nil f idx : lex f idx [] = Some [].
@@ -1320,28 +2454,145 @@ Proof. destruct f; reflexivity. Qed.
 Lemma value_not_lc t : is_value t = true -> is_lc t = false.
 Proof. destruct t; try reflexivity; discriminate. Qed.
 
-Theorem read_pp_doc t : wf t -> is_value t = true -> cte_read (pp_doc t) = Some (document (rd_events t)).
-Proof.
-  intros Hwf Hv. unfold cte_read, pp_doc.
-  rewrite !runes_ascii_cons by lia. rewrite runes_ascii_app by apply ascii_nl.
-  rewrite <- (app_nil_r (pp 0 t)). rewrite runes_pp by exact Hwf. rewrite runes_nil.
-  cbn [read_runes]. change ((lower 99 =? 99) && ((48 =? 48) || (48 =? 49))) with true. cbv iota.
-  assert (HL : lexes (TWs :: tk 0 t) (nl 0 ++ rp 0 t ++ []) []).
-  { exists (rp 0 t ++ []). split; [apply tok_nl, rp_nows, Hwf|]. split; [unfold nl; cbn [app length]; rewrite !app_length; lia|].
-    assert (F := lexes_tree t Hwf 0 []). rewrite (value_not_lc t Hv) in F. apply F. split; [exact I|]. intro Hc. rewrite (value_not_lc t Hv) in Hc. discriminate Hc. }
-  assert (Hlen := lexes_length _ _ _ HL). cbn [length] in Hlen.
-  assert (Hfuel : S (length (nl 0 ++ rp 0 t ++ [])) = (length (TWs :: tk 0 t) + (S (length (nl 0 ++ rp 0 t ++ [])) - length (TWs :: tk 0 t)))%nat)
-    by (cbn [length]; lia).
-  rewrite Hfuel, (lex_lexes _ _ _ HL), lex_nil. cbn [option_map]. rewrite app_nil_r.
-  destruct (tk_value_head t 0 Hv) as [t0 [r0 [E0 V0]]].
-  assert (Hp := proj1 (parses_all t) Hwf Hv 0 (2 * length (tk 0 t) + 3)%nat [] ltac:(lia)).
-  rewrite app_nil_r in Hp.
-  replace (2 * length (tk 0 t) + 4)%nat with (S (2 * length (tk 0 t) + 3)) by lia.
-  cbn [p_top]. rewrite E0 in *. rewrite (skip_seps_vhead _ _ V0).
-  destruct t0; try discriminate V0; rewrite Hp; reflexivity.
-Qed.
 
 (* ------------------------------------------------------------------ *)
+(** * Documents: record types, then the top-level value *)
+
+Definition rectype := (list N * list tree)%type.
+Definition wf_rt (rt : rectype) : Prop := ident_ok (fst rt) /\ Forall (fun x => wf x /\ is_pair x = false) (snd rt).
+
+Definition rt_events (f : tree -> list event) (rt : rectype) : list event :=
+  ERecordType (str_bytes (fst rt)) :: flat_map f (snd rt) ++ [EEnd].
+Definition doc_events (rts : list rectype) (t : tree) : list event := flat_map (rt_events events_of) rts ++ events_of t.
+Definition doc_rd (rts : list rectype) (t : tree) : list event := flat_map (rt_events rd_events) rts ++ rd_events t.
+
+(* "@name<" items ">" and the line feed the encoder writes after it *)
+Definition gp_rt (fs fc : list N -> list N) (rt : rectype) : list N :=
+  64 :: fc (fst rt) ++ 60 :: flat_map (fun x => nl 4 ++ gp fs fc 4 x) (snd rt) ++
+  (match snd rt with [] => [] | _ => nl 0 end) ++ 62 :: nl 0.
+Definition pp_doc (rts : list rectype) (t : tree) : bytes :=
+  99 :: 48 :: nl 0 ++ flat_map (gp_rt qbytes str_bytes) rts ++ pp 0 t.
+Definition rp_body (rts : list rectype) (t : tree) : inp := flat_map (gp_rt qbody (fun rs => rs)) rts ++ rp 0 t.
+Definition document (body : list event) : list event := EBeginDoc :: EVersion 0 :: body ++ [EEndDoc].
+
+Definition tk_rt (rt : rectype) : list tok :=
+  TRecTypeB (str_bytes (fst rt)) :: item_toks 4 (snd rt) ++
+  (match snd rt with [] => [] | _ => cwp 0 (pfin false (snd rt)) end) ++ [TGt; TWs].
+Definition tk_body (rts : list rectype) (t : tree) : list tok := flat_map tk_rt rts ++ tk 0 t.
+
+Lemma runes_rt rt : wf_rt rt -> forall tail,
+  runes (gp_rt qbytes str_bytes rt ++ tail) = gp_rt qbody (fun rs => rs) rt ++ runes tail.
+Proof.
+  intros [[_ [_ Hs]] Hl] tail. destruct rt as [id l]. unfold gp_rt. cbn [fst snd] in *.
+  cbn [app]. rewrite runes_ascii_cons by lia. rewrite <- !app_assoc. rewrite runes_ident by exact Hs.
+  cbn [app]. rewrite runes_ascii_cons by lia. rewrite <- !app_assoc.
+  assert (Hw := Forall_wf _ Hl).
+  assert (IH : Forall (fun t => wf t -> forall ind tail, runes (pp ind t ++ tail) = rp ind t ++ runes tail) l).
+  { apply Forall_forall. intros x _. apply runes_pp. }
+  rewrite (runes_items 4 l IH Hw).
+  destruct l; cbn [app]; rewrite ?runes_ascii_cons by lia.
+  - rewrite (runes_ascii_app (nl 0)) by apply ascii_nl. reflexivity.
+  - rewrite (runes_ascii_app (nl 0)) by apply ascii_nl. cbn [app]. rewrite runes_ascii_cons by lia.
+    rewrite (runes_ascii_app (nl 0)) by apply ascii_nl. reflexivity.
+Qed.
+
+Lemma runes_body rts t : Forall wf_rt rts -> wf t -> forall tail,
+  runes ((flat_map (gp_rt qbytes str_bytes) rts ++ pp 0 t) ++ tail) = rp_body rts t ++ runes tail.
+Proof.
+  intros Hr Hwf tail. unfold rp_body. induction Hr as [|rt rts' Hrt Hrts IH].
+  - cbn [flat_map app]. apply runes_pp, Hwf.
+  - cbn [flat_map]. rewrite <- !app_assoc. rewrite runes_rt by exact Hrt. rewrite app_assoc. rewrite IH. rewrite <- !app_assoc. reflexivity.
+Qed.
+
+Lemma media_stop_lt X : ConvertProofs.media_stop_ok (60 :: X).
+Proof. unfold ConvertProofs.media_stop_ok. cbn [span]. change (ch_media_next 60) with false. cbv iota. cbn [snd]. discriminate. Qed.
+
+Lemma lexes_rt rt X : wf_rt rt -> nows X -> lexes (tk_rt rt) (gp_rt qbody (fun rs => rs) rt ++ X) X.
+Proof.
+  intros [[Hne [Hid Hs]] Hl] HX. destruct rt as [id l]. unfold gp_rt, tk_rt. cbn [fst snd] in *.
+  cbn [app]. rewrite <- !app_assoc. cbn [app]. rewrite <- !app_assoc.
+  assert (Hopen : forall Y, next_tok O (64 :: id ++ 60 :: Y) = Some (TRecTypeB (str_bytes id), Y, O)).
+  { intro Y. rewrite (ConvertProofs.at_ident_token O id 60 Y Hne Hid (or_introl eq_refl) (media_stop_lt Y)). reflexivity. }
+  assert (Hgt : forall r, next_tok O (62 :: r) = Some (TGt, r, O)) by reflexivity.
+  assert (Hfin : lexes [TWs] (nl 0 ++ X) X).
+  { apply lexes_one; [apply tok_nl, HX|unfold nl; cbn [app length]; rewrite app_length; lia]. }
+  destruct l as [|x l'].
+  - cbn [flat_map app item_toks]. exists (62 :: nl 0 ++ X). split; [apply Hopen|]. split; [cbn [length]; rewrite !app_length; cbn [length]; rewrite ?app_length; cbn [length]; lia|].
+    exists (nl 0 ++ X). split; [apply Hgt|]. split; [cbn [length]; lia|]. exact Hfin.
+  - cbv iota. set (l := x :: l') in *.
+    exists (items_text 62 0 4 (nl 0 ++ X) l). split; [exact (Hopen _)|].
+    split; [unfold items_text, rp; cbn [length]; rewrite !app_length; cbn [length]; rewrite ?app_length; cbn [length]; lia|].
+    replace (item_toks 4 l ++ cwp 0 (pfin false l) ++ [TGt; TWs]) with ((item_toks 4 l ++ cwp 0 (pfin false l) ++ [TGt]) ++ [TWs])
+      by (rewrite <- !app_assoc; reflexivity).
+    eapply lexes_app; [|exact Hfin].
+    apply (lexes_items 62 TGt Hgt eq_refl 0 4 (nl 0 ++ X) ltac:(lia) l) with (pend := false).
+    rewrite Forall_forall in *. intros y Hy. split; [apply Hl, Hy|]. intros ind' R' F. apply lexes_tree; [apply Hl, Hy|exact F].
+Qed.
+
+Lemma gp_rt_nows rt X : nows (gp_rt qbody (fun rs => rs) rt ++ X).
+Proof. reflexivity. Qed.
+
+Lemma lexes_body rts t : Forall wf_rt rts -> wf t -> is_value t = true ->
+  lexes (tk_body rts t) (flat_map (gp_rt qbody (fun rs => rs)) rts ++ rp 0 t ++ []) [].
+Proof.
+  intros Hr Hwf Hv. unfold tk_body. induction Hr as [|rt rts' Hrt Hrts IH].
+  - cbn [flat_map app].
+    assert (F := lexes_tree t Hwf 0 []). assert (Lv : is_lc t = false) by (destruct t; try reflexivity; discriminate).
+    rewrite Lv in F. apply F. split; [exact I|]. rewrite Lv. discriminate.
+  - cbn [flat_map]. rewrite <- !app_assoc. eapply lexes_app; [|exact IH].
+    apply lexes_rt; [exact Hrt|]. destruct rts' as [|rt2 r2]; cbn [flat_map app]; [apply rp_nows, Hwf|reflexivity].
+Qed.
+
+(* ---- parsing the token list of a document ---- *)
+
+Lemma p_top_body rts t : Forall wf_rt rts -> wf t -> is_value t = true ->
+  forall f ws, ws = [] \/ ws = [TWs] -> (length (tk_body rts t) + 2 < f)%nat ->
+  p_top f (ws ++ tk_body rts t) = Some (doc_rd rts t).
+Proof.
+  intros Hr Hwf Hv. unfold tk_body, doc_rd. induction Hr as [|rt rts' Hrt Hrts IH]; intros f ws Hws Hf.
+  - cbn [flat_map app] in *. destruct f as [|f]; [lia|].
+    destruct (tk_value_head t 0 Hv) as [t0 [r0 [E0 V0]]].
+    assert (Hp := proj1 (parses_all t) Hwf Hv 0 f [] ltac:(lia)). rewrite app_nil_r in Hp.
+    cbn [p_top]. rewrite E0 in *.
+    assert (Hsk : skip_seps (ws ++ t0 :: r0) = ([], t0 :: r0, match ws with [] => false | _ => true end)).
+    { destruct Hws as [E|E]; subst ws; cbn [app]; [apply skip_seps_vhead, V0|apply skip_seps_ws_vhead, V0]. }
+    rewrite Hsk. destruct t0; try discriminate V0; rewrite Hp; reflexivity.
+  - destruct rt as [id l]. destruct Hrt as [Hid Hl]. cbn [fst snd] in *. cbn [flat_map] in *. unfold tk_rt at 1 in Hf. unfold tk_rt at 1.
+    cbn [fst snd] in *. rewrite <- !app_assoc in *. cbn [app] in *.
+    destruct f as [|f]; [lia|]. cbn [p_top].
+    assert (Hsk : forall Y, skip_seps (ws ++ TRecTypeB (str_bytes id) :: Y) = ([], TRecTypeB (str_bytes id) :: Y, match ws with [] => false | _ => true end)).
+    { intro Y. destruct Hws as [E|E]; subst ws; reflexivity. }
+    rewrite Hsk. cbn [length] in Hf. rewrite !app_length in Hf. cbn [length] in Hf.
+    set (REST := flat_map tk_rt rts' ++ tk 0 t) in *.
+    assert (G : p_items f CRecType O (item_toks 4 l ++ (match l with [] => [] | _ => cwp 0 (pfin false l) end) ++ TGt :: TWs :: REST)
+                = Some (flat_map rd_events l ++ [EEnd], TWs :: REST)).
+    { apply p_items_seq; try reflexivity; try discriminate.
+      - rewrite Forall_forall in *. intros x Hx. split; [apply Hl, Hx|apply parses_all].
+      - apply cw_cases.
+      - rewrite !app_length. cbn [length]. lia. }
+    rewrite <- !app_assoc. cbn [app]. rewrite G. change (TWs :: REST) with ([TWs] ++ REST). rewrite (IH f [TWs] (or_intror eq_refl)) by (unfold REST in *; rewrite app_length; lia).
+    cbn [option_map app rt_events fst snd]. rewrite <- !app_assoc. reflexivity.
+Qed.
+
+Theorem read_pp_doc rts t : Forall wf_rt rts -> wf t -> is_value t = true ->
+  cte_read (pp_doc rts t) = Some (document (doc_rd rts t)).
+Proof.
+  intros Hr Hwf Hv. unfold cte_read, pp_doc.
+  rewrite !runes_ascii_cons by lia. rewrite runes_ascii_app by apply ascii_nl.
+  rewrite <- (app_nil_r (flat_map (gp_rt qbytes str_bytes) rts ++ pp 0 t)). rewrite runes_body by assumption. rewrite runes_nil.
+  cbn [read_runes]. change ((lower 99 =? 99) && ((48 =? 48) || (48 =? 49))) with true. cbv iota.
+  assert (Hn : nows (rp_body rts t ++ [])).
+  { unfold rp_body. destruct rts; cbn [flat_map app]; [apply rp_nows, Hwf|reflexivity]. }
+  assert (HL : lexes (TWs :: tk_body rts t) (nl 0 ++ rp_body rts t ++ []) []).
+  { exists (rp_body rts t ++ []). split; [apply tok_nl, Hn|]. split; [unfold nl; cbn [app length]; rewrite !app_length; lia|].
+    unfold rp_body. rewrite <- app_assoc. apply lexes_body; assumption. }
+  assert (Hlen := lexes_length _ _ _ HL). cbn [length] in Hlen.
+  assert (Hfuel : S (length (nl 0 ++ rp_body rts t ++ [])) = (length (TWs :: tk_body rts t) + (S (length (nl 0 ++ rp_body rts t ++ [])) - length (TWs :: tk_body rts t)))%nat)
+    by (cbn [length]; lia).
+  rewrite Hfuel, (lex_lexes _ _ _ HL), lex_nil. cbn [option_map]. rewrite app_nil_r.
+  assert (Hp := p_top_body rts t Hr Hwf Hv (2 * length (tk_body rts t) + 4)%nat [] (or_introl eq_refl) ltac:(lia)).
+  cbn [app] in Hp. rewrite Hp. reflexivity.
+Qed.
 (** * The encoder model writes exactly this layout *)
 
 
@@ -1423,105 +2674,345 @@ Proof.
       apply emits_fold_quoted, Hs.
 Qed.
 
-Definition vctx (d : CteEnc.deco) : bool :=
-  match d with CteEnc.DTop | CteEnc.DList | CteEnc.DMapKey | CteEnc.DMapValue => true | _ => false end.
-Definition ctx_pre (d : CteEnc.deco) (i : N) : bytes := match d with CteEnc.DList | CteEnc.DMapKey => nl i | _ => [] end.
-Definition post_v (d : CteEnc.deco) : bytes := match d with CteEnc.DMapKey => [32; 61; 32] | _ => [] end.
-Definition next_v (d : CteEnc.deco) : CteEnc.deco :=
-  match d with CteEnc.DMapKey => CteEnc.DMapValue | CteEnc.DMapValue => CteEnc.DMapKey | _ => d end.
+
+Lemma emits_set_dirty s : emits [] s (CteEnc.set_dirty s).
+Proof. repeat split. Qed.
+Lemma emits_note_read s : emits [] s (CteEnc.note_read s).
+Proof. repeat split. Qed.
+
+Lemma col_newline_indent s : CteEnc.col (CteEnc.newline_indent s) = Z.of_N (CteEnc.ind s).
+Proof.
+  unfold CteEnc.newline_indent, CteEnc.emit_lf, CteEnc.emit_nolf, CteEnc.emit_cd, CteEnc.emit_setcol.
+  cbn [CteEnc.col CteEnc.ind]. unfold CteEnc.zlen, CteEnc.spaces. rewrite repeat_length. lia.
+Qed.
+
+(* ---- contexts: the whole decorator stack ---- *)
+
+Definition st_pre (st : list CteEnc.deco) (i : N) : bytes :=
+  match st with
+  | (CteEnc.DList | CteEnc.DMapKey | CteEnc.DRecordType | CteEnc.DRecord | CteEnc.DEdge | CteEnc.DNodeChildren) :: _ => nl i
+  | _ => []
+  end.
+Definition nl_ctx (st : list CteEnc.deco) : bool :=
+  match st with
+  | (CteEnc.DList | CteEnc.DMapKey | CteEnc.DRecordType | CteEnc.DRecord | CteEnc.DEdge | CteEnc.DNodeChildren) :: _ => true
+  | _ => false
+  end.
+Definition head_ok (st : list CteEnc.deco) : bool :=
+  match st with [] => false | CteEnc.DNSArray :: _ => false | _ => true end.
+Definition sepb (b : bool) : bytes := if b then [32; 61; 32] else [].
+(* the value of a node is not indented: Column is not at the node's origin *)
+Definition origin_ok (s : CteEnc.est) : Prop :=
+  match CteEnc.stack s with CteEnc.DNodeValue :: _ => CteEnc.at_origin s = false | _ => True end.
 
 Definition outcome_of (txt : bytes) (st' : list CteEnc.deco) (s s' : CteEnc.est) : Prop :=
   CteEnc.rout s' = rev txt ++ CteEnc.rout s /\ CteEnc.ind s' = CteEnc.ind s /\ CteEnc.stack s' = st' /\ CteEnc.cho s' = true.
 
-Lemma before_value_spec s d stk : CteEnc.stack s = d :: stk -> vctx d = true ->
-  exists s1, CteEnc.before_value s = Some s1 /\ emits (ctx_pre d (CteEnc.ind s)) s s1.
+Lemma before_value_spec s : head_ok (CteEnc.stack s) = true -> origin_ok s ->
+  exists s1, CteEnc.before_value s = Some s1 /\ emits (st_pre (CteEnc.stack s) (CteEnc.ind s)) s s1 /\
+             (nl_ctx (CteEnc.stack s) = true -> CteEnc.col s1 = Z.of_N (CteEnc.ind s)) /\
+             (nl_ctx (CteEnc.stack s) = false -> CteEnc.col s1 = CteEnc.col s).
 Proof.
-  intros Hs Hd. unfold CteEnc.before_value. rewrite Hs.
-  destruct d; try discriminate Hd; eexists; (split; [reflexivity|]); cbn [ctx_pre];
-    first [apply emits_refl | apply emits_newline_indent].
+  intros Hh Ho. unfold CteEnc.before_value, origin_ok in *. destruct (CteEnc.stack s) as [|d stk] eqn:Hs; [discriminate|].
+  destruct d; try discriminate Hh; cbn [st_pre nl_ctx];
+    try (eexists; split; [reflexivity|]; split; [apply emits_newline_indent|]; split; [intros _; apply col_newline_indent|discriminate]);
+    try (eexists; split; [reflexivity|]; split; [apply emits_refl|]; split; [discriminate|reflexivity]).
+  (* the value of a node *)
+  unfold CteEnc.indent_if_origin. 
+  assert (E : CteEnc.at_origin (CteEnc.note_read s) = false) by exact Ho. rewrite E.
+  eexists; split; [reflexivity|]; split; [apply emits_note_read|]; split; [discriminate|reflexivity].
 Qed.
 
-Lemma after_value_spec s d stk : CteEnc.stack s = d :: stk -> vctx d = true ->
-  exists s', CteEnc.after_value s = Some s' /\ outcome_of (post_v d) (next_v d :: stk) s s'.
+Lemma after_value_spec s st' sep : CteEnc.after_stack (CteEnc.stack s) = Some (st', sep) ->
+  exists s', CteEnc.after_value s = Some s' /\ outcome_of (sepb sep) st' s s'.
 Proof.
-  intros Hs Hd. unfold CteEnc.after_value, outcome_of. rewrite Hs.
-  destruct d; try discriminate Hd; cbn [CteEnc.after_stack post_v next_v]; eexists; (split; [reflexivity|]);
-    unfold CteEnc.set_cho, CteEnc.set_stack, CteEnc.emit_nolf, CteEnc.emit_cd; cbn [CteEnc.rout CteEnc.ind CteEnc.stack CteEnc.cho];
+  intro H. unfold CteEnc.after_value. rewrite H. eexists. split; [reflexivity|].
+  unfold outcome_of, CteEnc.set_cho, CteEnc.set_stack. destruct sep; cbn [sepb CteEnc.rout CteEnc.ind CteEnc.stack CteEnc.cho CteEnc.emit_nolf CteEnc.emit_cd];
     repeat split.
 Qed.
 
-Lemma value_enc (W : CteEnc.est -> CteEnc.est) txt s d stk :
-  (forall s, emits txt s (W s)) -> CteEnc.stack s = d :: stk -> vctx d = true ->
+Lemma value_enc (W : CteEnc.est -> CteEnc.est) txt s st' sep :
+  (forall s, emits txt s (W s)) -> head_ok (CteEnc.stack s) = true -> origin_ok s ->
+  CteEnc.after_stack (CteEnc.stack s) = Some (st', sep) ->
   exists s', CteEnc.bind (CteEnc.before_value s) (fun s1 => CteEnc.after_value (W s1)) = Some s' /\
-             outcome_of (ctx_pre d (CteEnc.ind s) ++ txt ++ post_v d) (next_v d :: stk) s s'.
+             outcome_of (st_pre (CteEnc.stack s) (CteEnc.ind s) ++ txt ++ sepb sep) st' s s'.
 Proof.
-  intros HW Hs Hd.
-  destruct (before_value_spec s d stk Hs Hd) as [s1 [E1 [A1 [A2 [A3 A4]]]]].
+  intros HW Hh Ho Ha.
+  destruct (before_value_spec s Hh Ho) as [s1 [E1 [[A1 [A2 [A3 A4]]] _]]].
   destruct (HW s1) as [B1 [B2 [B3 B4]]].
-  assert (Hs2 : CteEnc.stack (W s1) = d :: stk) by congruence.
-  destruct (after_value_spec (W s1) d stk Hs2 Hd) as [s' [E2 [C1 [C2 [C3 C4]]]]].
+  assert (Hs2 : CteEnc.after_stack (CteEnc.stack (W s1)) = Some (st', sep)) by (rewrite B3, A3; exact Ha).
+  destruct (after_value_spec (W s1) st' sep Hs2) as [s' [E2 [C1 [C2 [C3 C4]]]]].
   exists s'. rewrite E1. cbn [CteEnc.bind]. split; [exact E2|].
   unfold outcome_of. repeat split; try congruence.
   rewrite C1, B1, A1. rewrite !rev_app_distr, !app_assoc. reflexivity.
 Qed.
 
-Lemma scalar_enc txt cd s d stk : CteEnc.stack s = d :: stk -> vctx d = true ->
-  exists s', CteEnc.scalar txt cd s = Some s' /\ outcome_of (ctx_pre d (CteEnc.ind s) ++ txt ++ post_v d) (next_v d :: stk) s s'.
-Proof. intros. unfold CteEnc.scalar. apply (value_enc (CteEnc.emit_cd txt cd)); try assumption. intro. apply emits_emit_cd. Qed.
+(* ---- atoms ---- *)
 
-Definition ctx_post (d : CteEnc.deco) (t : tree) : bytes := if is_value t then post_v d else [].
-Definition ctx_next (d : CteEnc.deco) (t : tree) : CteEnc.deco := if is_value t then next_v d else d.
-Definition ctx_ok (d : CteEnc.deco) (t : tree) : bool :=
-  match d with
-  | CteEnc.DTop | CteEnc.DMapValue => is_value t
-  | CteEnc.DList => negb (is_pair t)
-  | CteEnc.DMapKey => true
-  | _ => false
+From CE Require Proofs.CteEncProofs.
+
+(* what the array engine writes for the elements, in the default (decimal) format *)
+Fixpoint ipieces (sg : bool) (w : iw) (hw : bool) (xs : list N) : list CteEncProofs.piece :=
+  match xs with
+  | [] => []
+  | x :: r => (if hw then [([32], 1%Z)] else []) ++ (ielem sg w x, CteEnc.zlen (ielem sg w x)) :: ipieces sg w true r
   end.
 
-Definition encodes (t : tree) : Prop :=
-  wf t -> forall c s d stk, CteEnc.stack s = d :: stk -> ctx_ok d t = true ->
-  exists s', CteEnc.run c s (events_of t) = Some s' /\
-             outcome_of (ctx_pre d (CteEnc.ind s) ++ pp (CteEnc.ind s) t ++ ctx_post d t) (ctx_next d t :: stk) s s'.
+Fixpoint upieces (hw : bool) (us : list bytes) : list CteEncProofs.piece :=
+  match us with
+  | [] => []
+  | u :: r => (if hw then [([32], 1%Z)] else []) ++ (CteEnc.uid_text u, 4%Z) :: upieces true r
+  end.
 
-Lemma ctx_ok_vctx d t : ctx_ok d t = true -> vctx d = true.
-Proof. destruct d; try discriminate; reflexivity. Qed.
+(* the configuration writes this atom the way [atext] says: integer arrays in the decimal element format *)
+Definition acfg (c : CteEnc.ccfg) (a : atom) : Prop :=
+  match a with AIntArr sg w _ => CteEnc.cfg_fmt c (ikind sg w) = Gen.CteCharTables.cte_fmt_decimal | _ => True end.
+
+Definition awrite (a : atom) (s1 : CteEnc.est) : CteEnc.est :=
+  match a with
+  | ANull => CteEnc.emit_cd CteEnc.t_null 4 s1
+  | ABool _ b => if b then CteEnc.emit_cd CteEnc.t_true 4 s1 else CteEnc.emit_cd CteEnc.t_false 5 s1
+  | APos n => CteEnc.emit_cd (CteEnc.dec n) 0 s1
+  | ANeg n => CteEnc.emit_cd (45 :: CteEnc.dec n) 1 s1
+  | AInt z => if (0 <=? z)%Z then CteEnc.emit_cd (CteEnc.dec (Z.to_N z)) 0 s1
+              else CteEnc.emit_cd (45 :: CteEnc.dec (Z.to_N (- z) mod 2 ^ 64)) 1 s1
+  | AStr k _ rs => match k with
+                   | KStr => CteEnc.write_quoted true (str_bytes rs) s1
+                   | KRid => CteEnc.write_quoted false (str_bytes rs) (CteEnc.emit_nolf [64] s1)
+                   | KRef => CteEnc.write_quoted false (str_bytes rs) (CteEnc.emit_nolf [36] s1)
+                   end
+  | ARef id => CteEnc.emit_cd (36 :: str_bytes id) (CteEnc.zlen (36 :: str_bytes id)) s1
+  | AMedia mt data => CteEnc.emit_nolf [93] (CteEnc.emit_raw (CteEnc.hexbytes data) (CteEnc.emit_nolf (64 :: mt ++ [91]) (CteEnc.set_dirty s1)))
+  | ACustomB ct data => CteEnc.emit_nolf [93] (CteEnc.emit_raw (CteEnc.hexbytes data) (CteEnc.emit_nolf (64 :: CteEnc.dec ct ++ [91]) (CteEnc.set_dirty s1)))
+  | ACustomT ct rs => CteEnc.write_quoted true (str_bytes rs) (CteEnc.emit_nolf (64 :: CteEnc.dec ct) s1)
+  | AIntArr sg w xs => CteEnc.emit_nolf [93] (CteEncProofs.emit_pieces (ipieces sg w false xs)
+                                               (CteEnc.emit_nolf (CteEnc.nk_name (ikind sg w) ++ [91]) s1))
+  | AUidArr us => CteEnc.emit_nolf [93] (CteEncProofs.emit_pieces (upieces false us) (CteEnc.emit_nolf CteEnc.t_uidhdr s1))
+  | AUid u => CteEnc.emit_cd (CteEnc.uid_text u) 4 s1
+  | ABitArr l => CteEnc.emit_nolf [93] (CteEnc.emit_nolf (CteEncProofs.bits_text l) (CteEnc.emit_nolf CteEnc.t_bithdr s1))
+  end.
+
+Lemma atom_step a c s : (match a with AIntArr _ _ _ | AUidArr _ | AUid _ | ABitArr _ => False | _ => True end) ->
+  CteEnc.step c s (aevent a) = CteEnc.bind (CteEnc.before_value s) (fun s1 => CteEnc.after_value (awrite a s1)).
+Proof.
+  intro Hna. destruct a; try contradiction; cbn [aevent awrite CteEnc.step]; try reflexivity.
+  - destruct plain, b; reflexivity.
+  - destruct (0 <=? z)%Z; reflexivity.
+  - destruct whole, k; cbn [sty CteEnc.step]; destruct (CteEnc.before_value s); reflexivity.
+Qed.
+
+(* ---- the array engine on a whole integer array ---- *)
+
+Lemma grp_fill w : forall e cur, e <> [] -> length (cur ++ e) = w -> CteEncProofs.grp w cur e = ([cur ++ e], []).
+Proof.
+  induction e as [|b e IH]; intros cur Hne Hl; [congruence|]. cbn [CteEncProofs.grp]. destruct e as [|b2 e'].
+  - rewrite Hl, Nat.eqb_refl. reflexivity.
+  - assert (length (cur ++ [b]) <> w) by (rewrite !app_length in *; cbn [length] in *; lia).
+    apply Nat.eqb_neq in H. rewrite H. rewrite (IH (cur ++ [b])); [rewrite <- app_assoc; reflexivity|discriminate|rewrite <- app_assoc; exact Hl].
+Qed.
+
+Lemma grp_encoded wb xs : (0 < wb)%nat -> CteEncProofs.grp wb [] (concat (map (le_encode wb) xs)) = (map (le_encode wb) xs, []).
+Proof.
+  intro Hw. induction xs as [|x r IH]; [reflexivity|]. cbn [map concat]. rewrite CteEncProofs.grp_app.
+  rewrite (grp_fill wb (le_encode wb x) []); [|intro E; apply (f_equal (@length N)) in E; rewrite le_encode_length in E; cbn in E; lia|cbn [app]; apply le_encode_length].
+  rewrite IH. reflexivity.
+Qed.
+
+Lemma ity_facts sg w :
+  (ity sg w =? AT_String) = false /\ (ity sg w =? AT_ResourceID) = false /\ (ity sg w =? AT_ReferenceRemote) = false /\
+  CteEnc.nkind_of (ity sg w) = Some (ikind sg w) /\ CteEnc.nk_width (ikind sg w) = wbytes w.
+Proof. destruct sg, w; repeat split; reflexivity. Qed.
+
+Lemma num_elem_dec c sg w x : CteEnc.cfg_fmt c (ikind sg w) = Gen.CteCharTables.cte_fmt_decimal -> x < 2 ^ wbits w ->
+  CteEnc.num_elem c (ikind sg w) (le_encode (wbytes w) x) = Some (ielem sg w x, CteEnc.zlen (ielem sg w x)).
+Proof.
+  intros Hc Hx.
+  assert (Hd : le_decode (le_encode (wbytes w) x) = x).
+  { rewrite le_decode_encode. apply N.mod_small. destruct w; cbn in *; lia. }
+  unfold CteEnc.num_elem. rewrite Hd, Hc. unfold ielem.
+  destruct sg, w; cbn [ikind wbits] in *; unfold CteEnc.int_verb; rewrite ?Hc, N.eqb_refl; reflexivity.
+Qed.
+
+Lemma elems_pieces_dec c sg w : CteEnc.cfg_fmt c (ikind sg w) = Gen.CteCharTables.cte_fmt_decimal ->
+  forall xs hw, Forall (fun x => x < 2 ^ wbits w) xs ->
+  CteEncProofs.elems_pieces c (ikind sg w) hw (map (le_encode (wbytes w)) xs) = Some (ipieces sg w hw xs).
+Proof.
+  intros Hc xs. induction xs as [|x r IH]; intros hw Hxs; [reflexivity|]. inversion Hxs; subst.
+  cbn [map CteEncProofs.elems_pieces ipieces]. rewrite num_elem_dec by assumption. rewrite IH by assumption. reflexivity.
+Qed.
+
+Lemma emits_pieces ps : forall s, emits (concat (map fst ps)) s (CteEncProofs.emit_pieces ps s).
+Proof.
+  unfold CteEncProofs.emit_pieces. induction ps as [|p ps IH]; intro s; [apply emits_refl|].
+  cbn [fold_left map concat]. eapply emits_trans; [apply emits_emit_cd|apply IH].
+Qed.
+
+Lemma ipieces_text sg w xs : concat (map fst (ipieces sg w false xs)) = join32 (map (ielem sg w) xs).
+Proof.
+  assert (G : forall r, concat (map fst (ipieces sg w true r)) = flat_map (fun x => 32 :: ielem sg w x) r).
+  { induction r as [|x r IH]; [reflexivity|]. cbn [ipieces app map concat flat_map fst]. rewrite IH. reflexivity. }
+  assert (J : forall a r, join32 (a :: map (ielem sg w) r) = a ++ flat_map (fun x => 32 :: ielem sg w x) r).
+  { intros a r. revert a. induction r as [|x r IH]; intro a; [cbn; rewrite app_nil_r; reflexivity|].
+    cbn [map flat_map]. change (join32 (a :: ielem sg w x :: map (ielem sg w) r)) with (a ++ 32 :: join32 (ielem sg w x :: map (ielem sg w) r)).
+    rewrite IH. reflexivity. }
+  destruct xs as [|x r]; [reflexivity|]. cbn [ipieces app map concat fst]. rewrite G, J. reflexivity.
+Qed.
+
+Lemma canon_intarr c sg w xs s : CteEnc.cfg_fmt c (ikind sg w) = Gen.CteCharTables.cte_fmt_decimal ->
+  Forall (fun x => x < 2 ^ wbits w) xs ->
+  CteEncProofs.canon c (CteEnc.HArr (ity sg w)) (CteEnc.ABytes (idata w xs)) s =
+  CteEnc.bind (CteEnc.before_value s) (fun s1 => CteEnc.after_value (awrite (AIntArr sg w xs) s1)).
+Proof.
+  intros Hc Hxs. unfold CteEncProofs.canon. destruct (ity_facts sg w) as [E1 [E2 [E3 [E4 E5]]]].
+  assert (Hb : forall s1, CteEncProofs.canon_body c (CteEnc.HArr (ity sg w)) (CteEnc.ABytes (idata w xs)) s1 = Some (awrite (AIntArr sg w xs) s1)).
+  { intro s1. cbn [CteEncProofs.canon_body]. rewrite E1, E2, E3, E4, E5.
+    assert (Hh : CteEnc.num_header c (ikind sg w) = Some (CteEnc.nk_name (ikind sg w) ++ [91])).
+    { unfold CteEnc.num_header. destruct sg, w; cbn [ikind] in *; rewrite Hc; reflexivity. }
+    rewrite Hh. unfold idata. rewrite (grp_encoded (wbytes w) xs) by (destruct w; cbn; lia). cbn [fst].
+    rewrite (elems_pieces_dec c sg w Hc xs false Hxs). reflexivity. }
+  destruct (CteEnc.before_value s) as [s1|]; [|reflexivity]. cbn [CteEnc.bind]. rewrite Hb. reflexivity.
+Qed.
+
+Lemma grp_uids us : Forall (fun u => length u = 16%nat /\ data_bytes u) us -> CteEncProofs.grp 16 [] (concat us) = (us, []).
+Proof.
+  induction 1 as [|u r [Hl _] Hr IH]; [reflexivity|]. cbn [concat]. rewrite CteEncProofs.grp_app.
+  rewrite (grp_fill 16%nat u []); [|intro E; subst u; discriminate Hl|exact Hl]. rewrite IH. reflexivity.
+Qed.
+
+Lemma elems_pieces_uid c us : forall hw, CteEncProofs.elems_pieces c CteEnc.NUID hw us = Some (upieces hw us).
+Proof.
+  induction us as [|u r IH]; intro hw; [reflexivity|]. cbn [CteEncProofs.elems_pieces upieces].
+  change (CteEnc.num_elem c CteEnc.NUID u) with (Some (CteEnc.uid_text u, 4%Z)). rewrite IH. reflexivity.
+Qed.
+
+Lemma upieces_text us : concat (map fst (upieces false us)) = join32 (map CteEnc.uid_text us).
+Proof.
+  assert (G : forall r, concat (map fst (upieces true r)) = flat_map (fun x => 32 :: CteEnc.uid_text x) r).
+  { induction r as [|x r IH]; [reflexivity|]. cbn [upieces app map concat flat_map fst]. rewrite IH. reflexivity. }
+  assert (J : forall a r, join32 (a :: map CteEnc.uid_text r) = a ++ flat_map (fun x => 32 :: CteEnc.uid_text x) r).
+  { intros a r. revert a. induction r as [|x r IH]; intro a; [cbn; rewrite app_nil_r; reflexivity|].
+    cbn [map flat_map]. change (join32 (a :: CteEnc.uid_text x :: map CteEnc.uid_text r)) with (a ++ 32 :: join32 (CteEnc.uid_text x :: map CteEnc.uid_text r)).
+    rewrite IH. reflexivity. }
+  destruct us as [|x r]; [reflexivity|]. cbn [upieces app map concat fst]. rewrite G, J. reflexivity.
+Qed.
+
+Lemma canon_uidarr c us s : Forall (fun u => length u = 16%nat /\ data_bytes u) us ->
+  CteEncProofs.canon c (CteEnc.HArr AT_UID) (CteEnc.ABytes (concat us)) s =
+  CteEnc.bind (CteEnc.before_value s) (fun s1 => CteEnc.after_value (awrite (AUidArr us) s1)).
+Proof.
+  intros Hus. unfold CteEncProofs.canon.
+  assert (Hb : forall s1, CteEncProofs.canon_body c (CteEnc.HArr AT_UID) (CteEnc.ABytes (concat us)) s1 = Some (awrite (AUidArr us) s1)).
+  { intro s1. cbn [CteEncProofs.canon_body].
+    change (AT_UID =? AT_String) with false. change (AT_UID =? AT_ResourceID) with false. change (AT_UID =? AT_ReferenceRemote) with false.
+    cbv iota. change (CteEnc.nkind_of AT_UID) with (Some CteEnc.NUID). cbv iota.
+    change (CteEnc.nk_width CteEnc.NUID) with 16%nat. change (CteEnc.num_header c CteEnc.NUID) with (Some CteEnc.t_uidhdr).
+    rewrite (grp_uids us Hus). cbn [fst]. rewrite elems_pieces_uid. reflexivity. }
+  destruct (CteEnc.before_value s) as [s1|]; [|reflexivity]. cbn [CteEnc.bind]. rewrite Hb. reflexivity.
+Qed.
 
 Lemma run_one c s e : CteEnc.run c s [e] = CteEnc.step c s e.
 Proof. cbn [CteEnc.run]. destruct (CteEnc.step c s e); reflexivity. Qed.
 
-Lemma encodes_scalars :
-  encodes VNull /\ (forall pl b, encodes (VBool pl b)) /\ (forall n, encodes (VPos n)) /\ (forall n, encodes (VNeg n)) /\
-  (forall z, encodes (VInt z)) /\ (forall k w rs, encodes (VStr k w rs)).
+Lemma atom_run a c s : awf a -> acfg c a ->
+  CteEncProofs.oeq (CteEnc.run c s [aevent a]) (CteEnc.bind (CteEnc.before_value s) (fun s1 => CteEnc.after_value (awrite a s1))).
 Proof.
-  repeat split; intros; intros Hwf c s d stk Hs Hok; assert (Hd := ctx_ok_vctx _ _ Hok);
-    cbn [events_of]; rewrite run_one; unfold ctx_post, ctx_next; cbn [is_value]; unfold pp; cbn [gp CteEnc.step].
-  - apply scalar_enc; assumption.
-  - destruct pl, b; cbn [CteEnc.step]; apply scalar_enc; assumption.
-  - apply scalar_enc; assumption.
-  - apply (scalar_enc (45 :: CteEnc.dec n)); assumption.
-  - unfold z_text. destruct (0 <=? z)%Z; apply scalar_enc; assumption.
-  - cbn [wf] in Hwf.
-    assert (G : exists s', CteEnc.bind (CteEnc.before_value s)
-                             (fun s1 => CteEnc.after_value
-                                (match k with
-                                 | KStr => CteEnc.write_quoted true (str_bytes rs) s1
-                                 | KRid => CteEnc.write_quoted false (str_bytes rs) (CteEnc.emit_nolf [64] s1)
-                                 | KRef => CteEnc.write_quoted false (str_bytes rs) (CteEnc.emit_nolf [36] s1)
-                                 end)) = Some s' /\
-                           outcome_of (ctx_pre d (CteEnc.ind s) ++ (spre k ++ 34 :: qbytes rs ++ [34]) ++ post_v d) (next_v d :: stk) s s').
-    { apply (value_enc (fun s1 => match k with
-                                  | KStr => CteEnc.write_quoted true (str_bytes rs) s1
-                                  | KRid => CteEnc.write_quoted false (str_bytes rs) (CteEnc.emit_nolf [64] s1)
-                                  | KRef => CteEnc.write_quoted false (str_bytes rs) (CteEnc.emit_nolf [36] s1)
-                                  end)); try assumption.
-      intro s0. destruct k; cbn [spre app].
-      - apply emits_write_quoted, Hwf.
-      - apply (emits_trans [64] _ s0 (CteEnc.emit_nolf [64] s0)); [apply emits_emit_nolf|apply emits_write_quoted, Hwf].
-      - apply (emits_trans [36] _ s0 (CteEnc.emit_nolf [36] s0)); [apply emits_emit_nolf|apply emits_write_quoted, Hwf]. }
-    destruct G as [s' [E O]]. exists s'. split; [|exact O].
-    rewrite <- E. destruct w, k; cbn [sty CteEnc.step]; destruct (CteEnc.before_value s); reflexivity.
+  intros Hwf Hc. destruct a; try (rewrite run_one, atom_step by exact I; apply CteEncProofs.oeq_refl).
+  - cbn [awf acfg aevent] in *. destruct Hwf as [Hxs Hn].
+  rewrite <- (canon_intarr c sg w xs s Hc Hxs). apply CteEncProofs.delivery_canon.
+  destruct (ity_facts sg w) as [_ [_ [_ [E4 E5]]]].
+  apply (CteEnc.dl_array_num (ity sg w) (ikind sg w)); [exact E4|exact Hn|].
+  rewrite idata_length, E5, Nat2N.id. lia.
+  - cbn [awf acfg aevent] in *. destruct Hwf as [Hus Hn].
+    rewrite <- (canon_uidarr c us s Hus). apply CteEncProofs.delivery_canon.
+    apply (CteEnc.dl_array_num AT_UID CteEnc.NUID); [reflexivity|exact Hn|].
+    rewrite (concat_uids_length us Hus), Nat2N.id. change (CteEnc.nk_width CteEnc.NUID) with 16%nat. apply Nat.mul_comm.
+  - cbn [awf aevent awrite] in *. rewrite run_one. cbn [CteEnc.step]. rewrite (proj1 Hwf). change (16 =? 16)%nat with true. cbv iota.
+    apply CteEncProofs.oeq_refl.
+  - cbn [awf acfg aevent] in *.
+    assert (Hc2 : CteEncProofs.canon c (CteEnc.HArr AT_Bit) (CteEnc.ABits bits) s =
+                  CteEnc.bind (CteEnc.before_value s) (fun s1 => CteEnc.after_value (awrite (ABitArr bits) s1))).
+    { unfold CteEncProofs.canon. destruct (CteEnc.before_value s) as [s1|]; reflexivity. }
+    rewrite <- Hc2. apply CteEncProofs.delivery_canon.
+    destruct (pack_bits_rt (length bits) bits (Nat.le_refl _)) as [R1 R2].
+    assert (D := CteEnc.dl_array_bit (N.of_nat (length bits)) (pack_bits (length bits) bits) Hwf).
+    rewrite Nat2N.id, R1 in D. apply D. rewrite R2. clear. lia.
 Qed.
+
+Lemma atom_emits a : awf a -> forall s, emits (abytes a) s (awrite a s).
+Proof.
+  intros Hwf s. unfold abytes. destruct a; cbn [atext awrite awf] in *.
+  - apply emits_emit_cd.
+  - destruct b; apply emits_emit_cd.
+  - apply emits_emit_cd.
+  - apply (emits_emit_cd (45 :: CteEnc.dec n)).
+  - unfold z_text. destruct (0 <=? z)%Z; apply emits_emit_cd.
+  - destruct k; cbn [spre app].
+    + apply emits_write_quoted, Hwf.
+    + apply (emits_trans [64] _ s (CteEnc.emit_nolf [64] s)); [apply emits_emit_nolf|apply emits_write_quoted, Hwf].
+    + apply (emits_trans [36] _ s (CteEnc.emit_nolf [36] s)); [apply emits_emit_nolf|apply emits_write_quoted, Hwf].
+  - apply emits_emit_cd.
+  - change (64 :: mt ++ 91 :: CteEnc.hexbytes data ++ [93]) with ([] ++ (64 :: mt ++ 91 :: CteEnc.hexbytes data ++ [93])).
+    eapply emits_trans; [apply emits_set_dirty|].
+    replace (64 :: mt ++ 91 :: CteEnc.hexbytes data ++ [93]) with ((64 :: mt ++ [91]) ++ CteEnc.hexbytes data ++ [93])
+      by (cbn [app]; rewrite <- app_assoc; reflexivity).
+    eapply emits_trans; [apply emits_emit_nolf|]. eapply emits_trans; [apply emits_emit_raw|apply emits_emit_nolf].
+  - change (64 :: CteEnc.dec ct ++ 91 :: CteEnc.hexbytes data ++ [93]) with ([] ++ (64 :: CteEnc.dec ct ++ 91 :: CteEnc.hexbytes data ++ [93])).
+    eapply emits_trans; [apply emits_set_dirty|].
+    replace (64 :: CteEnc.dec ct ++ 91 :: CteEnc.hexbytes data ++ [93]) with ((64 :: CteEnc.dec ct ++ [91]) ++ CteEnc.hexbytes data ++ [93])
+      by (cbn [app]; rewrite <- app_assoc; reflexivity).
+    eapply emits_trans; [apply emits_emit_nolf|]. eapply emits_trans; [apply emits_emit_raw|apply emits_emit_nolf].
+  - destruct Hwf as [_ Hs].
+    replace (64 :: CteEnc.dec ct ++ 34 :: qbytes rs ++ [34]) with ((64 :: CteEnc.dec ct) ++ 34 :: qbytes rs ++ [34])
+      by (cbn [app]; reflexivity).
+    eapply emits_trans; [apply emits_emit_nolf|apply emits_write_quoted, Hs].
+  - replace (CteEnc.nk_name (ikind sg w) ++ 91 :: join32 (map (ielem sg w) xs) ++ [93])
+      with ((CteEnc.nk_name (ikind sg w) ++ [91]) ++ concat (map fst (ipieces sg w false xs)) ++ [93])
+      by (rewrite ipieces_text, <- app_assoc; reflexivity).
+    eapply emits_trans; [apply emits_emit_nolf|]. eapply emits_trans; [apply emits_pieces|apply emits_emit_nolf].
+  - rewrite <- upieces_text.
+    eapply emits_trans; [apply emits_emit_nolf|]. eapply emits_trans; [apply emits_pieces|apply emits_emit_nolf].
+  - apply emits_emit_cd.
+  - eapply emits_trans; [apply emits_emit_nolf|]. eapply emits_trans; apply emits_emit_nolf.
+Qed.
+
+(* ---- trees ---- *)
+
+Definition ctx_ok (st : list CteEnc.deco) (t : tree) : bool :=
+  match st with
+  | CteEnc.DTop :: _ => is_value t
+  | (CteEnc.DMapValue | CteEnc.DConcat | CteEnc.DNodeValue) :: _ => is_value t && negb (is_node t)
+  | CteEnc.DMapKey :: _ => true
+  | (CteEnc.DList | CteEnc.DRecordType | CteEnc.DRecord | CteEnc.DEdge | CteEnc.DNodeChildren) :: _ => negb (is_pair t)
+  | _ => false
+  end.
+(* a top-level node starts at the beginning of a line *)
+Definition top_ok (s : CteEnc.est) (t : tree) : Prop :=
+  is_node t = true -> match CteEnc.stack s with CteEnc.DTop :: _ => CteEnc.col s = Z.of_N (CteEnc.ind s) | _ => True end.
+
+Fixpoint atoms_of (t : tree) : list atom :=
+  match t with
+  | VAtom a => [a] | VCom _ _ => [] | VPair k v => atoms_of k ++ atoms_of v | VMark _ v => atoms_of v
+  | VSeq _ l | VMap l => flat_map atoms_of l
+  | VNode v l => atoms_of v ++ flat_map atoms_of l
+  end.
+(* the configuration writes the integer arrays of the tree in the decimal element format (the default) *)
+Definition cfgok (c : CteEnc.ccfg) (t : tree) : Prop := Forall (acfg c) (atoms_of t).
+
+Lemma cfgok_items c l : Forall (acfg c) (flat_map atoms_of l) -> Forall (cfgok c) l.
+Proof.
+  induction l as [|x r IH]; intro H; [constructor|]. cbn [flat_map] in H. apply Forall_app in H as [H1 H2].
+  constructor; [exact H1|apply IH, H2].
+Qed.
+
+Definition encodes (t : tree) : Prop :=
+  wf t -> forall c s st' sep, cfgok c t -> ctx_ok (CteEnc.stack s) t = true ->
+  CteEnc.after_stack (CteEnc.stack s) = Some (st', sep) -> origin_ok s -> top_ok s t ->
+  exists s', CteEnc.run c s (events_of t) = Some s' /\
+             outcome_of (st_pre (CteEnc.stack s) (CteEnc.ind s) ++ pp (CteEnc.ind s) t ++ (if is_value t then sepb sep else []))
+                        (if is_value t then st' else CteEnc.stack s) s s'.
+
+Lemma ctx_ok_head st t : ctx_ok st t = true -> head_ok st = true.
+Proof. destruct st as [|d st]; [discriminate|]. destruct d; try discriminate; reflexivity. Qed.
 
 Lemma run_app c s a b : CteEnc.run c s (a ++ b) = CteEnc.bind (CteEnc.run c s a) (fun m => CteEnc.run c m b).
 Proof.
@@ -1529,208 +3020,284 @@ Proof.
   destruct (CteEnc.step c s e); cbn [CteEnc.bind]; [apply IH|reflexivity].
 Qed.
 
-Lemma encodes_comment m rs : encodes (VCom m rs).
+Lemma encodes_atom a : encodes (VAtom a).
 Proof.
-  intros Hwf c s d stk Hs Hok. cbn [events_of]. rewrite run_one. unfold ctx_post, ctx_next. cbn [is_value].
-  unfold pp. cbn [gp CteEnc.step]. unfold CteEnc.before_comment, CteEnc.after_comment. rewrite Hs.
-  destruct d; try discriminate Hok; cbn [CteEnc.bind ctx_pre].
-  - (* in a list *)
-    assert (E1 := emits_newline_indent s). destruct E1 as [A1 [A2 [A3 A4]]].
-    destruct m.
-    + set (s1 := CteEnc.newline_indent s) in *.
-      set (s2 := CteEnc.emit_nolf [47; 42] s1). set (s3 := CteEnc.emit_plf (str_bytes rs) s2). set (s4 := CteEnc.emit_nolf [42; 47] s3).
-      assert (H4 : emits (([47; 42] ++ str_bytes rs) ++ [42; 47]) s1 s4).
-      { eapply emits_trans; [eapply emits_trans; [apply emits_emit_nolf|apply emits_emit_plf]|apply emits_emit_nolf]. }
-      destruct H4 as [B1 [B2 [B3 B4]]].
-      assert (Hst : CteEnc.stack s4 = CteEnc.DList :: stk) by congruence. rewrite Hst.
-      eexists. split; [reflexivity|]. unfold outcome_of, CteEnc.set_cho. cbn [CteEnc.rout CteEnc.ind CteEnc.stack CteEnc.cho].
-      repeat split; try congruence. rewrite B1, A1. rewrite app_assoc, <- rev_app_distr. f_equal. f_equal.
-      rewrite ?app_nil_r. cbn [app]. rewrite <- ?app_assoc. cbn [app]. reflexivity.
-    + set (s1 := CteEnc.newline_indent s) in *.
-      set (s2 := CteEnc.emit_nolf [47; 47] s1). set (s3 := CteEnc.emit_nolf (str_bytes rs) s2).
-      assert (H4 : emits ([47; 47] ++ str_bytes rs) s1 s3).
-      { eapply emits_trans; apply emits_emit_nolf. }
-      destruct H4 as [B1 [B2 [B3 B4]]].
-      assert (Hst : CteEnc.stack s3 = CteEnc.DList :: stk) by congruence. rewrite Hst.
-      eexists. split; [reflexivity|]. unfold outcome_of, CteEnc.set_cho. cbn [CteEnc.rout CteEnc.ind CteEnc.stack CteEnc.cho].
-      repeat split; try congruence. rewrite B1, A1. rewrite app_assoc, <- rev_app_distr. f_equal. f_equal.
-      rewrite ?app_nil_r. cbn [app]. rewrite <- ?app_assoc. cbn [app]. reflexivity.
-  - (* before a key *)
-    assert (E1 := emits_newline_indent s). destruct E1 as [A1 [A2 [A3 A4]]].
-    destruct m.
-    + set (s1 := CteEnc.newline_indent s) in *.
-      set (s2 := CteEnc.emit_nolf [47; 42] s1). set (s3 := CteEnc.emit_plf (str_bytes rs) s2). set (s4 := CteEnc.emit_nolf [42; 47] s3).
-      assert (H4 : emits (([47; 42] ++ str_bytes rs) ++ [42; 47]) s1 s4).
-      { eapply emits_trans; [eapply emits_trans; [apply emits_emit_nolf|apply emits_emit_plf]|apply emits_emit_nolf]. }
-      destruct H4 as [B1 [B2 [B3 B4]]].
-      assert (Hst : CteEnc.stack s4 = CteEnc.DMapKey :: stk) by congruence. rewrite Hst.
-      eexists. split; [reflexivity|]. unfold outcome_of, CteEnc.set_cho. cbn [CteEnc.rout CteEnc.ind CteEnc.stack CteEnc.cho].
-      repeat split; try congruence. rewrite B1, A1. rewrite app_assoc, <- rev_app_distr. f_equal. f_equal.
-      rewrite ?app_nil_r. cbn [app]. rewrite <- ?app_assoc. cbn [app]. reflexivity.
-    + set (s1 := CteEnc.newline_indent s) in *.
-      set (s2 := CteEnc.emit_nolf [47; 47] s1). set (s3 := CteEnc.emit_nolf (str_bytes rs) s2).
-      assert (H4 : emits ([47; 47] ++ str_bytes rs) s1 s3).
-      { eapply emits_trans; apply emits_emit_nolf. }
-      destruct H4 as [B1 [B2 [B3 B4]]].
-      assert (Hst : CteEnc.stack s3 = CteEnc.DMapKey :: stk) by congruence. rewrite Hst.
-      eexists. split; [reflexivity|]. unfold outcome_of, CteEnc.set_cho. cbn [CteEnc.rout CteEnc.ind CteEnc.stack CteEnc.cho].
-      repeat split; try congruence. rewrite B1, A1. rewrite app_assoc, <- rev_app_distr. f_equal. f_equal.
-      rewrite ?app_nil_r. cbn [app]. rewrite <- ?app_assoc. cbn [app]. reflexivity.
+  intros Hwf c s st' sep Hcfg Hok Ha Ho _. cbn [events_of is_value].
+  unfold pp. cbn [gp].
+  destruct (value_enc (awrite a) (abytes a) s st' sep (fun s0 => atom_emits a Hwf s0) (ctx_ok_head _ _ Hok) Ho Ha) as [s2 [E2 [B1 [B2 [B3 B4]]]]].
+  assert (Hc : acfg c a) by (unfold cfgok in Hcfg; cbn [atoms_of] in Hcfg; inversion Hcfg; assumption).
+  assert (Hr := atom_run a c s Hwf Hc). rewrite E2 in Hr.
+  destruct (CteEnc.run c s [aevent a]) as [s1|]; [|contradiction]. cbn [CteEncProofs.oeq] in Hr.
+  destruct (CteEncProofs.R_fields _ _ Hr) as [R1 [R2 [R3 [R4 _]]]].
+  exists s1. split; [reflexivity|]. unfold outcome_of, abytes in *. repeat split; congruence.
 Qed.
 
-Lemma enc_items c d0 stk0 l :
-  Forall (fun x => wf x /\ encodes x /\ ctx_ok d0 x = true /\ ctx_post d0 x = [] /\ ctx_next d0 x = d0) l ->
-  ctx_pre d0 0 = nl 0 ->
-  forall s, CteEnc.stack s = d0 :: stk0 ->
+Lemma encodes_comment m rs : encodes (VCom m rs).
+Proof.
+  intros Hwf c s st' sep _ Hok _ _ _. cbn [events_of is_value]. rewrite run_one.
+  unfold pp. cbn [gp CteEnc.step]. unfold CteEnc.before_comment, CteEnc.after_comment.
+  assert (E1 := emits_newline_indent s). destruct E1 as [A1 [A2 [A3 A4]]].
+  set (s1 := CteEnc.newline_indent s) in *.
+  set (body := if m then CteEnc.emit_nolf [42; 47] (CteEnc.emit_plf (str_bytes rs) (CteEnc.emit_nolf [47; 42] s1))
+               else CteEnc.emit_nolf (str_bytes rs) (CteEnc.emit_nolf [47; 47] s1)).
+  assert (H4 : emits (if m then ([47; 42] ++ str_bytes rs) ++ [42; 47] else [47; 47] ++ str_bytes rs) s1 body).
+  { unfold body. destruct m.
+    - eapply emits_trans; [eapply emits_trans; [apply emits_emit_nolf|apply emits_emit_plf]|apply emits_emit_nolf].
+    - eapply emits_trans; apply emits_emit_nolf. }
+  destruct H4 as [B1 [B2 [B3 B4]]].
+  destruct (CteEnc.stack s) as [|d stk] eqn:Hs; [discriminate|].
+  assert (Hst : CteEnc.stack body = d :: stk) by congruence.
+  destruct d; try discriminate Hok; cbn [CteEnc.bind st_pre];
+    (destruct m; cbv iota; fold s1; cbn beta zeta;
+     [change (CteEnc.emit_nolf [42; 47] (CteEnc.emit_plf (str_bytes rs) (CteEnc.emit_nolf [47; 42] s1))) with body
+     |change (CteEnc.emit_nolf (str_bytes rs) (CteEnc.emit_nolf [47; 47] s1)) with body];
+     rewrite Hst; eexists; (split; [reflexivity|]); unfold outcome_of, CteEnc.set_cho; cbn [CteEnc.rout CteEnc.ind CteEnc.stack CteEnc.cho];
+     (repeat split; try congruence); rewrite B1, A1; rewrite app_assoc, <- rev_app_distr; f_equal; f_equal;
+     rewrite ?app_nil_r; cbn [app]; rewrite <- ?app_assoc; cbn [app]; reflexivity).
+Qed.
+
+Lemma nl_ctx_facts s : nl_ctx (CteEnc.stack s) = true ->
+  origin_ok s /\ (forall t, top_ok s t) /\ forall i, st_pre (CteEnc.stack s) i = nl i.
+Proof.
+  unfold origin_ok, top_ok. destruct (CteEnc.stack s) as [|d stk]; [discriminate|].
+  destruct d; try discriminate; intros _; repeat split; trivial.
+Qed.
+
+Lemma enc_items c st0 st1 sep1 l :
+  nl_ctx st0 = true -> CteEnc.after_stack st0 = Some (st1, sep1) ->
+  Forall (fun x => wf x /\ encodes x /\ cfgok c x /\ ctx_ok st0 x = true /\ (is_value x = true -> st1 = st0 /\ sep1 = false)) l ->
+  forall s, CteEnc.stack s = st0 ->
   exists s', CteEnc.run c s (flat_map events_of l) = Some s' /\
              CteEnc.rout s' = rev (flat_map (fun x => nl (CteEnc.ind s) ++ pp (CteEnc.ind s) x) l) ++ CteEnc.rout s /\
-             CteEnc.ind s' = CteEnc.ind s /\ CteEnc.stack s' = d0 :: stk0 /\
+             CteEnc.ind s' = CteEnc.ind s /\ CteEnc.stack s' = st0 /\
              CteEnc.cho s' = match l with [] => CteEnc.cho s | _ => true end.
 Proof.
-  intros Hl Hpre. induction Hl as [|x l' [Hwf [Hx [Hok [Hpost Hnext]]]] Hl' IH]; intros s Hs.
+  intros Hnl Haft Hl. induction Hl as [|x l' [Hwf [Hx [Hcf [Hok Hval]]]] Hl' IH]; intros s Hs.
   - exists s. cbn [flat_map CteEnc.run rev app]. repeat split. exact Hs.
   - cbn [flat_map]. rewrite run_app.
-    destruct (Hx Hwf c s d0 stk0 Hs Hok) as [s1 [E1 [A1 [A2 [A3 A4]]]]].
-    rewrite E1. cbn [CteEnc.bind]. rewrite Hnext in A3.
-    destruct (IH s1 A3) as [s2 [E2 [B1 [B2 [B3 B4]]]]].
+    assert (Hnl' : nl_ctx (CteEnc.stack s) = true) by (rewrite Hs; exact Hnl).
+    destruct (nl_ctx_facts s Hnl') as [Ho [Ht Hp]].
+    assert (Hok' : ctx_ok (CteEnc.stack s) x = true) by (rewrite Hs; exact Hok).
+    assert (Haft' : CteEnc.after_stack (CteEnc.stack s) = Some (st1, sep1)) by (rewrite Hs; exact Haft).
+    destruct (Hx Hwf c s st1 sep1 Hcf Hok' Haft' Ho (Ht x)) as [s1 [E1 [A1 [A2 [A3 A4]]]]].
+    rewrite E1. cbn [CteEnc.bind].
+    assert (S1 : CteEnc.stack s1 = st0).
+    { rewrite A3. destruct (is_value x) eqn:V; [apply Hval; reflexivity|exact Hs]. }
+    assert (T1 : (if is_value x then sepb sep1 else []) = []).
+    { destruct (is_value x) eqn:V; [|reflexivity]. destruct (Hval eq_refl) as [_ E]. subst sep1. reflexivity. }
+    destruct (IH s1 S1) as [s2 [E2 [B1 [B2 [B3 B4]]]]].
     exists s2. split; [exact E2|]. repeat split; try congruence.
-    + rewrite B1, A1, A2, Hpost, app_nil_r.
-      assert (Ep : ctx_pre d0 (CteEnc.ind s) = nl (CteEnc.ind s)) by (destruct d0; try discriminate Hpre; reflexivity).
-      rewrite Ep. rewrite !rev_app_distr, <- !app_assoc. reflexivity.
+    + rewrite B1, A1, A2, Hp. destruct (is_value x) eqn:V.
+      * destruct (Hval eq_refl) as [_ E]. subst sep1. cbn [sepb]. rewrite app_nil_r, !rev_app_distr, <- !app_assoc. reflexivity.
+      * rewrite app_nil_r, !rev_app_distr, <- !app_assoc. reflexivity.
     + rewrite B4. destruct l'; [exact A4|reflexivity].
 Qed.
 
 Lemma encodes_pair k v : encodes k -> encodes v -> encodes (VPair k v).
 Proof.
-  intros Hk Hv Hwf c s d stk Hs Hok. cbn [wf] in Hwf. destruct Hwf as [Wk [Wv [Vk Vv]]].
-  destruct d; try discriminate Hok. cbn [events_of]. rewrite run_app.
-  destruct (Hk Wk c s CteEnc.DMapKey stk Hs eq_refl) as [s1 [E1 [A1 [A2 [A3 A4]]]]].
-  rewrite E1. cbn [CteEnc.bind]. unfold ctx_post, ctx_next in A1, A3. rewrite Vk in A1, A3. cbn [post_v next_v] in A1, A3.
-  assert (Hok2 : ctx_ok CteEnc.DMapValue v = true) by exact Vv.
-  destruct (Hv Wv c s1 CteEnc.DMapValue stk A3 Hok2) as [s2 [E2 [B1 [B2 [B3 B4]]]]].
-  exists s2. split; [exact E2|]. unfold ctx_post, ctx_next in B1, B3 |- *. rewrite Vv in B1, B3. cbn [is_value post_v next_v ctx_pre] in *.
-  unfold outcome_of. repeat split; try congruence.
-  rewrite B1, A1, A2. rewrite app_assoc, <- rev_app_distr. f_equal. f_equal.
-  unfold pp. cbn [gp]. rewrite ?app_nil_r. cbn [app]. rewrite <- ?app_assoc. cbn [app]. reflexivity.
+  intros Hk Hv Hwf c s st' sep Hcfg Hok _ _ _. cbn [wf] in Hwf. destruct Hwf as [Wk [Wv [Vk [Vv Nv]]]].
+  unfold cfgok in Hcfg. cbn [atoms_of] in Hcfg. apply Forall_app in Hcfg as [Ck Cv].
+  destruct (CteEnc.stack s) as [|d stk] eqn:Hs; [discriminate|].
+  destruct d; try discriminate Hok. cbn [events_of is_value]. rewrite run_app.
+  assert (Hnl : nl_ctx (CteEnc.stack s) = true) by (rewrite Hs; reflexivity).
+  destruct (nl_ctx_facts s Hnl) as [Ho [Ht Hp]].
+  assert (H1 : exists s1, CteEnc.run c s (events_of k) = Some s1 /\
+               outcome_of (nl (CteEnc.ind s) ++ pp (CteEnc.ind s) k ++ [32; 61; 32]) (CteEnc.DMapValue :: stk) s s1).
+  { assert (G := Hk Wk c s (CteEnc.DMapValue :: stk) true Ck). rewrite Hs in G. rewrite Vk in G.
+    apply G; [reflexivity|reflexivity| |]; [unfold origin_ok; rewrite Hs; exact I|unfold top_ok; rewrite Hs; trivial]. }
+  destruct H1 as [s1 [E1 [A1 [A2 [A3 A4]]]]]. rewrite E1. cbn [CteEnc.bind].
+  assert (H2 : exists s2, CteEnc.run c s1 (events_of v) = Some s2 /\
+               outcome_of (pp (CteEnc.ind s1) v) (CteEnc.DMapKey :: stk) s1 s2).
+  { assert (G := Hv Wv c s1 (CteEnc.DMapKey :: stk) false Cv). rewrite A3 in G. rewrite Vv in G. cbn [st_pre sepb app] in G. rewrite app_nil_r in G.
+    apply G; [cbn [ctx_ok]; rewrite Vv, Nv; reflexivity|reflexivity| |]; [unfold origin_ok; rewrite A3; exact I|unfold top_ok; rewrite Nv; discriminate]. }
+  destruct H2 as [s2 [E2 [B1 [B2 [B3 B4]]]]].
+  exists s2. split; [exact E2|]. unfold outcome_of. repeat split; try congruence.
+  rewrite B1, A1, A2. cbn [st_pre]. rewrite app_assoc, <- rev_app_distr. f_equal. f_equal.
+  unfold pp. cbn [gp]. rewrite ?app_nil_r. rewrite <- ?app_assoc. reflexivity.
 Qed.
 
-Lemma rev_chain (pre items closing post : bytes) oc cc R :
-  rev post ++ cc :: rev closing ++ rev items ++ oc :: rev pre ++ R =
-  rev (pre ++ (oc :: items ++ closing ++ [cc]) ++ post) ++ R.
+Lemma after_stack_concat st st' sep : st <> [] -> CteEnc.after_stack st = Some (st', sep) ->
+  CteEnc.after_stack (CteEnc.DConcat :: st) = Some (st', sep).
+Proof. intros Hne H. cbn [CteEnc.after_stack]. destruct st; [congruence|exact H]. Qed.
+
+Lemma encodes_mark id v : encodes v -> encodes (VMark id v).
 Proof.
-  rewrite !rev_app_distr. cbn [rev]. rewrite !rev_app_distr. cbn [rev app]. repeat (rewrite <- !app_assoc; cbn [app]). reflexivity.
+  intros Hv Hwf c s st' sep Hcfg Hok Ha Ho _. cbn [wf] in Hwf. destruct Hwf as [_ [Wv [Vv Nv]]].
+  cbn [events_of is_value CteEnc.run CteEnc.step].
+  destruct (before_value_spec s (ctx_ok_head _ _ Hok) Ho) as [s0 [E0 [[A1 [A2 [A3 A4]]] _]]]. rewrite E0. cbn [CteEnc.bind].
+  set (s1 := CteEnc.push CteEnc.DConcat (CteEnc.emit_nolf (38 :: str_bytes id ++ [58]) s0)).
+  assert (S1 : CteEnc.stack s1 = CteEnc.DConcat :: CteEnc.stack s) by (unfold s1, CteEnc.push; cbn [CteEnc.stack CteEnc.set_stack CteEnc.emit_nolf CteEnc.emit_cd]; congruence).
+  assert (R1 : CteEnc.rout s1 = rev (38 :: str_bytes id ++ [58]) ++ CteEnc.rout s0).
+  { unfold s1, CteEnc.push. cbn [CteEnc.rout CteEnc.set_stack CteEnc.emit_nolf CteEnc.emit_cd]. apply rev_append_rev. }
+  assert (I1 : CteEnc.ind s1 = CteEnc.ind s) by (rewrite <- A2; reflexivity).
+  assert (Hne : CteEnc.stack s <> []) by (intro E; rewrite E in Hok; discriminate).
+  assert (G := Hv Wv c s1 st' sep Hcfg). rewrite S1 in G. rewrite Vv in G. cbn [st_pre app] in G.
+  destruct G as [s2 [E2 [B1 [B2 [B3 B4]]]]].
+  - cbn [ctx_ok]. rewrite Vv, Nv. reflexivity.
+  - apply after_stack_concat; assumption.
+  - unfold origin_ok. rewrite S1. exact I.
+  - unfold top_ok. rewrite Nv. discriminate.
+  - exists s2. split; [exact E2|]. unfold outcome_of. repeat split; try congruence.
+    rewrite B1, R1, A1, I1. rewrite !app_assoc, <- !rev_app_distr. f_equal. f_equal.
+    unfold pp. cbn [gp]. rewrite <- !app_assoc. cbn [app]. rewrite <- !app_assoc. reflexivity.
+Qed.
+
+(* closing a container whose items stand in [dk :: st0] *)
+Lemma close_enc cc dk st0 st' sep s i :
+  CteEnc.end_container s = CteEnc.close_container cc s ->
+  CteEnc.stack s = dk :: st0 -> st0 <> [] -> CteEnc.after_stack st0 = Some (st', sep) -> CteEnc.ind s = i + 4 ->
+  exists s', CteEnc.end_container s = Some s' /\
+    CteEnc.rout s' = rev ((if CteEnc.cho s then nl i else []) ++ [cc] ++ sepb sep) ++ CteEnc.rout s /\
+    CteEnc.ind s' = i /\ CteEnc.stack s' = st' /\ CteEnc.cho s' = true.
+Proof.
+  intros Hcl Hs Hne Ha Hi. rewrite Hcl. unfold CteEnc.close_container, CteEnc.unindent.
+  replace (CteEnc.ind s <? 4) with false by lia. cbn [CteEnc.bind].
+  set (s3 := CteEnc.set_ind (CteEnc.ind s - 4) s).
+  assert (I3 : CteEnc.ind s3 = i) by (unfold s3; cbn [CteEnc.ind CteEnc.set_ind]; lia).
+  assert (C3 : CteEnc.cho s3 = CteEnc.cho s) by reflexivity.
+  set (s4 := if CteEnc.cho s3 then CteEnc.newline_indent s3 else s3).
+  assert (E4 : emits (if CteEnc.cho s then nl i else []) s3 s4).
+  { unfold s4. rewrite C3. destruct (CteEnc.cho s); [rewrite <- I3; apply emits_newline_indent|apply emits_refl]. }
+  destruct E4 as [D1 [D2 [D3 D4]]].
+  set (s5 := CteEnc.emit_nolf [cc] s4).
+  assert (S5 : CteEnc.stack s5 = dk :: st0).
+  { unfold s5. cbn [CteEnc.stack CteEnc.emit_nolf CteEnc.emit_cd]. rewrite D3. unfold s3. cbn [CteEnc.stack CteEnc.set_ind]. exact Hs. }
+  unfold CteEnc.unstack. rewrite S5. destruct st0 as [|d0 st00]; [congruence|]. cbn [CteEnc.bind].
+  set (s6 := CteEnc.set_stack (d0 :: st00) s5).
+  assert (S6 : CteEnc.after_stack (CteEnc.stack s6) = Some (st', sep)) by exact Ha.
+  destruct (after_value_spec s6 st' sep S6) as [s7 [E7 [F1 [F2 [F3 F4]]]]].
+  exists s7. split; [exact E7|]. repeat split; try assumption.
+  - rewrite F1. unfold s6. cbn [CteEnc.rout CteEnc.set_stack]. unfold s5. cbn [CteEnc.rout CteEnc.emit_nolf CteEnc.emit_cd rev_append].
+    rewrite D1. unfold s3. cbn [CteEnc.rout CteEnc.set_ind]. rewrite !rev_app_distr. cbn [rev app]. rewrite <- !app_assoc. reflexivity.
+  - rewrite F2. unfold s6, s5. cbn [CteEnc.ind CteEnc.set_stack CteEnc.emit_nolf CteEnc.emit_cd]. congruence.
+Qed.
+
+Lemma rev_chain2 (pre op items closing post : bytes) cc R :
+  rev (closing ++ [cc] ++ post) ++ rev items ++ rev op ++ rev pre ++ R =
+  rev (pre ++ (op ++ items ++ closing ++ [cc]) ++ post) ++ R.
+Proof.
+  rewrite !rev_app_distr. cbn [rev app]. repeat (rewrite <- !app_assoc; cbn [app]). reflexivity.
 Qed.
 
 Section Container.
-  Variables (c : CteEnc.ccfg) (oc cc : N) (dk : CteEnc.deco) (eopen : event).
-  Hypothesis Hopen : forall s, CteEnc.step c s eopen = CteEnc.open_container true [oc] dk s.
+  Variables (c : CteEnc.ccfg) (ob : bytes) (cc : N) (dk : CteEnc.deco) (eopen : event) (st1 : list CteEnc.deco -> list CteEnc.deco) (sep1 : bool).
+  Hypothesis Hopen : forall s, CteEnc.step c s eopen = CteEnc.open_container true ob dk s.
   Hypothesis Hclose : forall s stk', CteEnc.stack s = dk :: stk' -> CteEnc.end_container s = CteEnc.close_container cc s.
-  Hypothesis Hpre : ctx_pre dk 0 = nl 0.
+  Hypothesis Hnl : forall stk', nl_ctx (dk :: stk') = true.
+  Hypothesis Haft : forall stk', CteEnc.after_stack (dk :: stk') = Some (st1 stk', sep1).
 
-  Lemma container_enc l s d stk :
-    Forall (fun x => wf x /\ encodes x /\ ctx_ok dk x = true /\ ctx_post dk x = [] /\ ctx_next dk x = dk) l ->
-    CteEnc.stack s = d :: stk -> vctx d = true ->
+  Lemma container_enc l s st' sep :
+    Forall (fun x => wf x /\ encodes x /\ cfgok c x /\ ctx_ok [dk] x = true /\ (is_value x = true -> (forall stk', st1 stk' = dk :: stk') /\ sep1 = false)) l ->
+    head_ok (CteEnc.stack s) = true -> origin_ok s -> CteEnc.after_stack (CteEnc.stack s) = Some (st', sep) ->
     exists s', CteEnc.run c s (eopen :: flat_map events_of l ++ [EEnd]) = Some s' /\
-      outcome_of (ctx_pre d (CteEnc.ind s) ++
-                  (oc :: flat_map (fun x => nl (CteEnc.ind s + 4) ++ pp (CteEnc.ind s + 4) x) l ++
-                         (match l with [] => [] | _ => nl (CteEnc.ind s) end) ++ [cc]) ++ post_v d)
-                 (next_v d :: stk) s s'.
+      outcome_of (st_pre (CteEnc.stack s) (CteEnc.ind s) ++
+                  (ob ++ flat_map (fun x => nl (CteEnc.ind s + 4) ++ pp (CteEnc.ind s + 4) x) l ++
+                         (match l with [] => [] | _ => nl (CteEnc.ind s) end) ++ [cc]) ++ sepb sep)
+                 st' s s'.
   Proof.
-    intros Hl Hs Hd. cbn [CteEnc.run]. rewrite Hopen. unfold CteEnc.open_container.
-    destruct (before_value_spec s d stk Hs Hd) as [s0 [E0 [A1 [A2 [A3 A4]]]]]. rewrite E0. cbn [CteEnc.bind].
-    set (s1 := CteEnc.push dk (CteEnc.set_ind (CteEnc.ind (CteEnc.set_cho false s0) + 4) (CteEnc.emit_nolf [oc] (CteEnc.set_cho false s0)))).
-    assert (R1 : CteEnc.rout s1 = oc :: CteEnc.rout s0) by reflexivity.
+    intros Hl Hh Ho Ha. cbn [CteEnc.run]. rewrite Hopen. unfold CteEnc.open_container.
+    destruct (before_value_spec s Hh Ho) as [s0 [E0 [[A1 [A2 [A3 A4]]] _]]]. rewrite E0. cbn [CteEnc.bind].
+    set (s1 := CteEnc.push dk (CteEnc.set_ind (CteEnc.ind (CteEnc.set_cho false s0) + 4) (CteEnc.emit_nolf ob (CteEnc.set_cho false s0)))).
+    assert (R1 : CteEnc.rout s1 = rev ob ++ CteEnc.rout s0).
+    { unfold s1, CteEnc.push. cbn [CteEnc.rout CteEnc.set_stack CteEnc.set_ind CteEnc.emit_nolf CteEnc.emit_cd CteEnc.set_cho]. apply rev_append_rev. }
     assert (I1 : CteEnc.ind s1 = CteEnc.ind s + 4) by (rewrite <- A2; reflexivity).
-    assert (S1 : CteEnc.stack s1 = dk :: d :: stk) by (unfold s1, CteEnc.push; cbn [CteEnc.stack CteEnc.set_stack CteEnc.set_ind CteEnc.emit_nolf CteEnc.emit_cd CteEnc.set_cho]; congruence).
+    assert (S1 : CteEnc.stack s1 = dk :: CteEnc.stack s) by (unfold s1, CteEnc.push; cbn [CteEnc.stack CteEnc.set_stack CteEnc.set_ind CteEnc.emit_nolf CteEnc.emit_cd CteEnc.set_cho]; congruence).
     assert (C1 : CteEnc.cho s1 = false) by reflexivity.
     rewrite run_app.
-    destruct (enc_items c dk (d :: stk) l Hl Hpre s1 S1) as [s2 [E2 [B1 [B2 [B3 B4]]]]].
-    rewrite E2. cbn [CteEnc.bind]. rewrite run_one. cbn [CteEnc.step]. rewrite (Hclose s2 _ B3).
-    unfold CteEnc.close_container, CteEnc.unindent.
-    assert (I2 : CteEnc.ind s2 = CteEnc.ind s + 4) by congruence.
-    replace (CteEnc.ind s2 <? 4) with false by lia. cbn [CteEnc.bind].
-    set (s3 := CteEnc.set_ind (CteEnc.ind s2 - 4) s2).
-    assert (I3 : CteEnc.ind s3 = CteEnc.ind s) by (unfold s3; cbn [CteEnc.ind CteEnc.set_ind]; lia).
-    assert (C3 : CteEnc.cho s3 = match l with [] => false | _ => true end) by (unfold s3; cbn [CteEnc.cho CteEnc.set_ind]; rewrite B4, C1; reflexivity).
-    set (s4 := if CteEnc.cho s3 then CteEnc.newline_indent s3 else s3).
-    assert (E4 : emits (match l with [] => [] | _ => nl (CteEnc.ind s) end) s3 s4).
-    { unfold s4. rewrite C3. destruct l; [apply emits_refl|]. rewrite <- I3. apply emits_newline_indent. }
-    destruct E4 as [D1 [D2 [D3 D4]]].
-    set (s5 := CteEnc.emit_nolf [cc] s4).
-    assert (S5 : CteEnc.stack s5 = dk :: d :: stk).
-    { unfold s5. cbn [CteEnc.stack CteEnc.emit_nolf CteEnc.emit_cd]. rewrite D3. unfold s3. cbn [CteEnc.stack CteEnc.set_ind]. exact B3. }
-    unfold CteEnc.unstack. rewrite S5. cbn [CteEnc.bind].
-    set (s6 := CteEnc.set_stack (d :: stk) s5).
-    assert (S6 : CteEnc.stack s6 = d :: stk) by reflexivity.
-    destruct (after_value_spec s6 d stk S6 Hd) as [s7 [E7 [F1 [F2 [F3 F4]]]]].
-    exists s7. split; [exact E7|]. unfold outcome_of. repeat split; try assumption.
-    - rewrite F1. unfold s6. cbn [CteEnc.rout CteEnc.set_stack]. unfold s5. cbn [CteEnc.rout CteEnc.emit_nolf CteEnc.emit_cd rev_append].
-      rewrite D1. unfold s3. cbn [CteEnc.rout CteEnc.set_ind]. rewrite B1, I1, R1, A1. apply rev_chain.
-    - rewrite F2. unfold s6, s5. cbn [CteEnc.ind CteEnc.set_stack CteEnc.emit_nolf CteEnc.emit_cd]. congruence.
+    assert (Hl' : Forall (fun x => wf x /\ encodes x /\ cfgok c x /\ ctx_ok (dk :: CteEnc.stack s) x = true /\
+                                   (is_value x = true -> st1 (CteEnc.stack s) = dk :: CteEnc.stack s /\ sep1 = false)) l).
+    { eapply Forall_impl; [|exact Hl]. intros x [W [E [Cf [K V]]]]. split; [exact W|]. split; [exact E|]. split; [exact Cf|]. split.
+      - destruct dk; try discriminate K; exact K.
+      - intro Hv. destruct (V Hv) as [V1 V2]. split; [apply V1|exact V2]. }
+    destruct (enc_items c (dk :: CteEnc.stack s) (st1 (CteEnc.stack s)) sep1 l (Hnl _) (Haft _) Hl' s1 S1) as [s2 [E2 [B1 [B2 [B3 B4]]]]].
+    rewrite E2. cbn [CteEnc.bind]. rewrite run_one. cbn [CteEnc.step].
+    assert (Hne : CteEnc.stack s <> []) by (intro E; rewrite E in Hh; discriminate).
+    destruct (close_enc cc dk (CteEnc.stack s) st' sep s2 (CteEnc.ind s) (Hclose s2 _ B3) B3 Hne Ha ltac:(congruence)) as [s3 [E3 [F1 [F2 [F3 F4]]]]].
+    exists s3. split; [exact E3|]. unfold outcome_of. repeat split; try assumption.
+    rewrite F1, B1, I1, R1, A1, B4, C1.
+    destruct l; cbv iota;
+    apply rev_chain2.
   Qed.
 End Container.
+
+Lemma encodes_node v l : encodes v -> Forall encodes l -> encodes (VNode v l).
+Proof.
+  intros Hv Hl Hwf c s st' sep Hcfg Hok Ha Ho Ht. apply wf_node in Hwf. destruct Hwf as [[Wv [Vv Nv]] Wl].
+  unfold cfgok in Hcfg. cbn [atoms_of] in Hcfg. apply Forall_app in Hcfg as [Cv Cl]. apply cfgok_items in Cl.
+  cbn [events_of is_value CteEnc.run CteEnc.step]. unfold CteEnc.open_container.
+  assert (Hh := ctx_ok_head _ _ Hok).
+  destruct (before_value_spec s Hh Ho) as [s0 [E0 [[A1 [A2 [A3 A4]]] [Cnl Cflat]]]]. rewrite E0. cbn [CteEnc.bind].
+  assert (Hcol : CteEnc.col s0 = Z.of_N (CteEnc.ind s)).
+  { destruct (nl_ctx (CteEnc.stack s)) eqn:Enl; [apply Cnl; reflexivity|]. rewrite (Cflat eq_refl).
+    specialize (Ht eq_refl). destruct (CteEnc.stack s) as [|d stk]; [discriminate|].
+    destruct d; try discriminate Hok; try discriminate Enl; exact Ht. }
+  set (s1 := CteEnc.push CteEnc.DNodeValue (CteEnc.set_ind (CteEnc.ind s0 + 4) (CteEnc.emit_nolf [40] s0))).
+  assert (R1 : CteEnc.rout s1 = 40 :: CteEnc.rout s0) by reflexivity.
+  assert (I1 : CteEnc.ind s1 = CteEnc.ind s + 4) by (rewrite <- A2; reflexivity).
+  assert (S1 : CteEnc.stack s1 = CteEnc.DNodeValue :: CteEnc.stack s)
+    by (unfold s1, CteEnc.push; cbn [CteEnc.stack CteEnc.set_stack CteEnc.set_ind CteEnc.emit_nolf CteEnc.emit_cd]; congruence).
+  assert (O1 : origin_ok s1).
+  { unfold origin_ok. rewrite S1. unfold CteEnc.at_origin. rewrite I1.
+    assert (CteEnc.col s1 = CteEnc.col s0 + 1)%Z by reflexivity. apply Z.eqb_neq. lia. }
+  rewrite run_app.
+  assert (G := Hv Wv c s1 (CteEnc.DNodeChildren :: CteEnc.stack s) false Cv). rewrite S1 in G. rewrite Vv in G. cbn [st_pre sepb app] in G.
+  destruct G as [s2 [E2 [B1 [B2 [B3 B4]]]]].
+  { cbn [ctx_ok]. rewrite Vv, Nv. reflexivity. }
+  { reflexivity. }
+  { exact O1. }
+  { unfold top_ok. rewrite Nv. discriminate. }
+  rewrite E2. cbn [CteEnc.bind]. rewrite run_app. rewrite app_nil_r in B1.
+  assert (Hl' : Forall (fun x => wf x /\ encodes x /\ cfgok c x /\ ctx_ok (CteEnc.DNodeChildren :: CteEnc.stack s) x = true /\
+                                 (is_value x = true -> CteEnc.DNodeChildren :: CteEnc.stack s = CteEnc.DNodeChildren :: CteEnc.stack s /\ false = false)) l).
+  { rewrite Forall_forall in *. intros x Hx. destruct (Wl x Hx) as [W P]. split; [exact W|]. split; [apply Hl, Hx|]. split; [apply Cl, Hx|].
+    split; [cbn [ctx_ok]; rewrite P; reflexivity|]. intros _. split; reflexivity. }
+  destruct (enc_items c (CteEnc.DNodeChildren :: CteEnc.stack s) _ false l eq_refl eq_refl Hl' s2 B3) as [s3 [E3 [D1 [D2 [D3 D4]]]]].
+  rewrite E3. cbn [CteEnc.bind]. rewrite run_one. cbn [CteEnc.step].
+  assert (Hne : CteEnc.stack s <> []) by (intro E; rewrite E in Hh; discriminate).
+  assert (Hcl : CteEnc.end_container s3 = CteEnc.close_container 41 s3) by (unfold CteEnc.end_container; rewrite D3; reflexivity).
+  destruct (close_enc 41 CteEnc.DNodeChildren (CteEnc.stack s) st' sep s3 (CteEnc.ind s) Hcl D3 Hne Ha ltac:(congruence)) as [s4 [E4 [F1 [F2 [F3 F4]]]]].
+  exists s4. split; [exact E4|]. unfold outcome_of. repeat split; try assumption.
+  assert (C3 : CteEnc.cho s3 = true) by (rewrite D4; destruct l; [exact B4|reflexivity]).
+  rewrite F1, C3, D1, B2, B1, I1, R1, A1. unfold pp. cbn [gp].
+  rewrite !rev_app_distr. cbn [rev app]. rewrite !rev_app_distr. cbn [rev app]. repeat (rewrite <- !app_assoc; cbn [app]). reflexivity.
+Qed.
 
 Lemma encodes_all t : encodes t.
 Proof.
   induction t using tree_induction.
-  - apply encodes_scalars.
-  - apply encodes_scalars.
-  - apply encodes_scalars.
-  - apply encodes_scalars.
-  - apply encodes_scalars.
-  - apply encodes_scalars.
+  - apply encodes_atom.
   - apply encodes_comment.
   - apply encodes_pair; assumption.
-  - intros Hwf c s d stk Hs Hok. apply wf_list in Hwf. assert (Hd := ctx_ok_vctx _ _ Hok).
-    cbn [events_of]. unfold ctx_post, ctx_next. cbn [is_value]. unfold pp. cbn [gp].
-    apply (container_enc c 91 93 CteEnc.DList EList); try assumption.
-    + reflexivity.
+  - apply encodes_mark; assumption.
+  - (* list, record, edge *)
+    intros Hwf c s st' sep Hcfg Hok Ha Ho _. apply wf_seq in Hwf. destruct Hwf as [Hl Hk].
+    unfold cfgok in Hcfg. cbn [atoms_of] in Hcfg. apply cfgok_items in Hcfg.
+    assert (Hh := ctx_ok_head _ _ Hok). cbn [events_of is_value]. unfold pp. cbn [gp].
+    assert (Hit : forall dk, (dk = CteEnc.DList \/ dk = CteEnc.DRecord \/ dk = CteEnc.DEdge) ->
+              Forall (fun x => wf x /\ encodes x /\ cfgok c x /\ ctx_ok [dk] x = true /\
+                               (is_value x = true -> (forall stk', (fun stk => dk :: stk) stk' = dk :: stk') /\ false = false)) l).
+    { intros dk Hdk. rewrite Forall_forall in *. intros x Hx. destruct (Hl x Hx) as [W P]. split; [exact W|]. split; [apply H, Hx|]. split; [apply Hcfg, Hx|].
+      split; [destruct Hdk as [E|[E|E]]; subst dk; cbn [ctx_ok]; rewrite P; reflexivity|]. intros _. split; reflexivity. }
+    destruct k as [|id|].
+    + apply (container_enc c [91] 93 CteEnc.DList EList (fun stk => CteEnc.DList :: stk) false); try assumption; try reflexivity.
+      * intros s0 stk' H0. unfold CteEnc.end_container. rewrite H0. reflexivity.
+      * apply Hit. left. reflexivity.
+    + apply (container_enc c (64 :: str_bytes id ++ [123]) 125 CteEnc.DRecord (ERecord (str_bytes id)) (fun stk => CteEnc.DRecord :: stk) false); try assumption; try reflexivity.
+      * intros s0 stk' H0. unfold CteEnc.end_container. rewrite H0. reflexivity.
+      * apply Hit. right. left. reflexivity.
+    + apply (container_enc c [64; 40] 41 CteEnc.DEdge EEdge (fun stk => CteEnc.DEdge :: stk) false); try assumption; try reflexivity.
+      * intros s0 stk' H0. unfold CteEnc.end_container. rewrite H0. reflexivity.
+      * apply Hit. right. right. reflexivity.
+  - (* map *)
+    intros Hwf c s st' sep Hcfg Hok Ha Ho _. apply wf_map in Hwf.
+    unfold cfgok in Hcfg. cbn [atoms_of] in Hcfg. apply cfgok_items in Hcfg.
+    assert (Hh := ctx_ok_head _ _ Hok). cbn [events_of is_value]. unfold pp. cbn [gp].
+    apply (container_enc c [123] 125 CteEnc.DMapKey EMap (fun stk => CteEnc.DMapValue :: stk) true); try assumption; try reflexivity.
     + intros s0 stk' H0. unfold CteEnc.end_container. rewrite H0. reflexivity.
-    + reflexivity.
-    + rewrite Forall_forall in *. intros x Hx. destruct (Hwf x Hx) as [Wx Px].
-      split; [exact Wx|]. split; [apply H, Hx|]. split; [cbn [ctx_ok]; rewrite Px; reflexivity|].
-      unfold ctx_post, ctx_next. destruct (is_value x); repeat split.
-  - intros Hwf c s d stk Hs Hok. apply wf_map in Hwf. assert (Hd := ctx_ok_vctx _ _ Hok).
-    cbn [events_of]. unfold ctx_post, ctx_next. cbn [is_value]. unfold pp. cbn [gp].
-    apply (container_enc c 123 125 CteEnc.DMapKey EMap); try assumption.
-    + reflexivity.
-    + intros s0 stk' H0. unfold CteEnc.end_container. rewrite H0. reflexivity.
-    + reflexivity.
-    + rewrite Forall_forall in *. intros x Hx. destruct (Hwf x Hx) as [Wx Px].
-      split; [exact Wx|]. split; [apply H, Hx|]. split; [reflexivity|].
-      unfold ctx_post, ctx_next. rewrite Px. repeat split.
+    + rewrite Forall_forall in *. intros x Hx. destruct (Hwf x Hx) as [W P]. split; [exact W|]. split; [apply H, Hx|]. split; [apply Hcfg, Hx|].
+      split; [reflexivity|]. rewrite P. discriminate.
+  - apply encodes_node; assumption.
 Qed.
-
-(* the encoder model on a document of the fragment writes the layout [pp_doc] *)
-Theorem encode_pp_doc c t : wf t -> is_value t = true ->
-  CteEnc.cte_encode c (document (events_of t)) = Some (pp_doc t).
-Proof.
-  intros Hwf Hv. unfold CteEnc.cte_encode, document. cbn [CteEnc.run CteEnc.step CteEnc.bind].
-  set (sb := CteEnc.newline_indent (CteEnc.emit_raw (CteEnc.dec 0) (CteEnc.emit_nolf [99] (CteEnc.set_stack [CteEnc.DTop] (CteEnc.set_ind 0 CteEnc.est0))))).
-  assert (Sb : CteEnc.stack sb = CteEnc.DTop :: []) by reflexivity.
-  assert (Ib : CteEnc.ind sb = 0) by reflexivity.
-  assert (Rb : CteEnc.rout sb = rev (99 :: 48 :: nl 0)) by reflexivity.
-  rewrite run_app.
-  destruct (encodes_all t Hwf c sb CteEnc.DTop [] Sb Hv) as [s' [E [A1 [A2 [A3 A4]]]]].
-  rewrite E. cbn [CteEnc.bind CteEnc.run CteEnc.step]. unfold CteEnc.out_of. rewrite A1, Rb, Ib.
-  unfold ctx_post. rewrite Hv. cbn [ctx_pre post_v app]. rewrite app_nil_r.
-  rewrite <- rev_app_distr, rev_involutive. reflexivity.
-Qed.
-
-(* ---- same data ---- *)
-
-Fixpoint devs (t : tree) : list Denote.dev :=
-  match t with
-  | VNull => [Denote.DNull] | VBool _ b => [Denote.DBool b]
-  | VPos n => [Denote.dnum false n 0] | VNeg n => [Denote.dnum true n 0]
-  | VInt z => [Denote.dnum (z <? 0)%Z (Z.abs_N z) 0]
-  | VStr k _ rs => [Denote.DArr (sty k) (N.of_nat (length (str_bytes rs))) (str_bytes rs)]
-  | VCom m rs => [Denote.DComment m (str_bytes rs)]
-  | VPair k v => devs k ++ devs v
-  | VList l => Denote.DList :: flat_map devs l ++ [Denote.DEnd]
-  | VMap l => Denote.DMap :: flat_map devs l ++ [Denote.DEnd]
-  end.
-
 Lemma den_rd_int neg n r : Denote.den_go None (rd_int neg n :: r) = Denote.dnum neg n 0 :: Denote.den_go None r.
 Proof.
   unfold rd_int. destruct (N.eqb_spec n 0) as [E|E]; destruct neg; cbn [andb].
@@ -1742,6 +3309,119 @@ Proof.
       replace (Z.of_N n <? 0)%Z with false by lia; replace (Z.abs_N (Z.of_N n)) with n by lia; reflexivity.
 Qed.
 
+Lemma dnum_not_padding neg c e : Denote.is_padding (Denote.dnum neg c e) = false.
+Proof. unfold Denote.dnum. destruct (c =? 0); [reflexivity|]. destruct (Denote.strip10 _ c e). reflexivity. Qed.
+
+
+(* ---- record types and the whole document ---- *)
+
+Definition rt_cfgok (c : CteEnc.ccfg) (rt : rectype) : Prop := Forall (cfgok c) (snd rt).
+
+Lemma enc_rt c rt s : wf_rt rt -> rt_cfgok c rt -> CteEnc.stack s = [CteEnc.DTop] -> CteEnc.ind s = 0 ->
+  exists s', CteEnc.run c s (rt_events events_of rt) = Some s' /\
+             CteEnc.rout s' = rev (gp_rt qbytes str_bytes rt) ++ CteEnc.rout s /\
+             CteEnc.stack s' = [CteEnc.DTop] /\ CteEnc.ind s' = 0 /\ CteEnc.col s' = 0%Z.
+Proof.
+  intros [Hid Hl] Hcf Hs Hi. destruct rt as [id l]. unfold rt_events, gp_rt, rt_cfgok in *. cbn [fst snd] in *.
+  cbn [CteEnc.run CteEnc.step]. unfold CteEnc.open_container, CteEnc.before_value. rewrite Hs. cbn [CteEnc.bind].
+  set (ob := 64 :: str_bytes id ++ [60]).
+  set (s1 := CteEnc.push CteEnc.DRecordType (CteEnc.set_ind (CteEnc.ind (CteEnc.set_cho false s) + 4) (CteEnc.emit_nolf ob (CteEnc.set_cho false s)))).
+  assert (R1 : CteEnc.rout s1 = rev ob ++ CteEnc.rout s).
+  { unfold s1, CteEnc.push. cbn [CteEnc.rout CteEnc.set_stack CteEnc.set_ind CteEnc.emit_nolf CteEnc.emit_cd CteEnc.set_cho]. apply rev_append_rev. }
+  assert (I1 : CteEnc.ind s1 = 4) by (unfold s1, CteEnc.push; cbn [CteEnc.ind CteEnc.set_stack CteEnc.set_ind CteEnc.set_cho]; lia).
+  assert (S1 : CteEnc.stack s1 = [CteEnc.DRecordType; CteEnc.DTop])
+    by (unfold s1, CteEnc.push; cbn [CteEnc.stack CteEnc.set_stack CteEnc.set_ind CteEnc.emit_nolf CteEnc.emit_cd CteEnc.set_cho]; congruence).
+  assert (C1 : CteEnc.cho s1 = false) by reflexivity.
+  rewrite run_app.
+  assert (Hl' : Forall (fun x => wf x /\ encodes x /\ cfgok c x /\ ctx_ok [CteEnc.DRecordType; CteEnc.DTop] x = true /\
+                 (is_value x = true -> [CteEnc.DRecordType; CteEnc.DTop] = [CteEnc.DRecordType; CteEnc.DTop] /\ false = false)) l).
+  { rewrite Forall_forall in *. intros x Hx. destruct (Hl x Hx) as [W P]. split; [exact W|]. split; [apply encodes_all|]. split; [apply Hcf, Hx|].
+    split; [cbn [ctx_ok]; rewrite P; reflexivity|]. intros _. split; reflexivity. }
+  destruct (enc_items c [CteEnc.DRecordType; CteEnc.DTop] _ false l eq_refl eq_refl Hl' s1 S1) as [s2 [E2 [B1 [B2 [B3 B4]]]]].
+  rewrite E2. cbn [CteEnc.bind]. rewrite run_one. cbn [CteEnc.step]. unfold CteEnc.end_container. rewrite B3.
+  unfold CteEnc.unindent. replace (CteEnc.ind s2 <? 4) with false by lia. cbn [CteEnc.bind].
+  set (s3 := CteEnc.set_ind (CteEnc.ind s2 - 4) s2).
+  assert (I3 : CteEnc.ind s3 = 0) by (unfold s3; cbn [CteEnc.ind CteEnc.set_ind]; lia).
+  set (s4 := if CteEnc.cho s3 then CteEnc.newline_indent s3 else s3).
+  assert (E4 : emits (match l with [] => [] | _ => nl 0 end) s3 s4).
+  { unfold s4. assert (C3 : CteEnc.cho s3 = match l with [] => false | _ => true end) by (unfold s3; cbn [CteEnc.cho CteEnc.set_ind]; rewrite B4, C1; reflexivity).
+    rewrite C3. destruct l; [apply emits_refl|]. rewrite <- I3. apply emits_newline_indent. }
+  destruct E4 as [D1 [D2 [D3 D4]]].
+  set (s5 := CteEnc.emit_nolf [62] s4).
+  assert (S5 : CteEnc.stack s5 = [CteEnc.DRecordType; CteEnc.DTop]).
+  { unfold s5. cbn [CteEnc.stack CteEnc.emit_nolf CteEnc.emit_cd]. rewrite D3. unfold s3. cbn [CteEnc.stack CteEnc.set_ind]. exact B3. }
+  unfold CteEnc.unstack. rewrite S5. cbn [CteEnc.bind].
+  set (s6 := CteEnc.set_stack [CteEnc.DTop] s5).
+  assert (I6 : CteEnc.ind s6 = 0) by (unfold s6, s5; cbn [CteEnc.ind CteEnc.set_stack CteEnc.emit_nolf CteEnc.emit_cd]; congruence).
+  destruct (emits_newline_indent s6) as [F1 [F2 [F3 F4]]].
+  eexists. split; [reflexivity|]. split; [|split; [rewrite F3; reflexivity|split; [congruence|rewrite col_newline_indent, I6; reflexivity]]].
+  rewrite F1, I6. unfold s6. cbn [CteEnc.rout CteEnc.set_stack]. unfold s5. cbn [CteEnc.rout CteEnc.emit_nolf CteEnc.emit_cd rev_append].
+  rewrite D1. unfold s3. cbn [CteEnc.rout CteEnc.set_ind]. rewrite B1, I1, R1. unfold ob, pp.
+  repeat (progress cbn [rev app] || rewrite rev_app_distr || rewrite <- app_assoc). reflexivity.
+Qed.
+
+Lemma enc_rts c rts : Forall wf_rt rts -> Forall (rt_cfgok c) rts -> forall s, CteEnc.stack s = [CteEnc.DTop] -> CteEnc.ind s = 0 -> CteEnc.col s = 0%Z ->
+  exists s', CteEnc.run c s (flat_map (rt_events events_of) rts) = Some s' /\
+             CteEnc.rout s' = rev (flat_map (gp_rt qbytes str_bytes) rts) ++ CteEnc.rout s /\
+             CteEnc.stack s' = [CteEnc.DTop] /\ CteEnc.ind s' = 0 /\ CteEnc.col s' = 0%Z.
+Proof.
+  induction 1 as [|rt rts' Hrt Hrts IH]; intros Hcf s Hs Hi Hc.
+  - exists s. repeat split; assumption.
+  - inversion Hcf as [|? ? Hcf1 Hcf2]; subst. cbn [flat_map]. rewrite run_app. destruct (enc_rt c rt s Hrt Hcf1 Hs Hi) as [s1 [E1 [A1 [A2 [A3 A4]]]]].
+    rewrite E1. cbn [CteEnc.bind]. destruct (IH Hcf2 s1 A2 A3 A4) as [s2 [E2 [B1 [B2 [B3 B4]]]]].
+    exists s2. split; [exact E2|]. repeat split; try assumption. rewrite B1, A1. rewrite rev_app_distr, app_assoc. reflexivity.
+Qed.
+
+(* the encoder model on a document of the fragment writes the layout [pp_doc] *)
+Definition doc_cfgok (c : CteEnc.ccfg) (rts : list rectype) (t : tree) : Prop := Forall (rt_cfgok c) rts /\ cfgok c t.
+
+Theorem encode_pp_doc c rts t : Forall wf_rt rts -> wf t -> is_value t = true -> doc_cfgok c rts t ->
+  CteEnc.cte_encode c (document (doc_events rts t)) = Some (pp_doc rts t).
+Proof.
+  intros Hr Hwf Hv [Hcr Hct]. unfold CteEnc.cte_encode, document, doc_events. cbn [CteEnc.run CteEnc.step CteEnc.bind].
+  set (sb := CteEnc.newline_indent (CteEnc.emit_raw (CteEnc.dec 0) (CteEnc.emit_nolf [99] (CteEnc.set_stack [CteEnc.DTop] (CteEnc.set_ind 0 CteEnc.est0))))).
+  assert (Sb : CteEnc.stack sb = [CteEnc.DTop]) by reflexivity.
+  assert (Ib : CteEnc.ind sb = 0) by reflexivity.
+  assert (Cb : CteEnc.col sb = 0%Z) by reflexivity.
+  assert (Rb : CteEnc.rout sb = rev (99 :: 48 :: nl 0)) by reflexivity.
+  rewrite <- app_assoc, run_app.
+  destruct (enc_rts c rts Hr Hcr sb Sb Ib Cb) as [s1 [E1 [A1 [A2 [A3 A4]]]]]. rewrite E1. cbn [CteEnc.bind]. rewrite run_app.
+  assert (G := encodes_all t Hwf c s1 [CteEnc.DTop] false Hct). rewrite A2 in G. rewrite Hv in G. cbn [st_pre sepb app] in G.
+  destruct G as [s' [E [B1 [B2 [B3 B4]]]]].
+  - exact Hv.
+  - reflexivity.
+  - unfold origin_ok. rewrite A2. exact I.
+  - unfold top_ok. rewrite A2. intros _. rewrite A3, A4. reflexivity.
+  - rewrite E. cbn [CteEnc.bind CteEnc.run CteEnc.step]. unfold CteEnc.out_of. rewrite B1, A1, Rb, A3. rewrite app_nil_r.
+    unfold pp_doc. rewrite !app_assoc, <- !rev_app_distr, rev_involutive. rewrite <- !app_assoc. reflexivity.
+Qed.
+
+(* ---- same data ---- *)
+
+Lemma atom_den a r : Denote.den_go None (aevent a :: r) = adev a :: Denote.den_go None r /\
+                     Denote.den_go None (ard a :: r) = adev a :: Denote.den_go None r /\ Denote.is_padding (adev a) = false.
+Proof.
+  destruct a; cbn [aevent ard adev]; try (repeat split; reflexivity).
+  - repeat split; destruct plain, b; reflexivity.
+  - split; [reflexivity|]. split; [apply den_rd_int|apply dnum_not_padding].
+  - split; [reflexivity|]. split; [apply den_rd_int|apply dnum_not_padding].
+  - split; [reflexivity|]. split; [apply den_rd_int|apply dnum_not_padding].
+  - assert (W : Denote.whole_count (sty k) (N.of_nat (length (str_bytes rs))) (str_bytes rs) = N.of_nat (length (str_bytes rs))).
+    { unfold Denote.whole_count. destruct (nth (N.to_nat (sty k)) array_elem_bits 8 =? 8); reflexivity. }
+    repeat split; [destruct whole; cbn [Denote.den_go]; rewrite ?W; reflexivity | cbn [Denote.den_go]; rewrite W; reflexivity].
+Qed.
+
+Fixpoint devs (t : tree) : list Denote.dev :=
+  match t with
+  | VAtom a => [adev a]
+  | VCom m rs => [Denote.DComment m (str_bytes rs)]
+  | VPair k v => devs k ++ devs v
+  | VMark id v => Denote.DMarker (str_bytes id) :: devs v
+  | VSeq k l => sdev k :: flat_map devs l ++ [Denote.DEnd]
+  | VMap l => Denote.DMap :: flat_map devs l ++ [Denote.DEnd]
+  | VNode v l => Denote.DNode :: devs v ++ flat_map devs l ++ [Denote.DEnd]
+  end.
+
 Lemma den_items (f : tree -> list event) l :
   Forall (fun t => forall r, Denote.den_go None (f t ++ r) = devs t ++ Denote.den_go None r) l ->
   forall r, Denote.den_go None (flat_map f l ++ r) = flat_map devs l ++ Denote.den_go None r.
@@ -1750,66 +3430,123 @@ Proof.
   cbn [flat_map]. rewrite <- !app_assoc. rewrite Hx, IH. reflexivity.
 Qed.
 
-Lemma den_events_of t : forall r, Denote.den_go None (events_of t ++ r) = devs t ++ Denote.den_go None r.
+
+Lemma den_tree (f : tree -> list event) (fa : atom -> event) :
+  (forall a r, Denote.den_go None (fa a :: r) = adev a :: Denote.den_go None r) ->
+  (forall t, f t = match t with
+                   | VAtom a => [fa a] | VCom m rs => [EComment m (str_bytes rs)] | VPair k v => f k ++ f v
+                   | VMark id v => EMarker (str_bytes id) :: f v
+                   | VSeq k l => sevent k :: flat_map f l ++ [EEnd] | VMap l => EMap :: flat_map f l ++ [EEnd]
+                   | VNode v l => ENode :: f v ++ flat_map f l ++ [EEnd] end) ->
+  forall t r, Denote.den_go None (f t ++ r) = devs t ++ Denote.den_go None r.
 Proof.
-  induction t using tree_induction; intro r; cbn [events_of devs app]; try reflexivity.
-  - destruct pl, b; reflexivity.
-  - destruct w; [|reflexivity]. cbn [Denote.den_go]. unfold Denote.whole_count.
-    destruct (nth (N.to_nat (sty k)) array_elem_bits 8 =? 8); reflexivity.
+  intros Ha Hf. induction t using tree_induction; intro r; rewrite Hf; cbn [devs app].
+  - apply Ha.
+  - reflexivity.
   - rewrite <- app_assoc. rewrite IHt1, IHt2. rewrite <- app_assoc. reflexivity.
-  - cbn [Denote.den_go]. rewrite <- !app_assoc. rewrite (den_items events_of l H). reflexivity.
-  - cbn [Denote.den_go]. rewrite <- !app_assoc. rewrite (den_items events_of l H). reflexivity.
+  - cbn [Denote.den_go]. rewrite IHt. reflexivity.
+  - destruct k; cbn [sevent sdev app Denote.den_go]; rewrite <- !app_assoc; rewrite (den_items f l H); reflexivity.
+  - cbn [Denote.den_go]. rewrite <- !app_assoc. rewrite (den_items f l H). reflexivity.
+  - cbn [Denote.den_go]. rewrite <- !app_assoc. rewrite IHt. rewrite (den_items f l H). reflexivity.
 Qed.
 
-Lemma den_rd_events t : forall r, Denote.den_go None (rd_events t ++ r) = devs t ++ Denote.den_go None r.
-Proof.
-  induction t using tree_induction; intro r; cbn [rd_events devs app]; try reflexivity.
-  - apply den_rd_int.
-  - apply den_rd_int.
-  - unfold rd_z. apply den_rd_int.
-  - cbn [Denote.den_go]. unfold Denote.whole_count.
-    destruct (nth (N.to_nat (sty k)) array_elem_bits 8 =? 8); reflexivity.
-  - rewrite <- app_assoc. rewrite IHt1, IHt2. rewrite <- app_assoc. reflexivity.
-  - cbn [Denote.den_go]. rewrite <- !app_assoc. rewrite (den_items rd_events l H). reflexivity.
-  - cbn [Denote.den_go]. rewrite <- !app_assoc. rewrite (den_items rd_events l H). reflexivity.
-Qed.
+Lemma den_events_of t r : Denote.den_go None (events_of t ++ r) = devs t ++ Denote.den_go None r.
+Proof. apply (den_tree events_of aevent); [intros; apply atom_den|intro t0; destruct t0; reflexivity]. Qed.
+Lemma den_rd_events t r : Denote.den_go None (rd_events t ++ r) = devs t ++ Denote.den_go None r.
+Proof. apply (den_tree rd_events ard); [intros; apply atom_den|intro t0; destruct t0; reflexivity]. Qed.
 
-Lemma dnum_not_padding neg c e : Denote.is_padding (Denote.dnum neg c e) = false.
-Proof. unfold Denote.dnum. destruct (c =? 0); [reflexivity|]. destruct (Denote.strip10 _ c e). reflexivity. Qed.
+Lemma no_pad_items l : Forall (fun t => forallb (fun d => negb (Denote.is_padding d)) (devs t) = true) l ->
+  forallb (fun d => negb (Denote.is_padding d)) (flat_map devs l) = true.
+Proof. induction 1 as [|x l' Hx Hl IH]; [reflexivity|]. cbn [flat_map]. rewrite forallb_app, Hx, IH. reflexivity. Qed.
 
 Lemma devs_no_padding t : forallb (fun d => negb (Denote.is_padding d)) (devs t) = true.
 Proof.
-  induction t using tree_induction; cbn [devs forallb]; try reflexivity;
-    try (rewrite dnum_not_padding; reflexivity).
+  induction t using tree_induction; cbn [devs forallb].
+  - destruct (atom_den a []) as [_ [_ E]]. rewrite E. reflexivity.
+  - reflexivity.
   - rewrite forallb_app, IHt1, IHt2. reflexivity.
-  - rewrite forallb_app. cbn [forallb andb Denote.is_padding negb]. rewrite andb_true_r.
-    induction H as [|x l' Hx Hl IH]; [reflexivity|]. cbn [flat_map]. rewrite forallb_app, Hx, IH. reflexivity.
-  - rewrite forallb_app. cbn [forallb andb Denote.is_padding negb]. rewrite andb_true_r.
-    induction H as [|x l' Hx Hl IH]; [reflexivity|]. cbn [flat_map]. rewrite forallb_app, Hx, IH. reflexivity.
+  - rewrite IHt. reflexivity.
+  - rewrite forallb_app, (no_pad_items l H). destruct k; reflexivity.
+  - rewrite forallb_app, (no_pad_items l H). reflexivity.
+  - rewrite !forallb_app, IHt, (no_pad_items l H). reflexivity.
 Qed.
 
 Lemma filter_all {A} (p : A -> bool) l : forallb p l = true -> filter p l = l.
 Proof. induction l as [|x l IH]; cbn [forallb filter]; [reflexivity|]. intro H. apply andb_true_iff in H as [H1 H2]. rewrite H1, (IH H2). reflexivity. Qed.
 
-Theorem same_data t :
-  Denote.den (document (rd_events t)) = Denote.no_padding (Denote.den (document (events_of t))).
+Definition rt_devs (rt : rectype) : list Denote.dev := Denote.DRecordType (str_bytes (fst rt)) :: flat_map devs (snd rt) ++ [Denote.DEnd].
+
+Lemma den_rts (f : tree -> list event) rts :
+  (forall t r, Denote.den_go None (f t ++ r) = devs t ++ Denote.den_go None r) ->
+  forall r, Denote.den_go None (flat_map (rt_events f) rts ++ r) = flat_map rt_devs rts ++ Denote.den_go None r.
 Proof.
-  unfold Denote.den, document. cbn [Denote.den_go]. rewrite den_rd_events, den_events_of.
-  cbn [Denote.den_go]. unfold Denote.no_padding. cbn [filter Denote.is_padding negb].
-  rewrite filter_app. cbn [filter Denote.is_padding negb]. rewrite (filter_all _ _ (devs_no_padding t)). reflexivity.
+  intros Hf. induction rts as [|rt rts' IH]; intro r; [reflexivity|].
+  cbn [flat_map]. unfold rt_events at 1, rt_devs at 1. cbn [app Denote.den_go]. rewrite <- !app_assoc.
+  assert (Hi : forall l r0, Denote.den_go None (flat_map f l ++ r0) = flat_map devs l ++ Denote.den_go None r0).
+  { induction l as [|x l' IHl]; intro r0; [reflexivity|]. cbn [flat_map]. rewrite <- !app_assoc. rewrite Hf, IHl. reflexivity. }
+  rewrite Hi. cbn [app Denote.den_go]. rewrite IH. reflexivity.
+Qed.
+
+Theorem same_data rts t :
+  Denote.den (document (doc_rd rts t)) = Denote.no_padding (Denote.den (document (doc_events rts t))).
+Proof.
+  unfold Denote.den, document, doc_rd, doc_events. cbn [Denote.den_go]. rewrite <- !app_assoc.
+  rewrite (den_rts rd_events rts den_rd_events), (den_rts events_of rts den_events_of).
+  rewrite den_rd_events, den_events_of. cbn [Denote.den_go].
+  unfold Denote.no_padding. cbn [filter Denote.is_padding negb]. rewrite !filter_app. cbn [filter Denote.is_padding negb].
+  rewrite (filter_all _ _ (devs_no_padding t)).
+  assert (Hr : filter (fun d => negb (Denote.is_padding d)) (flat_map rt_devs rts) = flat_map rt_devs rts).
+  { apply filter_all. induction rts as [|rt rts' IH]; [reflexivity|]. cbn [flat_map]. rewrite forallb_app, IH. unfold rt_devs.
+    cbn [forallb Denote.is_padding negb andb]. rewrite forallb_app. cbn [forallb Denote.is_padding negb andb]. rewrite !andb_true_r.
+    apply no_pad_items. apply Forall_forall. intros x _. apply devs_no_padding. }
+  rewrite Hr. reflexivity.
 Qed.
 
 (* The composed statement for the fragment: the encoder model's text of the stream reads back, through the
    reader model, as a stream with the same denotation. *)
-Theorem cte_roundtrip_fragment c t : wf t -> is_value t = true ->
+Theorem cte_roundtrip_fragment c rts t : Forall wf_rt rts -> wf t -> is_value t = true -> doc_cfgok c rts t ->
   exists text out,
-    CteEnc.cte_encode c (document (events_of t)) = Some text /\
+    CteEnc.cte_encode c (document (doc_events rts t)) = Some text /\
     cte_read text = Some out /\
-    Denote.den out = Denote.no_padding (Denote.den (document (events_of t))).
+    Denote.den out = Denote.no_padding (Denote.den (document (doc_events rts t))).
 Proof.
-  intros Hwf Hv. exists (pp_doc t), (document (rd_events t)).
+  intros Hr Hwf Hv Hc. exists (pp_doc rts t), (document (doc_rd rts t)).
   split; [apply encode_pp_doc; assumption|]. split; [apply read_pp_doc; assumption|apply same_data].
 Qed.
+
+(* the hypothesis on the configuration: it holds for the default configuration whatever the document ... *)
+Lemma default_acfg a : acfg CteEnc.default_ccfg a.
+Proof. destruct a; try exact I. destruct sg, w; reflexivity. Qed.
+Lemma default_doc_cfgok rts t : doc_cfgok CteEnc.default_ccfg rts t.
+Proof.
+  assert (H : forall x, cfgok CteEnc.default_ccfg x) by (intro x; apply Forall_forall; intros a _; apply default_acfg).
+  split; [|apply H]. apply Forall_forall. intros rt _. apply Forall_forall. intros x _. apply H.
+Qed.
+
+(* ... and for every configuration when the document has no integer array *)
+Definition no_int_array (a : atom) : bool := match a with AIntArr _ _ _ => false | _ => true end.
+Definition array_free (rts : list rectype) (t : tree) : Prop :=
+  Forall (fun rt => Forall (fun x => forallb no_int_array (atoms_of x) = true) (snd rt)) rts /\ forallb no_int_array (atoms_of t) = true.
+Lemma array_free_cfgok c rts t : array_free rts t -> doc_cfgok c rts t.
+Proof.
+  assert (H : forall x, forallb no_int_array (atoms_of x) = true -> cfgok c x).
+  { intros x Hx. apply Forall_forall. intros a Ha. apply (proj1 (forallb_forall _ _) Hx) in Ha. destruct a; try exact I; discriminate. }
+  intros [Hr Ht]. split; [|apply H, Ht]. eapply Forall_impl; [|exact Hr]. intros rt Hrt. eapply Forall_impl; [|exact Hrt]. intros x. apply H.
+Qed.
+
+Corollary cte_roundtrip_default rts t : Forall wf_rt rts -> wf t -> is_value t = true ->
+  exists text out,
+    CteEnc.cte_encode CteEnc.default_ccfg (document (doc_events rts t)) = Some text /\
+    cte_read text = Some out /\
+    Denote.den out = Denote.no_padding (Denote.den (document (doc_events rts t))).
+Proof. intros. apply cte_roundtrip_fragment; try assumption. apply default_doc_cfgok. Qed.
+
+Corollary cte_roundtrip_any_config c rts t : Forall wf_rt rts -> wf t -> is_value t = true -> array_free rts t ->
+  exists text out,
+    CteEnc.cte_encode c (document (doc_events rts t)) = Some text /\
+    cte_read text = Some out /\
+    Denote.den out = Denote.no_padding (Denote.den (document (doc_events rts t))).
+Proof. intros. apply cte_roundtrip_fragment; try assumption. apply array_free_cfgok. assumption. Qed.
 
 (* ------------------------------------------------------------------ *)
 (** * Every valid UTF-8 text is the UTF-8 text of its code points *)
@@ -1975,25 +3712,49 @@ Proof. exact (unreadable_refutes _ w_comment_line_feed_unreadable). Qed.
 
 (* ---- examples: the hypotheses of the theorems are satisfiable ---- *)
 
-Definition ex_tree : tree :=
-  VMap [VCom false [104; 105];
-        VPair (VStr KStr true [107; 233; 10; 34; 8364; 128512])
-              (VList [VNull; VBool true true; VBool false false; VStr KRid false [104; 58; 120]; VStr KRef true [104; 58; 233]; VPos 18446744073709551616; VNeg 0; VInt (-5); VCom true [42; 120]; VList []; VMap []]);
-        VPair (VNeg 7) (VStr KStr false [])].
+Definition ex_rts : list rectype :=
+  [([112; 116], [VAtom (AStr KStr true [120]); VAtom (AStr KStr false [121])])].
 
-Lemma ex_tree_wf : wf ex_tree /\ is_value ex_tree = true.
-Proof.
-  split; [|reflexivity]. cbn [ex_tree wf is_value is_pair]. unfold scalars, scalar.
+Definition ex_tree : tree :=
+  VSeq SList
+    [VCom false [104; 105];
+     VSeq (SRec [112; 116]) [VAtom (APos 1); VAtom (ANeg 2)];
+     VNode (VAtom (AStr KStr true [110])) [VAtom ANull; VSeq SEdge [VAtom (APos 1); VCom true [42; 120]; VAtom (AStr KRid false [104; 58; 120]); VAtom (APos 2)]];
+     VMark [109; 49] (VSeq SList [VAtom (ABool true true); VAtom (ABool false false)]);
+     VAtom (ARef [109; 49]);
+     VAtom (AMedia [97; 47; 98] [1; 255]);
+     VAtom (ACustomB 7 [16]); VAtom (ACustomT 7 [116; 233]);
+     VAtom (AIntArr true W16 [1; 65535; 32768; 32767; 0]); VAtom (AIntArr false W64 [18446744073709551615]); VAtom (AIntArr true W8 []);
+     VAtom (AUidArr [[0; 17; 34; 51; 68; 85; 102; 119; 136; 153; 170; 187; 204; 221; 238; 255]; [1; 2; 3; 4; 5; 6; 7; 8; 9; 10; 11; 12; 13; 14; 15; 16]]); VAtom (AUidArr []);
+     VAtom (ABitArr [true; false; true; true; false; false; false; false; true; true]); VAtom (ABitArr []);
+     VAtom (AUid [171; 205; 239; 1; 35; 69; 103; 137; 10; 176; 14; 94; 0; 255; 128; 127]);
+     VMap [VPair (VAtom (AStr KStr true [107; 233; 10; 34; 8364; 128512]))
+                 (VSeq SList [VAtom ANull; VAtom (AStr KRef true [104; 58; 233]); VAtom (APos 18446744073709551616); VAtom (ANeg 0);
+                              VAtom (AInt (-5)); VSeq SList []; VMap []]);
+           VCom true [42; 120];
+           VPair (VAtom (ANeg 7)) (VMark [122] (VAtom (AStr KStr false [])))]].
+
+Ltac wf_tac :=
   repeat match goal with
          | |- _ /\ _ => split
          | |- Forall _ _ => constructor
          | |- True => exact I
-         | |- _ = _ => reflexivity
+         | |- wf _ => cbn [wf awf is_value is_pair is_node seq_ok]; unfold ident_ok, scalars, data_bytes
+         | |- _ <> _ => discriminate
+         | |- _ = _ => first [reflexivity | vm_compute; reflexivity]
+         | |- scalar _ => unfold scalar; lia
+         | |- _ < _ => first [lia | vm_compute; reflexivity]
          | |- _ => lia
          end.
+
+Lemma ex_tree_wf : Forall wf_rt ex_rts /\ wf ex_tree /\ is_value ex_tree = true.
+Proof.
+  split; [|split; [|reflexivity]].
+  - unfold ex_rts, wf_rt, ident_ok, scalars. cbn [fst snd wf awf is_pair]. wf_tac.
+  - cbn [ex_tree wf awf is_value is_pair is_node seq_ok]. unfold ident_ok, scalars, data_bytes. wf_tac.
 Qed.
 
-Lemma ex_tree_accepted : accepted (document (events_of ex_tree)).
+Lemma ex_tree_accepted : accepted (document (doc_events ex_rts ex_tree)).
 Proof. vm_compute. reflexivity. Qed.
 
 (* ------------------------------------------------------------------ *)
@@ -2111,3 +3872,24 @@ Theorem time_text_fixed h m s T : h < 24 -> m < 60 -> s <= 60 ->
   (match T with [] => True | c :: _ => c = 47 \/ c = 43 \/ c = 45 end) -> tz_text T = Some T ->
   time_text (hms h m s ++ T) = Some (hms h m s ++ T).
 Proof. intros Hh Hm Hs HT Hz. rewrite time_text_hms by assumption. rewrite Hz. reflexivity. Qed.
+
+(* ------------------------------------------------------------------ *)
+(** * Identifiers the validator admits are identifiers of the fragment (C03) *)
+
+Lemma runes_fuel_scalar : forall f s, Forall scalar (runes_fuel f s).
+Proof.
+  induction f as [|f IH]; intro s; [destruct s; constructor|].
+  destruct s as [|b s]; [constructor|]. cbn [runes_fuel].
+  destruct (decode_rune (b :: s)) as [[c n]|] eqn:E.
+  - constructor; [|apply IH].
+    destruct (decode_rune_inv _ _ _ E) as [Hn [Hl [_ Hf]]]. specialize (Hf []). rewrite app_nil_r in Hf.
+    assert (Hlen : length (firstn n (b :: s)) = n) by (apply firstn_length_le; exact Hl).
+    rewrite <- Hlen in Hf at 2. apply (decode_encode _ _ Hf).
+  - constructor; [unfold scalar; lia|apply IH].
+Qed.
+
+Theorem ident_valid_ok id : Convert.ident_valid id = true -> ident_ok (runes id) /\ str_bytes (runes id) = id.
+Proof.
+  intro H. destruct (ConvertProofs.ident_valid_spec id H) as [Hne [Hid [Hu _]]].
+  split; [|exact Hu]. split; [exact Hne|]. split; [exact Hid|apply runes_fuel_scalar].
+Qed.
